@@ -88,6 +88,9 @@ variables
   dnState = [f \in Ops |-> "open"],
   dnWaker = [f \in Ops |-> NoW],
   parkTok = [t \in Procs |-> FALSE],
+  barGen = 1,
+  myBar = [t \in Procs |-> 0],
+  cdone = [t \in Threads |-> FALSE],
   rv = [t \in Procs |-> 0],
   rwb = [t \in Procs |-> << >>],
   rneed = [t \in Procs |-> FALSE],
@@ -145,6 +148,12 @@ define {
   \* the PipeContext (and with it the poll function: input stream + closure) is kept alive by untaken PipeWakers that something still
   \* holds (the input stream, or the stream core while that is alive) and by poll jobs that have not finished
   HoldsCtx(w) == w.k = "PW" /\ ~pwTaken[w.d]
+  \* a phase barrier is passed when every other caller thread has finished, waits at the same barrier or is blocked on an unfired gate, and every
+  \* pool thread is idle or blocked on an unfired gate (no thread is inside the scheduler's code)
+  PoolIdle(p) == ~palive[p] \/ pfin[p] \/ (chanOpen[p] /\ ~busy[p] /\ ~busyLocked[p] /\ inbox[p] = 0)
+  GateBlocked(t) == ~parkTok[t] /\ \E g \in Gates : t \in gthreads[g] /\ g \notin gfired
+  BarrierReady(t) == /\ \A c \in Threads \ {t} : cdone[c] \/ myBar[c] = barGen \/ GateBlocked(c)
+                     /\ \A p \in PoolSet : PoolIdle(p) \/ GateBlocked(p)
   CtxAlive(p) == \/ HoldsCtx(inWaker[p])
                  \/ (CoreAlive(p) /\ (HoldsCtx(ppNC[p]) \/ HoldsCtx(ppBP[p])))
                  \/ \E j \in PollJobs(p) : pjLive[j]
@@ -152,7 +161,7 @@ define {
 
 \* ---- core.schedule_thread
 procedure ScheduleThread()
-  variables dead = << >>, sti = 1; {
+  variables dead = << >>, sti = 1, smax = 0; {
 st_reap:     \* [threads] remove_finished_threads
   await thrHeld = "";
   dead := SelectSeq(pthreads, LAMBDA p : pfin[p]);
@@ -168,11 +177,11 @@ st_dormant:  \* [threads], or [busy] when blocked on a busy flag (FixD2)
     else if (r.kind = "block") { thrHeld := self; sti := r.i; goto st_dormant; }
     else { thrHeld := ""; sti := 1; }
   };
-st_max:      \* [maxt]
-  skip;
+st_max:      \* [maxt] the maximum is read here, before the threads lock is taken (a concurrent set_max_threads is not seen by st_spawn)
+  smax := maxThreads;
 st_spawn:    \* [threads] spawn_thread_if_less_than_maximum
   await thrHeld = "";
-  if (Len(pthreads) < maxThreads) {
+  if (Len(pthreads) < smax) {
     pthreads := Append(pthreads, PoolNames[nspawned + 1]);
     palive[PoolNames[nspawned + 1]] := TRUE;
     chanOpen[PoolNames[nspawned + 1]] := TRUE;
@@ -332,6 +341,11 @@ z_pollaw_after:
 z_drop_ret:  \* Drop for Desync on a thread that is already unwinding uses sync_no_panic: a panicked queue is left alone (the value leaks), no second panic
   if (rv[self] = 2 /\ OpTab[bcur].then = "unwinding") { rv[self] := 0; };
   goto rb_step;
+rb_bar:      \* [barrier] phase barrier of the scenario: passed together, once every other thread is finished or waits at it and the pool is idle
+  await myBar[self] < barGen \/ BarrierReady(self);
+  if (myBar[self] = barGen) { barGen := barGen + 1; };
+  rv[self] := 0;
+  goto rb_step;
 rb_block:    \* [park] body blocks its thread until the gate fires
   await parkTok[self];
   parkTok[self] := FALSE;
@@ -363,6 +377,7 @@ z_dispatch:
   else if (K(bcur) = "suspend") { jkind[bcur] := "susp"; call ScheduleJob(O(bcur), bcur); goto z_then; }
   else if (K(bcur) = "fsync") { jkind[bcur] := "slot"; call ScheduleJob(O(bcur), bcur); goto z_then; }
   else if (K(bcur) = "dropf") { call DropFuture(OpTab[bcur].f); goto rb_step; }
+  else if (K(bcur) = "barrier") { myBar[self] := barGen; goto rb_bar; }
   else if (K(bcur) \in {"fire", "resume", "drop_resumer"}) {
     h := IF K(bcur) = "fire" THEN ObsFire(h, GateOfOp(bcur)) ELSE ObsResume(h, self, OpTab[bcur].f);
     gfired := gfired \cup {GateOfOp(bcur)};
@@ -1032,6 +1047,7 @@ c_start:     \* [start]
   call RunOps(Prog[self], 0, NoW);
 z_c_exit:    \* the thread's last step also covers its exit
   h := ObsExit(h, self, 0, 0);
+  cdone[self] := TRUE;
 }
 
 process (pool \in PoolSet)
@@ -1064,10 +1080,10 @@ VARIABLES pc, qstate, qpoll, jobs, wakeBlocked, schedule, pthreads, nspawned,
           maxThreads, jkind, jaw, fres, fwaker, gfired, gwaker, gthreads, 
           gwhist, dwSt, dwW, dblTaken, dblW1, dblW2, nextDW, ready, cwait, 
           cnotif, cvHeld, sdres, jpanic, sfst, slotSt, qrSent, qrWaker, 
-          dnState, dnWaker, parkTok, rv, rwb, rneed, dsl, atomic, strong, 
-          ppPending, ppClosed, ppNotify, ppNC, ppBP, ppDepth, ppAlive, ppHeld, 
-          inItems, inClosed, inWaker, pollFn, chuteFn, pwTaken, nextPoll, 
-          ppItem, pjLive, ppStage, h, stack
+          dnState, dnWaker, parkTok, barGen, myBar, cdone, rv, rwb, rneed, 
+          dsl, atomic, strong, ppPending, ppClosed, ppNotify, ppNC, ppBP, 
+          ppDepth, ppAlive, ppHeld, inItems, inClosed, inWaker, pollFn, 
+          chuteFn, pwTaken, nextPoll, ppItem, pjLive, ppStage, h, stack
 
 (* define statement *)
 RECURSIVE NTR(_)
@@ -1100,28 +1116,34 @@ CoreAlive(p) == ppAlive[p] \/ ppHeld[p] > 0
 
 
 HoldsCtx(w) == w.k = "PW" /\ ~pwTaken[w.d]
+
+
+PoolIdle(p) == ~palive[p] \/ pfin[p] \/ (chanOpen[p] /\ ~busy[p] /\ ~busyLocked[p] /\ inbox[p] = 0)
+GateBlocked(t) == ~parkTok[t] /\ \E g \in Gates : t \in gthreads[g] /\ g \notin gfired
+BarrierReady(t) == /\ \A c \in Threads \ {t} : cdone[c] \/ myBar[c] = barGen \/ GateBlocked(c)
+                   /\ \A p \in PoolSet : PoolIdle(p) \/ GateBlocked(p)
 CtxAlive(p) == \/ HoldsCtx(inWaker[p])
                \/ (CoreAlive(p) /\ (HoldsCtx(ppNC[p]) \/ HoldsCtx(ppBP[p])))
                \/ \E j \in PollJobs(p) : pjLive[j]
 
-VARIABLES dead, sti, rq, sq, sj, ww, rsq, bown, bwk, bi, bcur, bw, bsp, jq, 
-          jj, jwk, fj, dq, dj, oq, oop, omode, oj, yq, yop, yclaimed, tq, top, 
-          af, wf, wop, sf, sctx, xf, cop, kj, pp, pwk, np, nbp, nres, dp, pf, 
-          pctx, pq, pj, pd, nq
+VARIABLES dead, sti, smax, rq, sq, sj, ww, rsq, bown, bwk, bi, bcur, bw, bsp, 
+          jq, jj, jwk, fj, dq, dj, oq, oop, omode, oj, yq, yop, yclaimed, tq, 
+          top, af, wf, wop, sf, sctx, xf, cop, kj, pp, pwk, np, nbp, nres, dp, 
+          pf, pctx, pq, pj, pd, nq
 
 vars == << pc, qstate, qpoll, jobs, wakeBlocked, schedule, pthreads, nspawned, 
            palive, busy, busyLocked, inbox, chanOpen, pfin, thrHeld, 
            maxThreads, jkind, jaw, fres, fwaker, gfired, gwaker, gthreads, 
            gwhist, dwSt, dwW, dblTaken, dblW1, dblW2, nextDW, ready, cwait, 
            cnotif, cvHeld, sdres, jpanic, sfst, slotSt, qrSent, qrWaker, 
-           dnState, dnWaker, parkTok, rv, rwb, rneed, dsl, atomic, strong, 
-           ppPending, ppClosed, ppNotify, ppNC, ppBP, ppDepth, ppAlive, 
-           ppHeld, inItems, inClosed, inWaker, pollFn, chuteFn, pwTaken, 
-           nextPoll, ppItem, pjLive, ppStage, h, stack, dead, sti, rq, sq, sj, 
-           ww, rsq, bown, bwk, bi, bcur, bw, bsp, jq, jj, jwk, fj, dq, dj, oq, 
-           oop, omode, oj, yq, yop, yclaimed, tq, top, af, wf, wop, sf, sctx, 
-           xf, cop, kj, pp, pwk, np, nbp, nres, dp, pf, pctx, pq, pj, pd, nq
-        >>
+           dnState, dnWaker, parkTok, barGen, myBar, cdone, rv, rwb, rneed, 
+           dsl, atomic, strong, ppPending, ppClosed, ppNotify, ppNC, ppBP, 
+           ppDepth, ppAlive, ppHeld, inItems, inClosed, inWaker, pollFn, 
+           chuteFn, pwTaken, nextPoll, ppItem, pjLive, ppStage, h, stack, 
+           dead, sti, smax, rq, sq, sj, ww, rsq, bown, bwk, bi, bcur, bw, bsp, 
+           jq, jj, jwk, fj, dq, dj, oq, oop, omode, oj, yq, yop, yclaimed, tq, 
+           top, af, wf, wop, sf, sctx, xf, cop, kj, pp, pwk, np, nbp, nres, 
+           dp, pf, pctx, pq, pj, pd, nq >>
 
 ProcSet == (Threads) \cup (PoolSet)
 
@@ -1168,6 +1190,9 @@ Init == (* Global variables *)
         /\ dnState = [f \in Ops |-> "open"]
         /\ dnWaker = [f \in Ops |-> NoW]
         /\ parkTok = [t \in Procs |-> FALSE]
+        /\ barGen = 1
+        /\ myBar = [t \in Procs |-> 0]
+        /\ cdone = [t \in Threads |-> FALSE]
         /\ rv = [t \in Procs |-> 0]
         /\ rwb = [t \in Procs |-> << >>]
         /\ rneed = [t \in Procs |-> FALSE]
@@ -1196,6 +1221,7 @@ Init == (* Global variables *)
         (* Procedure ScheduleThread *)
         /\ dead = [ self \in ProcSet |-> << >>]
         /\ sti = [ self \in ProcSet |-> 1]
+        /\ smax = [ self \in ProcSet |-> 0]
         (* Procedure Reschedule *)
         /\ rq = [ self \in ProcSet |-> defaultInitValue]
         (* Procedure ScheduleJob *)
@@ -1280,17 +1306,17 @@ st_reap(self) == /\ pc[self] = "st_reap"
                                  gwhist, dwSt, dwW, dblTaken, dblW1, dblW2, 
                                  nextDW, ready, cwait, cnotif, cvHeld, sdres, 
                                  jpanic, sfst, slotSt, qrSent, qrWaker, 
-                                 dnState, dnWaker, parkTok, rv, rwb, rneed, 
-                                 dsl, atomic, strong, ppPending, ppClosed, 
-                                 ppNotify, ppNC, ppBP, ppDepth, ppAlive, 
-                                 ppHeld, inItems, inClosed, inWaker, pollFn, 
-                                 chuteFn, pwTaken, nextPoll, ppItem, pjLive, 
-                                 ppStage, h, stack, sti, rq, sq, sj, ww, rsq, 
-                                 bown, bwk, bi, bcur, bw, bsp, jq, jj, jwk, fj, 
-                                 dq, dj, oq, oop, omode, oj, yq, yop, yclaimed, 
-                                 tq, top, af, wf, wop, sf, sctx, xf, cop, kj, 
-                                 pp, pwk, np, nbp, nres, dp, pf, pctx, pq, pj, 
-                                 pd, nq >>
+                                 dnState, dnWaker, parkTok, barGen, myBar, 
+                                 cdone, rv, rwb, rneed, dsl, atomic, strong, 
+                                 ppPending, ppClosed, ppNotify, ppNC, ppBP, 
+                                 ppDepth, ppAlive, ppHeld, inItems, inClosed, 
+                                 inWaker, pollFn, chuteFn, pwTaken, nextPoll, 
+                                 ppItem, pjLive, ppStage, h, stack, sti, smax, 
+                                 rq, sq, sj, ww, rsq, bown, bwk, bi, bcur, bw, 
+                                 bsp, jq, jj, jwk, fj, dq, dj, oq, oop, omode, 
+                                 oj, yq, yop, yclaimed, tq, top, af, wf, wop, 
+                                 sf, sctx, xf, cop, kj, pp, pwk, np, nbp, nres, 
+                                 dp, pf, pctx, pq, pj, pd, nq >>
 
 st_join(self) == /\ pc[self] = "st_join"
                  /\ dead' = [dead EXCEPT ![self] = Tail(dead[self])]
@@ -1304,17 +1330,17 @@ st_join(self) == /\ pc[self] = "st_join"
                                  gthreads, gwhist, dwSt, dwW, dblTaken, dblW1, 
                                  dblW2, nextDW, ready, cwait, cnotif, cvHeld, 
                                  sdres, jpanic, sfst, slotSt, qrSent, qrWaker, 
-                                 dnState, dnWaker, parkTok, rv, rwb, rneed, 
-                                 dsl, atomic, strong, ppPending, ppClosed, 
-                                 ppNotify, ppNC, ppBP, ppDepth, ppAlive, 
-                                 ppHeld, inItems, inClosed, inWaker, pollFn, 
-                                 chuteFn, pwTaken, nextPoll, ppItem, pjLive, 
-                                 ppStage, h, stack, sti, rq, sq, sj, ww, rsq, 
-                                 bown, bwk, bi, bcur, bw, bsp, jq, jj, jwk, fj, 
-                                 dq, dj, oq, oop, omode, oj, yq, yop, yclaimed, 
-                                 tq, top, af, wf, wop, sf, sctx, xf, cop, kj, 
-                                 pp, pwk, np, nbp, nres, dp, pf, pctx, pq, pj, 
-                                 pd, nq >>
+                                 dnState, dnWaker, parkTok, barGen, myBar, 
+                                 cdone, rv, rwb, rneed, dsl, atomic, strong, 
+                                 ppPending, ppClosed, ppNotify, ppNC, ppBP, 
+                                 ppDepth, ppAlive, ppHeld, inItems, inClosed, 
+                                 inWaker, pollFn, chuteFn, pwTaken, nextPoll, 
+                                 ppItem, pjLive, ppStage, h, stack, sti, smax, 
+                                 rq, sq, sj, ww, rsq, bown, bwk, bi, bcur, bw, 
+                                 bsp, jq, jj, jwk, fj, dq, dj, oq, oop, omode, 
+                                 oj, yq, yop, yclaimed, tq, top, af, wf, wop, 
+                                 sf, sctx, xf, cop, kj, pp, pwk, np, nbp, nres, 
+                                 dp, pf, pctx, pq, pj, pd, nq >>
 
 st_dormant(self) == /\ pc[self] = "st_dormant"
                     /\ (thrHeld = "" \/ thrHeld = self) /\ (thrHeld = self => ~busyLocked[pthreads[sti[self]]])
@@ -1326,6 +1352,7 @@ st_dormant(self) == /\ pc[self] = "st_dormant"
                                  /\ pc' = [pc EXCEPT ![self] = Head(stack[self]).pc]
                                  /\ dead' = [dead EXCEPT ![self] = Head(stack[self]).dead]
                                  /\ sti' = [sti EXCEPT ![self] = Head(stack[self]).sti]
+                                 /\ smax' = [smax EXCEPT ![self] = Head(stack[self]).smax]
                                  /\ stack' = [stack EXCEPT ![self] = Tail(stack[self])]
                             ELSE /\ IF r.kind = "block"
                                        THEN /\ thrHeld' = self
@@ -1334,7 +1361,8 @@ st_dormant(self) == /\ pc[self] = "st_dormant"
                                        ELSE /\ thrHeld' = ""
                                             /\ sti' = [sti EXCEPT ![self] = 1]
                                             /\ pc' = [pc EXCEPT ![self] = "st_max"]
-                                 /\ UNCHANGED << busy, inbox, stack, dead >>
+                                 /\ UNCHANGED << busy, inbox, stack, dead, 
+                                                 smax >>
                     /\ UNCHANGED << qstate, qpoll, jobs, wakeBlocked, schedule, 
                                     pthreads, nspawned, palive, busyLocked, 
                                     chanOpen, pfin, maxThreads, jkind, jaw, 
@@ -1342,21 +1370,21 @@ st_dormant(self) == /\ pc[self] = "st_dormant"
                                     gwhist, dwSt, dwW, dblTaken, dblW1, dblW2, 
                                     nextDW, ready, cwait, cnotif, cvHeld, 
                                     sdres, jpanic, sfst, slotSt, qrSent, 
-                                    qrWaker, dnState, dnWaker, parkTok, rv, 
-                                    rwb, rneed, dsl, atomic, strong, ppPending, 
-                                    ppClosed, ppNotify, ppNC, ppBP, ppDepth, 
-                                    ppAlive, ppHeld, inItems, inClosed, 
-                                    inWaker, pollFn, chuteFn, pwTaken, 
-                                    nextPoll, ppItem, pjLive, ppStage, h, rq, 
-                                    sq, sj, ww, rsq, bown, bwk, bi, bcur, bw, 
-                                    bsp, jq, jj, jwk, fj, dq, dj, oq, oop, 
-                                    omode, oj, yq, yop, yclaimed, tq, top, af, 
-                                    wf, wop, sf, sctx, xf, cop, kj, pp, pwk, 
-                                    np, nbp, nres, dp, pf, pctx, pq, pj, pd, 
-                                    nq >>
+                                    qrWaker, dnState, dnWaker, parkTok, barGen, 
+                                    myBar, cdone, rv, rwb, rneed, dsl, atomic, 
+                                    strong, ppPending, ppClosed, ppNotify, 
+                                    ppNC, ppBP, ppDepth, ppAlive, ppHeld, 
+                                    inItems, inClosed, inWaker, pollFn, 
+                                    chuteFn, pwTaken, nextPoll, ppItem, pjLive, 
+                                    ppStage, h, rq, sq, sj, ww, rsq, bown, bwk, 
+                                    bi, bcur, bw, bsp, jq, jj, jwk, fj, dq, dj, 
+                                    oq, oop, omode, oj, yq, yop, yclaimed, tq, 
+                                    top, af, wf, wop, sf, sctx, xf, cop, kj, 
+                                    pp, pwk, np, nbp, nres, dp, pf, pctx, pq, 
+                                    pj, pd, nq >>
 
 st_max(self) == /\ pc[self] = "st_max"
-                /\ TRUE
+                /\ smax' = [smax EXCEPT ![self] = maxThreads]
                 /\ pc' = [pc EXCEPT ![self] = "st_spawn"]
                 /\ UNCHANGED << qstate, qpoll, jobs, wakeBlocked, schedule, 
                                 pthreads, nspawned, palive, busy, busyLocked, 
@@ -1365,30 +1393,32 @@ st_max(self) == /\ pc[self] = "st_max"
                                 gthreads, gwhist, dwSt, dwW, dblTaken, dblW1, 
                                 dblW2, nextDW, ready, cwait, cnotif, cvHeld, 
                                 sdres, jpanic, sfst, slotSt, qrSent, qrWaker, 
-                                dnState, dnWaker, parkTok, rv, rwb, rneed, dsl, 
-                                atomic, strong, ppPending, ppClosed, ppNotify, 
-                                ppNC, ppBP, ppDepth, ppAlive, ppHeld, inItems, 
-                                inClosed, inWaker, pollFn, chuteFn, pwTaken, 
-                                nextPoll, ppItem, pjLive, ppStage, h, stack, 
-                                dead, sti, rq, sq, sj, ww, rsq, bown, bwk, bi, 
-                                bcur, bw, bsp, jq, jj, jwk, fj, dq, dj, oq, 
-                                oop, omode, oj, yq, yop, yclaimed, tq, top, af, 
-                                wf, wop, sf, sctx, xf, cop, kj, pp, pwk, np, 
-                                nbp, nres, dp, pf, pctx, pq, pj, pd, nq >>
+                                dnState, dnWaker, parkTok, barGen, myBar, 
+                                cdone, rv, rwb, rneed, dsl, atomic, strong, 
+                                ppPending, ppClosed, ppNotify, ppNC, ppBP, 
+                                ppDepth, ppAlive, ppHeld, inItems, inClosed, 
+                                inWaker, pollFn, chuteFn, pwTaken, nextPoll, 
+                                ppItem, pjLive, ppStage, h, stack, dead, sti, 
+                                rq, sq, sj, ww, rsq, bown, bwk, bi, bcur, bw, 
+                                bsp, jq, jj, jwk, fj, dq, dj, oq, oop, omode, 
+                                oj, yq, yop, yclaimed, tq, top, af, wf, wop, 
+                                sf, sctx, xf, cop, kj, pp, pwk, np, nbp, nres, 
+                                dp, pf, pctx, pq, pj, pd, nq >>
 
 st_spawn(self) == /\ pc[self] = "st_spawn"
                   /\ thrHeld = ""
-                  /\ IF Len(pthreads) < maxThreads
+                  /\ IF Len(pthreads) < smax[self]
                         THEN /\ pthreads' = Append(pthreads, PoolNames[nspawned + 1])
                              /\ palive' = [palive EXCEPT ![PoolNames[nspawned + 1]] = TRUE]
                              /\ chanOpen' = [chanOpen EXCEPT ![PoolNames[nspawned + 1]] = TRUE]
                              /\ nspawned' = nspawned + 1
                              /\ h' = ObsSpawn(h, 1)
                              /\ pc' = [pc EXCEPT ![self] = "st_reap"]
-                             /\ UNCHANGED << stack, dead, sti >>
+                             /\ UNCHANGED << stack, dead, sti, smax >>
                         ELSE /\ pc' = [pc EXCEPT ![self] = Head(stack[self]).pc]
                              /\ dead' = [dead EXCEPT ![self] = Head(stack[self]).dead]
                              /\ sti' = [sti EXCEPT ![self] = Head(stack[self]).sti]
+                             /\ smax' = [smax EXCEPT ![self] = Head(stack[self]).smax]
                              /\ stack' = [stack EXCEPT ![self] = Tail(stack[self])]
                              /\ UNCHANGED << pthreads, nspawned, palive, 
                                              chanOpen, h >>
@@ -1399,16 +1429,16 @@ st_spawn(self) == /\ pc[self] = "st_spawn"
                                   dblTaken, dblW1, dblW2, nextDW, ready, cwait, 
                                   cnotif, cvHeld, sdres, jpanic, sfst, slotSt, 
                                   qrSent, qrWaker, dnState, dnWaker, parkTok, 
-                                  rv, rwb, rneed, dsl, atomic, strong, 
-                                  ppPending, ppClosed, ppNotify, ppNC, ppBP, 
-                                  ppDepth, ppAlive, ppHeld, inItems, inClosed, 
-                                  inWaker, pollFn, chuteFn, pwTaken, nextPoll, 
-                                  ppItem, pjLive, ppStage, rq, sq, sj, ww, rsq, 
-                                  bown, bwk, bi, bcur, bw, bsp, jq, jj, jwk, 
-                                  fj, dq, dj, oq, oop, omode, oj, yq, yop, 
-                                  yclaimed, tq, top, af, wf, wop, sf, sctx, xf, 
-                                  cop, kj, pp, pwk, np, nbp, nres, dp, pf, 
-                                  pctx, pq, pj, pd, nq >>
+                                  barGen, myBar, cdone, rv, rwb, rneed, dsl, 
+                                  atomic, strong, ppPending, ppClosed, 
+                                  ppNotify, ppNC, ppBP, ppDepth, ppAlive, 
+                                  ppHeld, inItems, inClosed, inWaker, pollFn, 
+                                  chuteFn, pwTaken, nextPoll, ppItem, pjLive, 
+                                  ppStage, rq, sq, sj, ww, rsq, bown, bwk, bi, 
+                                  bcur, bw, bsp, jq, jj, jwk, fj, dq, dj, oq, 
+                                  oop, omode, oj, yq, yop, yclaimed, tq, top, 
+                                  af, wf, wop, sf, sctx, xf, cop, kj, pp, pwk, 
+                                  np, nbp, nres, dp, pf, pctx, pq, pj, pd, nq >>
 
 ScheduleThread(self) == st_reap(self) \/ st_join(self) \/ st_dormant(self)
                            \/ st_max(self) \/ st_spawn(self)
@@ -1443,16 +1473,16 @@ rq_core(self) == /\ pc[self] = "rq_core"
                                  dwSt, dwW, dblTaken, dblW1, dblW2, nextDW, 
                                  ready, cwait, cvHeld, sdres, jpanic, sfst, 
                                  slotSt, qrSent, qrWaker, dnState, dnWaker, 
-                                 parkTok, rv, dsl, atomic, strong, ppPending, 
-                                 ppClosed, ppNotify, ppNC, ppBP, ppDepth, 
-                                 ppAlive, ppHeld, inItems, inClosed, inWaker, 
-                                 pollFn, chuteFn, pwTaken, nextPoll, ppItem, 
-                                 pjLive, ppStage, h, dead, sti, sq, sj, ww, 
-                                 rsq, bown, bwk, bi, bcur, bw, bsp, jq, jj, 
-                                 jwk, fj, dq, dj, oq, oop, omode, oj, yq, yop, 
-                                 yclaimed, tq, top, af, wf, wop, sf, sctx, xf, 
-                                 cop, kj, pp, pwk, np, nbp, nres, dp, pf, pctx, 
-                                 pq, pj, pd, nq >>
+                                 parkTok, barGen, myBar, cdone, rv, dsl, 
+                                 atomic, strong, ppPending, ppClosed, ppNotify, 
+                                 ppNC, ppBP, ppDepth, ppAlive, ppHeld, inItems, 
+                                 inClosed, inWaker, pollFn, chuteFn, pwTaken, 
+                                 nextPoll, ppItem, pjLive, ppStage, h, dead, 
+                                 sti, smax, sq, sj, ww, rsq, bown, bwk, bi, 
+                                 bcur, bw, bsp, jq, jj, jwk, fj, dq, dj, oq, 
+                                 oop, omode, oj, yq, yop, yclaimed, tq, top, 
+                                 af, wf, wop, sf, sctx, xf, cop, kj, pp, pwk, 
+                                 np, nbp, nres, dp, pf, pctx, pq, pj, pd, nq >>
 
 rq_notify(self) == /\ pc[self] = "rq_notify"
                    /\ cnotif' = [cnotif EXCEPT ![Head(rwb[self])] = cwait[Head(rwb[self])]]
@@ -1474,11 +1504,12 @@ rq_notify(self) == /\ pc[self] = "rq_notify"
                                    dblTaken, dblW1, dblW2, nextDW, ready, 
                                    cwait, cvHeld, sdres, jpanic, sfst, slotSt, 
                                    qrSent, qrWaker, dnState, dnWaker, parkTok, 
-                                   rv, rneed, dsl, atomic, strong, ppPending, 
-                                   ppClosed, ppNotify, ppNC, ppBP, ppDepth, 
-                                   ppAlive, ppHeld, inItems, inClosed, inWaker, 
-                                   pollFn, chuteFn, pwTaken, nextPoll, ppItem, 
-                                   pjLive, ppStage, h, dead, sti, sq, sj, ww, 
+                                   barGen, myBar, cdone, rv, rneed, dsl, 
+                                   atomic, strong, ppPending, ppClosed, 
+                                   ppNotify, ppNC, ppBP, ppDepth, ppAlive, 
+                                   ppHeld, inItems, inClosed, inWaker, pollFn, 
+                                   chuteFn, pwTaken, nextPoll, ppItem, pjLive, 
+                                   ppStage, h, dead, sti, smax, sq, sj, ww, 
                                    rsq, bown, bwk, bi, bcur, bw, bsp, jq, jj, 
                                    jwk, fj, dq, dj, oq, oop, omode, oj, yq, 
                                    yop, yclaimed, tq, top, af, wf, wop, sf, 
@@ -1490,10 +1521,12 @@ rq_sched(self) == /\ pc[self] = "rq_sched"
                   /\ stack' = [stack EXCEPT ![self] = << [ procedure |->  "ScheduleThread",
                                                            pc        |->  Head(stack[self]).pc,
                                                            dead      |->  dead[self],
-                                                           sti       |->  sti[self] ] >>
+                                                           sti       |->  sti[self],
+                                                           smax      |->  smax[self] ] >>
                                                        \o Tail(stack[self])]
                   /\ dead' = [dead EXCEPT ![self] = << >>]
                   /\ sti' = [sti EXCEPT ![self] = 1]
+                  /\ smax' = [smax EXCEPT ![self] = 0]
                   /\ pc' = [pc EXCEPT ![self] = "st_reap"]
                   /\ UNCHANGED << qstate, qpoll, jobs, wakeBlocked, pthreads, 
                                   nspawned, palive, busy, busyLocked, inbox, 
@@ -1502,17 +1535,17 @@ rq_sched(self) == /\ pc[self] = "rq_sched"
                                   gwhist, dwSt, dwW, dblTaken, dblW1, dblW2, 
                                   nextDW, ready, cwait, cnotif, cvHeld, sdres, 
                                   jpanic, sfst, slotSt, qrSent, qrWaker, 
-                                  dnState, dnWaker, parkTok, rv, rwb, rneed, 
-                                  dsl, atomic, strong, ppPending, ppClosed, 
-                                  ppNotify, ppNC, ppBP, ppDepth, ppAlive, 
-                                  ppHeld, inItems, inClosed, inWaker, pollFn, 
-                                  chuteFn, pwTaken, nextPoll, ppItem, pjLive, 
-                                  ppStage, h, rq, sq, sj, ww, rsq, bown, bwk, 
-                                  bi, bcur, bw, bsp, jq, jj, jwk, fj, dq, dj, 
-                                  oq, oop, omode, oj, yq, yop, yclaimed, tq, 
-                                  top, af, wf, wop, sf, sctx, xf, cop, kj, pp, 
-                                  pwk, np, nbp, nres, dp, pf, pctx, pq, pj, pd, 
-                                  nq >>
+                                  dnState, dnWaker, parkTok, barGen, myBar, 
+                                  cdone, rv, rwb, rneed, dsl, atomic, strong, 
+                                  ppPending, ppClosed, ppNotify, ppNC, ppBP, 
+                                  ppDepth, ppAlive, ppHeld, inItems, inClosed, 
+                                  inWaker, pollFn, chuteFn, pwTaken, nextPoll, 
+                                  ppItem, pjLive, ppStage, h, rq, sq, sj, ww, 
+                                  rsq, bown, bwk, bi, bcur, bw, bsp, jq, jj, 
+                                  jwk, fj, dq, dj, oq, oop, omode, oj, yq, yop, 
+                                  yclaimed, tq, top, af, wf, wop, sf, sctx, xf, 
+                                  cop, kj, pp, pwk, np, nbp, nres, dp, pf, 
+                                  pctx, pq, pj, pd, nq >>
 
 Reschedule(self) == rq_core(self) \/ rq_notify(self) \/ rq_sched(self)
 
@@ -1541,26 +1574,29 @@ sj_push(self) == /\ pc[self] = "sj_push"
                                  gwhist, dwSt, dwW, dblTaken, dblW1, dblW2, 
                                  nextDW, ready, cwait, cnotif, cvHeld, sdres, 
                                  jpanic, sfst, slotSt, qrSent, qrWaker, 
-                                 dnState, dnWaker, parkTok, rwb, rneed, dsl, 
-                                 atomic, strong, ppPending, ppClosed, ppNotify, 
-                                 ppNC, ppBP, ppDepth, ppAlive, ppHeld, inItems, 
-                                 inClosed, inWaker, pollFn, chuteFn, pwTaken, 
-                                 nextPoll, ppItem, pjLive, ppStage, h, dead, 
-                                 sti, rq, ww, rsq, bown, bwk, bi, bcur, bw, 
-                                 bsp, jq, jj, jwk, fj, dq, dj, oq, oop, omode, 
-                                 oj, yq, yop, yclaimed, tq, top, af, wf, wop, 
-                                 sf, sctx, xf, cop, kj, pp, pwk, np, nbp, nres, 
-                                 dp, pf, pctx, pq, pj, pd, nq >>
+                                 dnState, dnWaker, parkTok, barGen, myBar, 
+                                 cdone, rwb, rneed, dsl, atomic, strong, 
+                                 ppPending, ppClosed, ppNotify, ppNC, ppBP, 
+                                 ppDepth, ppAlive, ppHeld, inItems, inClosed, 
+                                 inWaker, pollFn, chuteFn, pwTaken, nextPoll, 
+                                 ppItem, pjLive, ppStage, h, dead, sti, smax, 
+                                 rq, ww, rsq, bown, bwk, bi, bcur, bw, bsp, jq, 
+                                 jj, jwk, fj, dq, dj, oq, oop, omode, oj, yq, 
+                                 yop, yclaimed, tq, top, af, wf, wop, sf, sctx, 
+                                 xf, cop, kj, pp, pwk, np, nbp, nres, dp, pf, 
+                                 pctx, pq, pj, pd, nq >>
 
 sj_sched(self) == /\ pc[self] = "sj_sched"
                   /\ schedule' = Append(schedule, sq[self])
                   /\ stack' = [stack EXCEPT ![self] = << [ procedure |->  "ScheduleThread",
                                                            pc        |->  "z_sj_ret",
                                                            dead      |->  dead[self],
-                                                           sti       |->  sti[self] ] >>
+                                                           sti       |->  sti[self],
+                                                           smax      |->  smax[self] ] >>
                                                        \o stack[self]]
                   /\ dead' = [dead EXCEPT ![self] = << >>]
                   /\ sti' = [sti EXCEPT ![self] = 1]
+                  /\ smax' = [smax EXCEPT ![self] = 0]
                   /\ pc' = [pc EXCEPT ![self] = "st_reap"]
                   /\ UNCHANGED << qstate, qpoll, jobs, wakeBlocked, pthreads, 
                                   nspawned, palive, busy, busyLocked, inbox, 
@@ -1569,17 +1605,17 @@ sj_sched(self) == /\ pc[self] = "sj_sched"
                                   gwhist, dwSt, dwW, dblTaken, dblW1, dblW2, 
                                   nextDW, ready, cwait, cnotif, cvHeld, sdres, 
                                   jpanic, sfst, slotSt, qrSent, qrWaker, 
-                                  dnState, dnWaker, parkTok, rv, rwb, rneed, 
-                                  dsl, atomic, strong, ppPending, ppClosed, 
-                                  ppNotify, ppNC, ppBP, ppDepth, ppAlive, 
-                                  ppHeld, inItems, inClosed, inWaker, pollFn, 
-                                  chuteFn, pwTaken, nextPoll, ppItem, pjLive, 
-                                  ppStage, h, rq, sq, sj, ww, rsq, bown, bwk, 
-                                  bi, bcur, bw, bsp, jq, jj, jwk, fj, dq, dj, 
-                                  oq, oop, omode, oj, yq, yop, yclaimed, tq, 
-                                  top, af, wf, wop, sf, sctx, xf, cop, kj, pp, 
-                                  pwk, np, nbp, nres, dp, pf, pctx, pq, pj, pd, 
-                                  nq >>
+                                  dnState, dnWaker, parkTok, barGen, myBar, 
+                                  cdone, rv, rwb, rneed, dsl, atomic, strong, 
+                                  ppPending, ppClosed, ppNotify, ppNC, ppBP, 
+                                  ppDepth, ppAlive, ppHeld, inItems, inClosed, 
+                                  inWaker, pollFn, chuteFn, pwTaken, nextPoll, 
+                                  ppItem, pjLive, ppStage, h, rq, sq, sj, ww, 
+                                  rsq, bown, bwk, bi, bcur, bw, bsp, jq, jj, 
+                                  jwk, fj, dq, dj, oq, oop, omode, oj, yq, yop, 
+                                  yclaimed, tq, top, af, wf, wop, sf, sctx, xf, 
+                                  cop, kj, pp, pwk, np, nbp, nres, dp, pf, 
+                                  pctx, pq, pj, pd, nq >>
 
 z_sj_ret(self) == /\ pc[self] = "z_sj_ret"
                   /\ rv' = [rv EXCEPT ![self] = 0]
@@ -1594,17 +1630,17 @@ z_sj_ret(self) == /\ pc[self] = "z_sj_ret"
                                   gthreads, gwhist, dwSt, dwW, dblTaken, dblW1, 
                                   dblW2, nextDW, ready, cwait, cnotif, cvHeld, 
                                   sdres, jpanic, sfst, slotSt, qrSent, qrWaker, 
-                                  dnState, dnWaker, parkTok, rwb, rneed, dsl, 
-                                  atomic, strong, ppPending, ppClosed, 
-                                  ppNotify, ppNC, ppBP, ppDepth, ppAlive, 
-                                  ppHeld, inItems, inClosed, inWaker, pollFn, 
-                                  chuteFn, pwTaken, nextPoll, ppItem, pjLive, 
-                                  ppStage, h, dead, sti, rq, ww, rsq, bown, 
-                                  bwk, bi, bcur, bw, bsp, jq, jj, jwk, fj, dq, 
-                                  dj, oq, oop, omode, oj, yq, yop, yclaimed, 
-                                  tq, top, af, wf, wop, sf, sctx, xf, cop, kj, 
-                                  pp, pwk, np, nbp, nres, dp, pf, pctx, pq, pj, 
-                                  pd, nq >>
+                                  dnState, dnWaker, parkTok, barGen, myBar, 
+                                  cdone, rwb, rneed, dsl, atomic, strong, 
+                                  ppPending, ppClosed, ppNotify, ppNC, ppBP, 
+                                  ppDepth, ppAlive, ppHeld, inItems, inClosed, 
+                                  inWaker, pollFn, chuteFn, pwTaken, nextPoll, 
+                                  ppItem, pjLive, ppStage, h, dead, sti, smax, 
+                                  rq, ww, rsq, bown, bwk, bi, bcur, bw, bsp, 
+                                  jq, jj, jwk, fj, dq, dj, oq, oop, omode, oj, 
+                                  yq, yop, yclaimed, tq, top, af, wf, wop, sf, 
+                                  sctx, xf, cop, kj, pp, pwk, np, nbp, nres, 
+                                  dp, pf, pctx, pq, pj, pd, nq >>
 
 ScheduleJob(self) == sj_push(self) \/ sj_sched(self) \/ z_sj_ret(self)
 
@@ -1736,16 +1772,16 @@ wk_lock(self) == /\ pc[self] = "wk_lock"
                                  fres, fwaker, gfired, gwaker, gthreads, 
                                  gwhist, dblW1, dblW2, nextDW, ready, cwait, 
                                  cnotif, cvHeld, sdres, jpanic, sfst, slotSt, 
-                                 qrSent, qrWaker, dnState, dnWaker, rv, rwb, 
-                                 rneed, dsl, atomic, ppPending, ppClosed, 
-                                 ppNotify, ppNC, ppBP, ppDepth, ppAlive, 
-                                 ppHeld, inItems, inClosed, inWaker, pollFn, 
-                                 chuteFn, ppItem, ppStage, h, dead, sti, rsq, 
-                                 bown, bwk, bi, bcur, bw, bsp, jq, jj, jwk, fj, 
-                                 dq, dj, oq, oop, omode, oj, yq, yop, yclaimed, 
-                                 tq, top, af, wf, wop, sf, sctx, xf, cop, kj, 
-                                 pp, pwk, np, nbp, nres, dp, pf, pctx, pq, pj, 
-                                 pd, nq >>
+                                 qrSent, qrWaker, dnState, dnWaker, barGen, 
+                                 myBar, cdone, rv, rwb, rneed, dsl, atomic, 
+                                 ppPending, ppClosed, ppNotify, ppNC, ppBP, 
+                                 ppDepth, ppAlive, ppHeld, inItems, inClosed, 
+                                 inWaker, pollFn, chuteFn, ppItem, ppStage, h, 
+                                 dead, sti, smax, rsq, bown, bwk, bi, bcur, bw, 
+                                 bsp, jq, jj, jwk, fj, dq, dj, oq, oop, omode, 
+                                 oj, yq, yop, yclaimed, tq, top, af, wf, wop, 
+                                 sf, sctx, xf, cop, kj, pp, pwk, np, nbp, nres, 
+                                 dp, pf, pctx, pq, pj, pd, nq >>
 
 z_wk_second(self) == /\ pc[self] = "z_wk_second"
                      /\ IF IsLocking(dblW2[ww[self].d])
@@ -1764,17 +1800,18 @@ z_wk_second(self) == /\ pc[self] = "z_wk_second"
                                      dwSt, dwW, dblTaken, dblW1, dblW2, nextDW, 
                                      ready, cwait, cnotif, cvHeld, sdres, 
                                      jpanic, sfst, slotSt, qrSent, qrWaker, 
-                                     dnState, dnWaker, rv, rwb, rneed, dsl, 
-                                     atomic, strong, ppPending, ppClosed, 
-                                     ppNotify, ppNC, ppBP, ppDepth, ppAlive, 
-                                     ppHeld, inItems, inClosed, inWaker, 
-                                     pollFn, chuteFn, pwTaken, nextPoll, 
-                                     ppItem, pjLive, ppStage, h, dead, sti, rq, 
-                                     sq, sj, rsq, bown, bwk, bi, bcur, bw, bsp, 
-                                     jq, jj, jwk, fj, dq, dj, oq, oop, omode, 
-                                     oj, yq, yop, yclaimed, tq, top, af, wf, 
-                                     wop, sf, sctx, xf, cop, kj, pp, pwk, np, 
-                                     nbp, nres, dp, pf, pctx, pq, pj, pd, nq >>
+                                     dnState, dnWaker, barGen, myBar, cdone, 
+                                     rv, rwb, rneed, dsl, atomic, strong, 
+                                     ppPending, ppClosed, ppNotify, ppNC, ppBP, 
+                                     ppDepth, ppAlive, ppHeld, inItems, 
+                                     inClosed, inWaker, pollFn, chuteFn, 
+                                     pwTaken, nextPoll, ppItem, pjLive, 
+                                     ppStage, h, dead, sti, smax, rq, sq, sj, 
+                                     rsq, bown, bwk, bi, bcur, bw, bsp, jq, jj, 
+                                     jwk, fj, dq, dj, oq, oop, omode, oj, yq, 
+                                     yop, yclaimed, tq, top, af, wf, wop, sf, 
+                                     sctx, xf, cop, kj, pp, pwk, np, nbp, nres, 
+                                     dp, pf, pctx, pq, pj, pd, nq >>
 
 z_pw_after(self) == /\ pc[self] = "z_pw_after"
                     /\ strong' = [strong EXCEPT ![O(ww[self].d)] = strong[O(ww[self].d)] - 1]
@@ -1802,16 +1839,17 @@ z_pw_after(self) == /\ pc[self] = "z_pw_after"
                                     dwW, dblTaken, dblW1, dblW2, nextDW, ready, 
                                     cwait, cnotif, cvHeld, sdres, jpanic, sfst, 
                                     slotSt, qrSent, qrWaker, dnState, dnWaker, 
-                                    parkTok, rv, rwb, rneed, dsl, atomic, 
-                                    ppPending, ppClosed, ppNotify, ppNC, ppBP, 
-                                    ppDepth, ppAlive, ppHeld, inItems, 
-                                    inClosed, inWaker, pollFn, chuteFn, 
-                                    pwTaken, nextPoll, ppItem, pjLive, ppStage, 
-                                    h, dead, sti, rq, sq, sj, rsq, bown, bwk, 
-                                    bi, bcur, bw, bsp, jq, jj, jwk, fj, dq, dj, 
-                                    oq, oop, omode, oj, tq, top, af, wf, wop, 
-                                    sf, sctx, xf, cop, kj, pp, pwk, np, nbp, 
-                                    nres, dp, pf, pctx, pq, pj, pd, nq >>
+                                    parkTok, barGen, myBar, cdone, rv, rwb, 
+                                    rneed, dsl, atomic, ppPending, ppClosed, 
+                                    ppNotify, ppNC, ppBP, ppDepth, ppAlive, 
+                                    ppHeld, inItems, inClosed, inWaker, pollFn, 
+                                    chuteFn, pwTaken, nextPoll, ppItem, pjLive, 
+                                    ppStage, h, dead, sti, smax, rq, sq, sj, 
+                                    rsq, bown, bwk, bi, bcur, bw, bsp, jq, jj, 
+                                    jwk, fj, dq, dj, oq, oop, omode, oj, tq, 
+                                    top, af, wf, wop, sf, sctx, xf, cop, kj, 
+                                    pp, pwk, np, nbp, nres, dp, pf, pctx, pq, 
+                                    pj, pd, nq >>
 
 pw_take(self) == /\ pc[self] = "pw_take"
                  /\ chuteFn' = [chuteFn EXCEPT ![OpTab[ww[self].d].p] = pollFn[OpTab[ww[self].d].p]]
@@ -1832,16 +1870,17 @@ pw_take(self) == /\ pc[self] = "pw_take"
                                  gwhist, dwSt, dwW, dblTaken, dblW1, dblW2, 
                                  nextDW, ready, cwait, cnotif, cvHeld, sdres, 
                                  jpanic, sfst, slotSt, qrSent, qrWaker, 
-                                 dnState, dnWaker, parkTok, rv, rwb, rneed, 
-                                 dsl, atomic, strong, ppPending, ppClosed, 
-                                 ppNotify, ppNC, ppBP, ppDepth, ppAlive, 
-                                 ppHeld, inItems, inClosed, inWaker, pwTaken, 
-                                 nextPoll, ppItem, pjLive, ppStage, h, dead, 
-                                 sti, rq, ww, rsq, bown, bwk, bi, bcur, bw, 
-                                 bsp, jq, jj, jwk, fj, dq, dj, oq, oop, omode, 
-                                 oj, yq, yop, yclaimed, tq, top, af, wf, wop, 
-                                 sf, sctx, xf, cop, kj, pp, pwk, np, nbp, nres, 
-                                 dp, pf, pctx, pq, pj, pd, nq >>
+                                 dnState, dnWaker, parkTok, barGen, myBar, 
+                                 cdone, rv, rwb, rneed, dsl, atomic, strong, 
+                                 ppPending, ppClosed, ppNotify, ppNC, ppBP, 
+                                 ppDepth, ppAlive, ppHeld, inItems, inClosed, 
+                                 inWaker, pwTaken, nextPoll, ppItem, pjLive, 
+                                 ppStage, h, dead, sti, smax, rq, ww, rsq, 
+                                 bown, bwk, bi, bcur, bw, bsp, jq, jj, jwk, fj, 
+                                 dq, dj, oq, oop, omode, oj, yq, yop, yclaimed, 
+                                 tq, top, af, wf, wop, sf, sctx, xf, cop, kj, 
+                                 pp, pwk, np, nbp, nres, dp, pf, pctx, pq, pj, 
+                                 pd, nq >>
 
 z_wk_ret(self) == /\ pc[self] = "z_wk_ret"
                   /\ pc' = [pc EXCEPT ![self] = Head(stack[self]).pc]
@@ -1854,17 +1893,17 @@ z_wk_ret(self) == /\ pc[self] = "z_wk_ret"
                                   gthreads, gwhist, dwSt, dwW, dblTaken, dblW1, 
                                   dblW2, nextDW, ready, cwait, cnotif, cvHeld, 
                                   sdres, jpanic, sfst, slotSt, qrSent, qrWaker, 
-                                  dnState, dnWaker, parkTok, rv, rwb, rneed, 
-                                  dsl, atomic, strong, ppPending, ppClosed, 
-                                  ppNotify, ppNC, ppBP, ppDepth, ppAlive, 
-                                  ppHeld, inItems, inClosed, inWaker, pollFn, 
-                                  chuteFn, pwTaken, nextPoll, ppItem, pjLive, 
-                                  ppStage, h, dead, sti, rq, sq, sj, rsq, bown, 
-                                  bwk, bi, bcur, bw, bsp, jq, jj, jwk, fj, dq, 
-                                  dj, oq, oop, omode, oj, yq, yop, yclaimed, 
-                                  tq, top, af, wf, wop, sf, sctx, xf, cop, kj, 
-                                  pp, pwk, np, nbp, nres, dp, pf, pctx, pq, pj, 
-                                  pd, nq >>
+                                  dnState, dnWaker, parkTok, barGen, myBar, 
+                                  cdone, rv, rwb, rneed, dsl, atomic, strong, 
+                                  ppPending, ppClosed, ppNotify, ppNC, ppBP, 
+                                  ppDepth, ppAlive, ppHeld, inItems, inClosed, 
+                                  inWaker, pollFn, chuteFn, pwTaken, nextPoll, 
+                                  ppItem, pjLive, ppStage, h, dead, sti, smax, 
+                                  rq, sq, sj, rsq, bown, bwk, bi, bcur, bw, 
+                                  bsp, jq, jj, jwk, fj, dq, dj, oq, oop, omode, 
+                                  oj, yq, yop, yclaimed, tq, top, af, wf, wop, 
+                                  sf, sctx, xf, cop, kj, pp, pwk, np, nbp, 
+                                  nres, dp, pf, pctx, pq, pj, pd, nq >>
 
 Wake(self) == wk_lock(self) \/ z_wk_second(self) \/ z_pw_after(self)
                  \/ pw_take(self) \/ z_wk_ret(self)
@@ -1894,17 +1933,17 @@ rb_step(self) == /\ pc[self] = "rb_step"
                                  gthreads, gwhist, dwSt, dwW, dblTaken, dblW1, 
                                  dblW2, nextDW, ready, cwait, cnotif, cvHeld, 
                                  sdres, jpanic, sfst, slotSt, qrSent, qrWaker, 
-                                 dnState, dnWaker, parkTok, rv, rwb, rneed, 
-                                 dsl, atomic, strong, ppPending, ppClosed, 
-                                 ppNotify, ppNC, ppBP, ppDepth, ppAlive, 
-                                 ppHeld, inItems, inClosed, inWaker, pollFn, 
-                                 chuteFn, pwTaken, nextPoll, ppItem, pjLive, 
-                                 ppStage, stack, dead, sti, rq, sq, sj, ww, 
-                                 rsq, bown, bwk, bw, bsp, jq, jj, jwk, fj, dq, 
-                                 dj, oq, oop, omode, oj, yq, yop, yclaimed, tq, 
-                                 top, af, wf, wop, sf, sctx, xf, cop, kj, pp, 
-                                 pwk, np, nbp, nres, dp, pf, pctx, pq, pj, pd, 
-                                 nq >>
+                                 dnState, dnWaker, parkTok, barGen, myBar, 
+                                 cdone, rv, rwb, rneed, dsl, atomic, strong, 
+                                 ppPending, ppClosed, ppNotify, ppNC, ppBP, 
+                                 ppDepth, ppAlive, ppHeld, inItems, inClosed, 
+                                 inWaker, pollFn, chuteFn, pwTaken, nextPoll, 
+                                 ppItem, pjLive, ppStage, stack, dead, sti, 
+                                 smax, rq, sq, sj, ww, rsq, bown, bwk, bw, bsp, 
+                                 jq, jj, jwk, fj, dq, dj, oq, oop, omode, oj, 
+                                 yq, yop, yclaimed, tq, top, af, wf, wop, sf, 
+                                 sctx, xf, cop, kj, pp, pwk, np, nbp, nres, dp, 
+                                 pf, pctx, pq, pj, pd, nq >>
 
 z_finish(self) == /\ pc[self] = "z_finish"
                   /\ IF bown[self] = 0
@@ -1995,16 +2034,17 @@ z_finish(self) == /\ pc[self] = "z_finish"
                                   jkind, fres, fwaker, gfired, dwSt, dwW, 
                                   dblTaken, dblW1, dblW2, nextDW, ready, cwait, 
                                   cnotif, cvHeld, sfst, slotSt, qrSent, 
-                                  qrWaker, dnState, dnWaker, parkTok, rwb, 
-                                  rneed, dsl, atomic, strong, ppPending, 
-                                  ppClosed, ppNotify, ppNC, ppBP, ppDepth, 
-                                  ppAlive, ppHeld, inItems, inClosed, inWaker, 
-                                  pollFn, chuteFn, pwTaken, nextPoll, ppItem, 
-                                  pjLive, ppStage, dead, sti, rq, sq, sj, ww, 
-                                  jq, jj, jwk, fj, dq, dj, oq, oop, omode, oj, 
-                                  yq, yop, yclaimed, tq, top, af, wf, wop, sf, 
-                                  sctx, xf, cop, kj, pp, pwk, np, nbp, nres, 
-                                  dp, pf, pctx, pq, pj, pd, nq >>
+                                  qrWaker, dnState, dnWaker, parkTok, barGen, 
+                                  myBar, cdone, rwb, rneed, dsl, atomic, 
+                                  strong, ppPending, ppClosed, ppNotify, ppNC, 
+                                  ppBP, ppDepth, ppAlive, ppHeld, inItems, 
+                                  inClosed, inWaker, pollFn, chuteFn, pwTaken, 
+                                  nextPoll, ppItem, pjLive, ppStage, dead, sti, 
+                                  smax, rq, sq, sj, ww, jq, jj, jwk, fj, dq, 
+                                  dj, oq, oop, omode, oj, yq, yop, yclaimed, 
+                                  tq, top, af, wf, wop, sf, sctx, xf, cop, kj, 
+                                  pp, pwk, np, nbp, nres, dp, pf, pctx, pq, pj, 
+                                  pd, nq >>
 
 z_pollaw(self) == /\ pc[self] = "z_pollaw"
                   /\ IF K(0 - AwItem(bown[self])) = "fsync"
@@ -2039,16 +2079,16 @@ z_pollaw(self) == /\ pc[self] = "z_pollaw"
                                   gthreads, gwhist, dwSt, dwW, dblTaken, dblW1, 
                                   dblW2, nextDW, ready, cwait, cnotif, cvHeld, 
                                   sdres, jpanic, sfst, slotSt, qrSent, qrWaker, 
-                                  dnState, dnWaker, parkTok, rv, rwb, rneed, 
-                                  dsl, atomic, strong, ppPending, ppClosed, 
-                                  ppNotify, ppNC, ppBP, ppDepth, ppAlive, 
-                                  ppHeld, inItems, inClosed, inWaker, pollFn, 
-                                  chuteFn, pwTaken, nextPoll, ppItem, pjLive, 
-                                  ppStage, h, dead, sti, rq, sq, sj, ww, rsq, 
-                                  bown, bwk, bi, bcur, bw, bsp, jq, jj, jwk, 
-                                  fj, dq, dj, oq, oop, omode, oj, yq, yop, 
-                                  yclaimed, tq, top, af, wf, wop, xf, cop, kj, 
-                                  pp, pwk, np, nbp, nres, dp, nq >>
+                                  dnState, dnWaker, parkTok, barGen, myBar, 
+                                  cdone, rv, rwb, rneed, dsl, atomic, strong, 
+                                  ppPending, ppClosed, ppNotify, ppNC, ppBP, 
+                                  ppDepth, ppAlive, ppHeld, inItems, inClosed, 
+                                  inWaker, pollFn, chuteFn, pwTaken, nextPoll, 
+                                  ppItem, pjLive, ppStage, h, dead, sti, smax, 
+                                  rq, sq, sj, ww, rsq, bown, bwk, bi, bcur, bw, 
+                                  bsp, jq, jj, jwk, fj, dq, dj, oq, oop, omode, 
+                                  oj, yq, yop, yclaimed, tq, top, af, wf, wop, 
+                                  xf, cop, kj, pp, pwk, np, nbp, nres, dp, nq >>
 
 z_pollaw_after(self) == /\ pc[self] = "z_pollaw_after"
                         /\ IF rv[self] = 5
@@ -2078,12 +2118,13 @@ z_pollaw_after(self) == /\ pc[self] = "z_pollaw_after"
                                         dblW2, nextDW, ready, cwait, cnotif, 
                                         cvHeld, sdres, jpanic, sfst, slotSt, 
                                         qrSent, qrWaker, dnState, dnWaker, 
-                                        parkTok, rv, rwb, rneed, dsl, atomic, 
-                                        strong, ppPending, ppClosed, ppNotify, 
-                                        ppNC, ppBP, ppDepth, ppAlive, ppHeld, 
-                                        inItems, inClosed, inWaker, pollFn, 
-                                        chuteFn, pwTaken, nextPoll, ppItem, 
-                                        pjLive, ppStage, dead, sti, rq, sq, sj, 
+                                        parkTok, barGen, myBar, cdone, rv, rwb, 
+                                        rneed, dsl, atomic, strong, ppPending, 
+                                        ppClosed, ppNotify, ppNC, ppBP, 
+                                        ppDepth, ppAlive, ppHeld, inItems, 
+                                        inClosed, inWaker, pollFn, chuteFn, 
+                                        pwTaken, nextPoll, ppItem, pjLive, 
+                                        ppStage, dead, sti, smax, rq, sq, sj, 
                                         ww, jq, jj, jwk, fj, dq, dj, oq, oop, 
                                         omode, oj, yq, yop, yclaimed, tq, top, 
                                         af, wf, wop, sf, sctx, xf, cop, kj, pp, 
@@ -2104,17 +2145,44 @@ z_drop_ret(self) == /\ pc[self] = "z_drop_ret"
                                     dwW, dblTaken, dblW1, dblW2, nextDW, ready, 
                                     cwait, cnotif, cvHeld, sdres, jpanic, sfst, 
                                     slotSt, qrSent, qrWaker, dnState, dnWaker, 
-                                    parkTok, rwb, rneed, dsl, atomic, strong, 
-                                    ppPending, ppClosed, ppNotify, ppNC, ppBP, 
-                                    ppDepth, ppAlive, ppHeld, inItems, 
-                                    inClosed, inWaker, pollFn, chuteFn, 
-                                    pwTaken, nextPoll, ppItem, pjLive, ppStage, 
-                                    h, stack, dead, sti, rq, sq, sj, ww, rsq, 
-                                    bown, bwk, bi, bcur, bw, bsp, jq, jj, jwk, 
-                                    fj, dq, dj, oq, oop, omode, oj, yq, yop, 
-                                    yclaimed, tq, top, af, wf, wop, sf, sctx, 
-                                    xf, cop, kj, pp, pwk, np, nbp, nres, dp, 
-                                    pf, pctx, pq, pj, pd, nq >>
+                                    parkTok, barGen, myBar, cdone, rwb, rneed, 
+                                    dsl, atomic, strong, ppPending, ppClosed, 
+                                    ppNotify, ppNC, ppBP, ppDepth, ppAlive, 
+                                    ppHeld, inItems, inClosed, inWaker, pollFn, 
+                                    chuteFn, pwTaken, nextPoll, ppItem, pjLive, 
+                                    ppStage, h, stack, dead, sti, smax, rq, sq, 
+                                    sj, ww, rsq, bown, bwk, bi, bcur, bw, bsp, 
+                                    jq, jj, jwk, fj, dq, dj, oq, oop, omode, 
+                                    oj, yq, yop, yclaimed, tq, top, af, wf, 
+                                    wop, sf, sctx, xf, cop, kj, pp, pwk, np, 
+                                    nbp, nres, dp, pf, pctx, pq, pj, pd, nq >>
+
+rb_bar(self) == /\ pc[self] = "rb_bar"
+                /\ myBar[self] < barGen \/ BarrierReady(self)
+                /\ IF myBar[self] = barGen
+                      THEN /\ barGen' = barGen + 1
+                      ELSE /\ TRUE
+                           /\ UNCHANGED barGen
+                /\ rv' = [rv EXCEPT ![self] = 0]
+                /\ pc' = [pc EXCEPT ![self] = "rb_step"]
+                /\ UNCHANGED << qstate, qpoll, jobs, wakeBlocked, schedule, 
+                                pthreads, nspawned, palive, busy, busyLocked, 
+                                inbox, chanOpen, pfin, thrHeld, maxThreads, 
+                                jkind, jaw, fres, fwaker, gfired, gwaker, 
+                                gthreads, gwhist, dwSt, dwW, dblTaken, dblW1, 
+                                dblW2, nextDW, ready, cwait, cnotif, cvHeld, 
+                                sdres, jpanic, sfst, slotSt, qrSent, qrWaker, 
+                                dnState, dnWaker, parkTok, myBar, cdone, rwb, 
+                                rneed, dsl, atomic, strong, ppPending, 
+                                ppClosed, ppNotify, ppNC, ppBP, ppDepth, 
+                                ppAlive, ppHeld, inItems, inClosed, inWaker, 
+                                pollFn, chuteFn, pwTaken, nextPoll, ppItem, 
+                                pjLive, ppStage, h, stack, dead, sti, smax, rq, 
+                                sq, sj, ww, rsq, bown, bwk, bi, bcur, bw, bsp, 
+                                jq, jj, jwk, fj, dq, dj, oq, oop, omode, oj, 
+                                yq, yop, yclaimed, tq, top, af, wf, wop, sf, 
+                                sctx, xf, cop, kj, pp, pwk, np, nbp, nres, dp, 
+                                pf, pctx, pq, pj, pd, nq >>
 
 rb_block(self) == /\ pc[self] = "rb_block"
                   /\ parkTok[self]
@@ -2127,17 +2195,17 @@ rb_block(self) == /\ pc[self] = "rb_block"
                                   gthreads, gwhist, dwSt, dwW, dblTaken, dblW1, 
                                   dblW2, nextDW, ready, cwait, cnotif, cvHeld, 
                                   sdres, jpanic, sfst, slotSt, qrSent, qrWaker, 
-                                  dnState, dnWaker, rv, rwb, rneed, dsl, 
-                                  atomic, strong, ppPending, ppClosed, 
-                                  ppNotify, ppNC, ppBP, ppDepth, ppAlive, 
-                                  ppHeld, inItems, inClosed, inWaker, pollFn, 
-                                  chuteFn, pwTaken, nextPoll, ppItem, pjLive, 
-                                  ppStage, h, stack, dead, sti, rq, sq, sj, ww, 
-                                  rsq, bown, bwk, bi, bcur, bw, bsp, jq, jj, 
-                                  jwk, fj, dq, dj, oq, oop, omode, oj, yq, yop, 
-                                  yclaimed, tq, top, af, wf, wop, sf, sctx, xf, 
-                                  cop, kj, pp, pwk, np, nbp, nres, dp, pf, 
-                                  pctx, pq, pj, pd, nq >>
+                                  dnState, dnWaker, barGen, myBar, cdone, rv, 
+                                  rwb, rneed, dsl, atomic, strong, ppPending, 
+                                  ppClosed, ppNotify, ppNC, ppBP, ppDepth, 
+                                  ppAlive, ppHeld, inItems, inClosed, inWaker, 
+                                  pollFn, chuteFn, pwTaken, nextPoll, ppItem, 
+                                  pjLive, ppStage, h, stack, dead, sti, smax, 
+                                  rq, sq, sj, ww, rsq, bown, bwk, bi, bcur, bw, 
+                                  bsp, jq, jj, jwk, fj, dq, dj, oq, oop, omode, 
+                                  oj, yq, yop, yclaimed, tq, top, af, wf, wop, 
+                                  sf, sctx, xf, cop, kj, pp, pwk, np, nbp, 
+                                  nres, dp, pf, pctx, pq, pj, pd, nq >>
 
 z_dispatch(self) == /\ pc[self] = "z_dispatch"
                     /\ IF K(bcur[self]) = "desync"
@@ -2151,12 +2219,12 @@ z_dispatch(self) == /\ pc[self] = "z_dispatch"
                                                                        \o stack[self]]
                                /\ pc' = [pc EXCEPT ![self] = "sj_push"]
                                /\ UNCHANGED << gfired, gwaker, gthreads, 
-                                               parkTok, rv, strong, inItems, 
-                                               inClosed, inWaker, h, ww, bw, 
-                                               bsp, yq, yop, yclaimed, tq, top, 
-                                               af, wf, wop, sf, sctx, xf, cop, 
-                                               np, nbp, nres, dp, pf, pctx, pq, 
-                                               pj, pd >>
+                                               parkTok, myBar, rv, strong, 
+                                               inItems, inClosed, inWaker, h, 
+                                               ww, bw, bsp, yq, yop, yclaimed, 
+                                               tq, top, af, wf, wop, sf, sctx, 
+                                               xf, cop, np, nbp, nres, dp, pf, 
+                                               pctx, pq, pj, pd >>
                           ELSE /\ IF K(bcur[self]) = "sync"
                                      THEN /\ /\ stack' = [stack EXCEPT ![self] = << [ procedure |->  "Sync",
                                                                                       pc        |->  "rb_step",
@@ -2170,14 +2238,14 @@ z_dispatch(self) == /\ pc[self] = "z_dispatch"
                                           /\ pc' = [pc EXCEPT ![self] = "sy_decide"]
                                           /\ UNCHANGED << jkind, gfired, 
                                                           gwaker, gthreads, 
-                                                          parkTok, rv, strong, 
-                                                          inItems, inClosed, 
-                                                          inWaker, h, sq, sj, 
-                                                          ww, bw, bsp, tq, top, 
-                                                          af, wf, wop, sf, 
-                                                          sctx, xf, cop, np, 
-                                                          nbp, nres, dp, pf, 
-                                                          pctx, pq, pj, pd >>
+                                                          parkTok, myBar, rv, 
+                                                          strong, inItems, 
+                                                          inClosed, inWaker, h, 
+                                                          sq, sj, ww, bw, bsp, 
+                                                          tq, top, af, wf, wop, 
+                                                          sf, sctx, xf, cop, 
+                                                          np, nbp, nres, dp, 
+                                                          pf, pctx, pq, pj, pd >>
                                      ELSE /\ IF K(bcur[self]) = "drop_obj"
                                                 THEN /\ strong' = [strong EXCEPT ![O(bcur[self])] = strong[O(bcur[self])] - 1]
                                                      /\ IF strong'[O(bcur[self])] = 1 - 1
@@ -2203,6 +2271,7 @@ z_dispatch(self) == /\ pc[self] = "z_dispatch"
                                                                      gwaker, 
                                                                      gthreads, 
                                                                      parkTok, 
+                                                                     myBar, 
                                                                      inItems, 
                                                                      inClosed, 
                                                                      inWaker, 
@@ -2230,6 +2299,7 @@ z_dispatch(self) == /\ pc[self] = "z_dispatch"
                                                                                 gwaker, 
                                                                                 gthreads, 
                                                                                 parkTok, 
+                                                                                myBar, 
                                                                                 rv, 
                                                                                 inItems, 
                                                                                 inClosed, 
@@ -2282,6 +2352,7 @@ z_dispatch(self) == /\ pc[self] = "z_dispatch"
                                                                                            gwaker, 
                                                                                            gthreads, 
                                                                                            parkTok, 
+                                                                                           myBar, 
                                                                                            sq, 
                                                                                            sj, 
                                                                                            bsp, 
@@ -2318,6 +2389,7 @@ z_dispatch(self) == /\ pc[self] = "z_dispatch"
                                                                                                       gwaker, 
                                                                                                       gthreads, 
                                                                                                       parkTok, 
+                                                                                                      myBar, 
                                                                                                       rv, 
                                                                                                       h, 
                                                                                                       sq, 
@@ -2352,6 +2424,7 @@ z_dispatch(self) == /\ pc[self] = "z_dispatch"
                                                                                                                  gwaker, 
                                                                                                                  gthreads, 
                                                                                                                  parkTok, 
+                                                                                                                 myBar, 
                                                                                                                  rv, 
                                                                                                                  sq, 
                                                                                                                  sj, 
@@ -2378,6 +2451,7 @@ z_dispatch(self) == /\ pc[self] = "z_dispatch"
                                                                                                                             gwaker, 
                                                                                                                             gthreads, 
                                                                                                                             parkTok, 
+                                                                                                                            myBar, 
                                                                                                                             rv, 
                                                                                                                             h, 
                                                                                                                             stack, 
@@ -2413,6 +2487,7 @@ z_dispatch(self) == /\ pc[self] = "z_dispatch"
                                                                                                                                        gwaker, 
                                                                                                                                        gthreads, 
                                                                                                                                        parkTok, 
+                                                                                                                                       myBar, 
                                                                                                                                        rv, 
                                                                                                                                        h, 
                                                                                                                                        sq, 
@@ -2445,6 +2520,7 @@ z_dispatch(self) == /\ pc[self] = "z_dispatch"
                                                                                                                                                   gwaker, 
                                                                                                                                                   gthreads, 
                                                                                                                                                   parkTok, 
+                                                                                                                                                  myBar, 
                                                                                                                                                   rv, 
                                                                                                                                                   h, 
                                                                                                                                                   ww, 
@@ -2475,6 +2551,7 @@ z_dispatch(self) == /\ pc[self] = "z_dispatch"
                                                                                                                                                              gwaker, 
                                                                                                                                                              gthreads, 
                                                                                                                                                              parkTok, 
+                                                                                                                                                             myBar, 
                                                                                                                                                              rv, 
                                                                                                                                                              h, 
                                                                                                                                                              ww, 
@@ -2505,6 +2582,7 @@ z_dispatch(self) == /\ pc[self] = "z_dispatch"
                                                                                                                                                                         gwaker, 
                                                                                                                                                                         gthreads, 
                                                                                                                                                                         parkTok, 
+                                                                                                                                                                        myBar, 
                                                                                                                                                                         rv, 
                                                                                                                                                                         h, 
                                                                                                                                                                         ww, 
@@ -2532,6 +2610,7 @@ z_dispatch(self) == /\ pc[self] = "z_dispatch"
                                                                                                                                                                                    gwaker, 
                                                                                                                                                                                    gthreads, 
                                                                                                                                                                                    parkTok, 
+                                                                                                                                                                                   myBar, 
                                                                                                                                                                                    rv, 
                                                                                                                                                                                    h, 
                                                                                                                                                                                    ww, 
@@ -2547,24 +2626,18 @@ z_dispatch(self) == /\ pc[self] = "z_dispatch"
                                                                                                                                                                                    pq, 
                                                                                                                                                                                    pj, 
                                                                                                                                                                                    pd >>
-                                                                                                                                                              ELSE /\ IF K(bcur[self]) \in {"fire", "resume", "drop_resumer"}
-                                                                                                                                                                         THEN /\ h' = (IF K(bcur[self]) = "fire" THEN ObsFire(h, GateOfOp(bcur[self])) ELSE ObsResume(h, self, OpTab[bcur[self]].f))
-                                                                                                                                                                              /\ gfired' = (gfired \cup {GateOfOp(bcur[self])})
-                                                                                                                                                                              /\ bw' = [bw EXCEPT ![self] = gwaker[GateOfOp(bcur[self])]]
-                                                                                                                                                                              /\ parkTok' = Unpark(parkTok, gthreads[GateOfOp(bcur[self])] \cup TaskOf(gwaker[GateOfOp(bcur[self])]))
-                                                                                                                                                                              /\ gwaker' = [gwaker EXCEPT ![GateOfOp(bcur[self])] = NoW]
-                                                                                                                                                                              /\ rv' = [rv EXCEPT ![self] = 0]
-                                                                                                                                                                              /\ IF IsLocking(bw'[self])
-                                                                                                                                                                                    THEN /\ /\ stack' = [stack EXCEPT ![self] = << [ procedure |->  "Wake",
-                                                                                                                                                                                                                                     pc        |->  "rb_step",
-                                                                                                                                                                                                                                     ww        |->  ww[self] ] >>
-                                                                                                                                                                                                                                 \o stack[self]]
-                                                                                                                                                                                            /\ ww' = [ww EXCEPT ![self] = bw'[self]]
-                                                                                                                                                                                         /\ pc' = [pc EXCEPT ![self] = "wk_lock"]
-                                                                                                                                                                                    ELSE /\ pc' = [pc EXCEPT ![self] = "rb_step"]
-                                                                                                                                                                                         /\ UNCHANGED << stack, 
-                                                                                                                                                                                                         ww >>
-                                                                                                                                                                              /\ UNCHANGED << gthreads, 
+                                                                                                                                                              ELSE /\ IF K(bcur[self]) = "barrier"
+                                                                                                                                                                         THEN /\ myBar' = [myBar EXCEPT ![self] = barGen]
+                                                                                                                                                                              /\ pc' = [pc EXCEPT ![self] = "rb_bar"]
+                                                                                                                                                                              /\ UNCHANGED << gfired, 
+                                                                                                                                                                                              gwaker, 
+                                                                                                                                                                                              gthreads, 
+                                                                                                                                                                                              parkTok, 
+                                                                                                                                                                                              rv, 
+                                                                                                                                                                                              h, 
+                                                                                                                                                                                              stack, 
+                                                                                                                                                                                              ww, 
+                                                                                                                                                                                              bw, 
                                                                                                                                                                                               bsp, 
                                                                                                                                                                                               af, 
                                                                                                                                                                                               wf, 
@@ -2576,16 +2649,26 @@ z_dispatch(self) == /\ pc[self] = "z_dispatch"
                                                                                                                                                                                               pq, 
                                                                                                                                                                                               pj, 
                                                                                                                                                                                               pd >>
-                                                                                                                                                                         ELSE /\ IF K(bcur[self]) = "await"
-                                                                                                                                                                                    THEN /\ /\ af' = [af EXCEPT ![self] = OpTab[bcur[self]].f]
-                                                                                                                                                                                            /\ stack' = [stack EXCEPT ![self] = << [ procedure |->  "Await",
-                                                                                                                                                                                                                                     pc        |->  "rb_step",
-                                                                                                                                                                                                                                     af        |->  af[self] ] >>
-                                                                                                                                                                                                                                 \o stack[self]]
-                                                                                                                                                                                         /\ pc' = [pc EXCEPT ![self] = "z_aw_poll"]
+                                                                                                                                                                         ELSE /\ IF K(bcur[self]) \in {"fire", "resume", "drop_resumer"}
+                                                                                                                                                                                    THEN /\ h' = (IF K(bcur[self]) = "fire" THEN ObsFire(h, GateOfOp(bcur[self])) ELSE ObsResume(h, self, OpTab[bcur[self]].f))
+                                                                                                                                                                                         /\ gfired' = (gfired \cup {GateOfOp(bcur[self])})
+                                                                                                                                                                                         /\ bw' = [bw EXCEPT ![self] = gwaker[GateOfOp(bcur[self])]]
+                                                                                                                                                                                         /\ parkTok' = Unpark(parkTok, gthreads[GateOfOp(bcur[self])] \cup TaskOf(gwaker[GateOfOp(bcur[self])]))
+                                                                                                                                                                                         /\ gwaker' = [gwaker EXCEPT ![GateOfOp(bcur[self])] = NoW]
+                                                                                                                                                                                         /\ rv' = [rv EXCEPT ![self] = 0]
+                                                                                                                                                                                         /\ IF IsLocking(bw'[self])
+                                                                                                                                                                                               THEN /\ /\ stack' = [stack EXCEPT ![self] = << [ procedure |->  "Wake",
+                                                                                                                                                                                                                                                pc        |->  "rb_step",
+                                                                                                                                                                                                                                                ww        |->  ww[self] ] >>
+                                                                                                                                                                                                                                            \o stack[self]]
+                                                                                                                                                                                                       /\ ww' = [ww EXCEPT ![self] = bw'[self]]
+                                                                                                                                                                                                    /\ pc' = [pc EXCEPT ![self] = "wk_lock"]
+                                                                                                                                                                                               ELSE /\ pc' = [pc EXCEPT ![self] = "rb_step"]
+                                                                                                                                                                                                    /\ UNCHANGED << stack, 
+                                                                                                                                                                                                                    ww >>
                                                                                                                                                                                          /\ UNCHANGED << gthreads, 
-                                                                                                                                                                                                         rv, 
                                                                                                                                                                                                          bsp, 
+                                                                                                                                                                                                         af, 
                                                                                                                                                                                                          wf, 
                                                                                                                                                                                                          wop, 
                                                                                                                                                                                                          sf, 
@@ -2595,99 +2678,119 @@ z_dispatch(self) == /\ pc[self] = "z_dispatch"
                                                                                                                                                                                                          pq, 
                                                                                                                                                                                                          pj, 
                                                                                                                                                                                                          pd >>
-                                                                                                                                                                                    ELSE /\ IF K(bcur[self]) = "poll"
-                                                                                                                                                                                               THEN /\ IF K(OpTab[bcur[self]].f) = "fsync"
-                                                                                                                                                                                                          THEN /\ /\ sctx' = [sctx EXCEPT ![self] = NoW]
-                                                                                                                                                                                                                  /\ sf' = [sf EXCEPT ![self] = OpTab[bcur[self]].f]
-                                                                                                                                                                                                                  /\ stack' = [stack EXCEPT ![self] = << [ procedure |->  "PollSync",
-                                                                                                                                                                                                                                                           pc        |->  "z_polled",
-                                                                                                                                                                                                                                                           sf        |->  sf[self],
-                                                                                                                                                                                                                                                           sctx      |->  sctx[self] ] >>
-                                                                                                                                                                                                                                                       \o stack[self]]
-                                                                                                                                                                                                               /\ pc' = [pc EXCEPT ![self] = "z_ps"]
-                                                                                                                                                                                                               /\ UNCHANGED << pf, 
-                                                                                                                                                                                                                               pctx, 
-                                                                                                                                                                                                                               pq, 
-                                                                                                                                                                                                                               pj, 
-                                                                                                                                                                                                                               pd >>
-                                                                                                                                                                                                          ELSE /\ /\ pctx' = [pctx EXCEPT ![self] = NoW]
-                                                                                                                                                                                                                  /\ pf' = [pf EXCEPT ![self] = OpTab[bcur[self]].f]
-                                                                                                                                                                                                                  /\ stack' = [stack EXCEPT ![self] = << [ procedure |->  "PollFuture",
-                                                                                                                                                                                                                                                           pc        |->  "z_polled",
-                                                                                                                                                                                                                                                           pq        |->  pq[self],
-                                                                                                                                                                                                                                                           pj        |->  pj[self],
-                                                                                                                                                                                                                                                           pd        |->  pd[self],
-                                                                                                                                                                                                                                                           pf        |->  pf[self],
-                                                                                                                                                                                                                                                           pctx      |->  pctx[self] ] >>
-                                                                                                                                                                                                                                                       \o stack[self]]
-                                                                                                                                                                                                               /\ pq' = [pq EXCEPT ![self] = 0]
-                                                                                                                                                                                                               /\ pj' = [pj EXCEPT ![self] = 0]
-                                                                                                                                                                                                               /\ pd' = [pd EXCEPT ![self] = 0]
-                                                                                                                                                                                                               /\ pc' = [pc EXCEPT ![self] = "pf_decide"]
-                                                                                                                                                                                                               /\ UNCHANGED << sf, 
-                                                                                                                                                                                                                               sctx >>
+                                                                                                                                                                                    ELSE /\ IF K(bcur[self]) = "await"
+                                                                                                                                                                                               THEN /\ /\ af' = [af EXCEPT ![self] = OpTab[bcur[self]].f]
+                                                                                                                                                                                                       /\ stack' = [stack EXCEPT ![self] = << [ procedure |->  "Await",
+                                                                                                                                                                                                                                                pc        |->  "rb_step",
+                                                                                                                                                                                                                                                af        |->  af[self] ] >>
+                                                                                                                                                                                                                                            \o stack[self]]
+                                                                                                                                                                                                    /\ pc' = [pc EXCEPT ![self] = "z_aw_poll"]
                                                                                                                                                                                                     /\ UNCHANGED << gthreads, 
                                                                                                                                                                                                                     rv, 
                                                                                                                                                                                                                     bsp, 
                                                                                                                                                                                                                     wf, 
-                                                                                                                                                                                                                    wop >>
-                                                                                                                                                                                               ELSE /\ IF K(bcur[self]) = "wait_sync"
-                                                                                                                                                                                                          THEN /\ /\ stack' = [stack EXCEPT ![self] = << [ procedure |->  "WaitSync",
-                                                                                                                                                                                                                                                           pc        |->  "rb_step",
-                                                                                                                                                                                                                                                           wf        |->  wf[self],
-                                                                                                                                                                                                                                                           wop       |->  wop[self] ] >>
-                                                                                                                                                                                                                                                       \o stack[self]]
-                                                                                                                                                                                                                  /\ wf' = [wf EXCEPT ![self] = OpTab[bcur[self]].f]
-                                                                                                                                                                                                                  /\ wop' = [wop EXCEPT ![self] = bcur[self]]
-                                                                                                                                                                                                               /\ pc' = [pc EXCEPT ![self] = "fs_take"]
-                                                                                                                                                                                                               /\ UNCHANGED << gthreads, 
-                                                                                                                                                                                                                               rv, 
-                                                                                                                                                                                                                               bsp >>
-                                                                                                                                                                                                          ELSE /\ IF K(bcur[self]) = "spur"
-                                                                                                                                                                                                                     THEN /\ bsp' = [bsp EXCEPT ![self] = gwhist[OpTab[bcur[self]].g]]
-                                                                                                                                                                                                                          /\ rv' = [rv EXCEPT ![self] = 0]
-                                                                                                                                                                                                                          /\ pc' = [pc EXCEPT ![self] = "z_spur"]
-                                                                                                                                                                                                                          /\ UNCHANGED << gthreads, 
-                                                                                                                                                                                                                                          stack >>
-                                                                                                                                                                                                                     ELSE /\ IF K(bcur[self]) = "block_on"
-                                                                                                                                                                                                                                THEN /\ rv' = [rv EXCEPT ![self] = 0]
-                                                                                                                                                                                                                                     /\ IF OpTab[bcur[self]].g \in gfired
-                                                                                                                                                                                                                                           THEN /\ pc' = [pc EXCEPT ![self] = "rb_step"]
-                                                                                                                                                                                                                                                /\ UNCHANGED gthreads
-                                                                                                                                                                                                                                           ELSE /\ gthreads' = [gthreads EXCEPT ![OpTab[bcur[self]].g] = gthreads[OpTab[bcur[self]].g] \cup {self}]
-                                                                                                                                                                                                                                                /\ pc' = [pc EXCEPT ![self] = "rb_wait"]
-                                                                                                                                                                                                                                     /\ stack' = stack
-                                                                                                                                                                                                                                ELSE /\ IF K(bcur[self]) = "set_max"
-                                                                                                                                                                                                                                           THEN /\ pc' = [pc EXCEPT ![self] = "mx_set"]
-                                                                                                                                                                                                                                                /\ UNCHANGED << rv, 
-                                                                                                                                                                                                                                                                stack >>
-                                                                                                                                                                                                                                           ELSE /\ IF K(bcur[self]) = "despawn"
-                                                                                                                                                                                                                                                      THEN /\ stack' = [stack EXCEPT ![self] = << [ procedure |->  "Despawn",
-                                                                                                                                                                                                                                                                                                    pc        |->  "rb_step" ] >>
-                                                                                                                                                                                                                                                                                                \o stack[self]]
-                                                                                                                                                                                                                                                           /\ pc' = [pc EXCEPT ![self] = "ds_max"]
-                                                                                                                                                                                                                                                           /\ rv' = rv
-                                                                                                                                                                                                                                                      ELSE /\ rv' = [rv EXCEPT ![self] = 0]
-                                                                                                                                                                                                                                                           /\ pc' = [pc EXCEPT ![self] = "rb_step"]
-                                                                                                                                                                                                                                                           /\ stack' = stack
-                                                                                                                                                                                                                                     /\ UNCHANGED gthreads
-                                                                                                                                                                                                                          /\ bsp' = bsp
-                                                                                                                                                                                                               /\ UNCHANGED << wf, 
-                                                                                                                                                                                                                               wop >>
-                                                                                                                                                                                                    /\ UNCHANGED << sf, 
+                                                                                                                                                                                                                    wop, 
+                                                                                                                                                                                                                    sf, 
                                                                                                                                                                                                                     sctx, 
                                                                                                                                                                                                                     pf, 
                                                                                                                                                                                                                     pctx, 
                                                                                                                                                                                                                     pq, 
                                                                                                                                                                                                                     pj, 
                                                                                                                                                                                                                     pd >>
-                                                                                                                                                                                         /\ af' = af
-                                                                                                                                                                              /\ UNCHANGED << gfired, 
-                                                                                                                                                                                              gwaker, 
-                                                                                                                                                                                              parkTok, 
-                                                                                                                                                                                              h, 
-                                                                                                                                                                                              ww, 
-                                                                                                                                                                                              bw >>
+                                                                                                                                                                                               ELSE /\ IF K(bcur[self]) = "poll"
+                                                                                                                                                                                                          THEN /\ IF K(OpTab[bcur[self]].f) = "fsync"
+                                                                                                                                                                                                                     THEN /\ /\ sctx' = [sctx EXCEPT ![self] = NoW]
+                                                                                                                                                                                                                             /\ sf' = [sf EXCEPT ![self] = OpTab[bcur[self]].f]
+                                                                                                                                                                                                                             /\ stack' = [stack EXCEPT ![self] = << [ procedure |->  "PollSync",
+                                                                                                                                                                                                                                                                      pc        |->  "z_polled",
+                                                                                                                                                                                                                                                                      sf        |->  sf[self],
+                                                                                                                                                                                                                                                                      sctx      |->  sctx[self] ] >>
+                                                                                                                                                                                                                                                                  \o stack[self]]
+                                                                                                                                                                                                                          /\ pc' = [pc EXCEPT ![self] = "z_ps"]
+                                                                                                                                                                                                                          /\ UNCHANGED << pf, 
+                                                                                                                                                                                                                                          pctx, 
+                                                                                                                                                                                                                                          pq, 
+                                                                                                                                                                                                                                          pj, 
+                                                                                                                                                                                                                                          pd >>
+                                                                                                                                                                                                                     ELSE /\ /\ pctx' = [pctx EXCEPT ![self] = NoW]
+                                                                                                                                                                                                                             /\ pf' = [pf EXCEPT ![self] = OpTab[bcur[self]].f]
+                                                                                                                                                                                                                             /\ stack' = [stack EXCEPT ![self] = << [ procedure |->  "PollFuture",
+                                                                                                                                                                                                                                                                      pc        |->  "z_polled",
+                                                                                                                                                                                                                                                                      pq        |->  pq[self],
+                                                                                                                                                                                                                                                                      pj        |->  pj[self],
+                                                                                                                                                                                                                                                                      pd        |->  pd[self],
+                                                                                                                                                                                                                                                                      pf        |->  pf[self],
+                                                                                                                                                                                                                                                                      pctx      |->  pctx[self] ] >>
+                                                                                                                                                                                                                                                                  \o stack[self]]
+                                                                                                                                                                                                                          /\ pq' = [pq EXCEPT ![self] = 0]
+                                                                                                                                                                                                                          /\ pj' = [pj EXCEPT ![self] = 0]
+                                                                                                                                                                                                                          /\ pd' = [pd EXCEPT ![self] = 0]
+                                                                                                                                                                                                                          /\ pc' = [pc EXCEPT ![self] = "pf_decide"]
+                                                                                                                                                                                                                          /\ UNCHANGED << sf, 
+                                                                                                                                                                                                                                          sctx >>
+                                                                                                                                                                                                               /\ UNCHANGED << gthreads, 
+                                                                                                                                                                                                                               rv, 
+                                                                                                                                                                                                                               bsp, 
+                                                                                                                                                                                                                               wf, 
+                                                                                                                                                                                                                               wop >>
+                                                                                                                                                                                                          ELSE /\ IF K(bcur[self]) = "wait_sync"
+                                                                                                                                                                                                                     THEN /\ /\ stack' = [stack EXCEPT ![self] = << [ procedure |->  "WaitSync",
+                                                                                                                                                                                                                                                                      pc        |->  "rb_step",
+                                                                                                                                                                                                                                                                      wf        |->  wf[self],
+                                                                                                                                                                                                                                                                      wop       |->  wop[self] ] >>
+                                                                                                                                                                                                                                                                  \o stack[self]]
+                                                                                                                                                                                                                             /\ wf' = [wf EXCEPT ![self] = OpTab[bcur[self]].f]
+                                                                                                                                                                                                                             /\ wop' = [wop EXCEPT ![self] = bcur[self]]
+                                                                                                                                                                                                                          /\ pc' = [pc EXCEPT ![self] = "fs_take"]
+                                                                                                                                                                                                                          /\ UNCHANGED << gthreads, 
+                                                                                                                                                                                                                                          rv, 
+                                                                                                                                                                                                                                          bsp >>
+                                                                                                                                                                                                                     ELSE /\ IF K(bcur[self]) = "spur"
+                                                                                                                                                                                                                                THEN /\ bsp' = [bsp EXCEPT ![self] = gwhist[OpTab[bcur[self]].g]]
+                                                                                                                                                                                                                                     /\ rv' = [rv EXCEPT ![self] = 0]
+                                                                                                                                                                                                                                     /\ pc' = [pc EXCEPT ![self] = "z_spur"]
+                                                                                                                                                                                                                                     /\ UNCHANGED << gthreads, 
+                                                                                                                                                                                                                                                     stack >>
+                                                                                                                                                                                                                                ELSE /\ IF K(bcur[self]) = "block_on"
+                                                                                                                                                                                                                                           THEN /\ rv' = [rv EXCEPT ![self] = 0]
+                                                                                                                                                                                                                                                /\ IF OpTab[bcur[self]].g \in gfired
+                                                                                                                                                                                                                                                      THEN /\ pc' = [pc EXCEPT ![self] = "rb_step"]
+                                                                                                                                                                                                                                                           /\ UNCHANGED gthreads
+                                                                                                                                                                                                                                                      ELSE /\ gthreads' = [gthreads EXCEPT ![OpTab[bcur[self]].g] = gthreads[OpTab[bcur[self]].g] \cup {self}]
+                                                                                                                                                                                                                                                           /\ pc' = [pc EXCEPT ![self] = "rb_wait"]
+                                                                                                                                                                                                                                                /\ stack' = stack
+                                                                                                                                                                                                                                           ELSE /\ IF K(bcur[self]) = "set_max"
+                                                                                                                                                                                                                                                      THEN /\ pc' = [pc EXCEPT ![self] = "mx_set"]
+                                                                                                                                                                                                                                                           /\ UNCHANGED << rv, 
+                                                                                                                                                                                                                                                                           stack >>
+                                                                                                                                                                                                                                                      ELSE /\ IF K(bcur[self]) = "despawn"
+                                                                                                                                                                                                                                                                 THEN /\ stack' = [stack EXCEPT ![self] = << [ procedure |->  "Despawn",
+                                                                                                                                                                                                                                                                                                               pc        |->  "rb_step" ] >>
+                                                                                                                                                                                                                                                                                                           \o stack[self]]
+                                                                                                                                                                                                                                                                      /\ pc' = [pc EXCEPT ![self] = "ds_max"]
+                                                                                                                                                                                                                                                                      /\ rv' = rv
+                                                                                                                                                                                                                                                                 ELSE /\ rv' = [rv EXCEPT ![self] = 0]
+                                                                                                                                                                                                                                                                      /\ pc' = [pc EXCEPT ![self] = "rb_step"]
+                                                                                                                                                                                                                                                                      /\ stack' = stack
+                                                                                                                                                                                                                                                /\ UNCHANGED gthreads
+                                                                                                                                                                                                                                     /\ bsp' = bsp
+                                                                                                                                                                                                                          /\ UNCHANGED << wf, 
+                                                                                                                                                                                                                                          wop >>
+                                                                                                                                                                                                               /\ UNCHANGED << sf, 
+                                                                                                                                                                                                                               sctx, 
+                                                                                                                                                                                                                               pf, 
+                                                                                                                                                                                                                               pctx, 
+                                                                                                                                                                                                                               pq, 
+                                                                                                                                                                                                                               pj, 
+                                                                                                                                                                                                                               pd >>
+                                                                                                                                                                                                    /\ af' = af
+                                                                                                                                                                                         /\ UNCHANGED << gfired, 
+                                                                                                                                                                                                         gwaker, 
+                                                                                                                                                                                                         parkTok, 
+                                                                                                                                                                                                         h, 
+                                                                                                                                                                                                         ww, 
+                                                                                                                                                                                                         bw >>
+                                                                                                                                                                              /\ myBar' = myBar
                                                                                                                                                                    /\ xf' = xf
                                                                                                                                                         /\ UNCHANGED << jkind, 
                                                                                                                                                                         sq, 
@@ -2712,13 +2815,14 @@ z_dispatch(self) == /\ pc[self] = "z_dispatch"
                                     dwSt, dwW, dblTaken, dblW1, dblW2, nextDW, 
                                     ready, cwait, cnotif, cvHeld, sdres, 
                                     jpanic, sfst, slotSt, qrSent, qrWaker, 
-                                    dnState, dnWaker, rwb, rneed, dsl, atomic, 
-                                    ppPending, ppClosed, ppNotify, ppNC, ppBP, 
-                                    ppDepth, ppAlive, ppHeld, pollFn, chuteFn, 
-                                    pwTaken, nextPoll, ppItem, pjLive, ppStage, 
-                                    dead, sti, rq, rsq, bown, bwk, bi, bcur, 
-                                    jq, jj, jwk, fj, dq, dj, oq, oop, omode, 
-                                    oj, kj, pp, pwk, nq >>
+                                    dnState, dnWaker, barGen, cdone, rwb, 
+                                    rneed, dsl, atomic, ppPending, ppClosed, 
+                                    ppNotify, ppNC, ppBP, ppDepth, ppAlive, 
+                                    ppHeld, pollFn, chuteFn, pwTaken, nextPoll, 
+                                    ppItem, pjLive, ppStage, dead, sti, smax, 
+                                    rq, rsq, bown, bwk, bi, bcur, jq, jj, jwk, 
+                                    fj, dq, dj, oq, oop, omode, oj, kj, pp, 
+                                    pwk, nq >>
 
 z_then(self) == /\ pc[self] = "z_then"
                 /\ IF rv[self] = 0 /\ OpTab[bcur[self]].then = "await"
@@ -2746,16 +2850,17 @@ z_then(self) == /\ pc[self] = "z_then"
                                 gthreads, gwhist, dwSt, dwW, dblTaken, dblW1, 
                                 dblW2, nextDW, ready, cwait, cnotif, cvHeld, 
                                 sdres, jpanic, sfst, slotSt, qrSent, qrWaker, 
-                                dnState, dnWaker, parkTok, rv, rwb, rneed, dsl, 
-                                atomic, strong, ppPending, ppClosed, ppNotify, 
-                                ppNC, ppBP, ppDepth, ppAlive, ppHeld, inItems, 
-                                inClosed, inWaker, pollFn, chuteFn, pwTaken, 
-                                nextPoll, ppItem, pjLive, ppStage, h, dead, 
-                                sti, rq, sq, sj, ww, rsq, bown, bwk, bi, bcur, 
-                                bw, bsp, jq, jj, jwk, fj, dq, dj, oq, oop, 
-                                omode, oj, yq, yop, yclaimed, tq, top, wf, wop, 
-                                sf, sctx, cop, kj, pp, pwk, np, nbp, nres, dp, 
-                                pf, pctx, pq, pj, pd, nq >>
+                                dnState, dnWaker, parkTok, barGen, myBar, 
+                                cdone, rv, rwb, rneed, dsl, atomic, strong, 
+                                ppPending, ppClosed, ppNotify, ppNC, ppBP, 
+                                ppDepth, ppAlive, ppHeld, inItems, inClosed, 
+                                inWaker, pollFn, chuteFn, pwTaken, nextPoll, 
+                                ppItem, pjLive, ppStage, h, dead, sti, smax, 
+                                rq, sq, sj, ww, rsq, bown, bwk, bi, bcur, bw, 
+                                bsp, jq, jj, jwk, fj, dq, dj, oq, oop, omode, 
+                                oj, yq, yop, yclaimed, tq, top, wf, wop, sf, 
+                                sctx, cop, kj, pp, pwk, np, nbp, nres, dp, pf, 
+                                pctx, pq, pj, pd, nq >>
 
 z_polled(self) == /\ pc[self] = "z_polled"
                   /\ IF rv[self] \in {0, 3, 4}
@@ -2770,17 +2875,17 @@ z_polled(self) == /\ pc[self] = "z_polled"
                                   gthreads, gwhist, dwSt, dwW, dblTaken, dblW1, 
                                   dblW2, nextDW, ready, cwait, cnotif, cvHeld, 
                                   sdres, jpanic, sfst, slotSt, qrSent, qrWaker, 
-                                  dnState, dnWaker, parkTok, rv, rwb, rneed, 
-                                  dsl, atomic, strong, ppPending, ppClosed, 
-                                  ppNotify, ppNC, ppBP, ppDepth, ppAlive, 
-                                  ppHeld, inItems, inClosed, inWaker, pollFn, 
-                                  chuteFn, pwTaken, nextPoll, ppItem, pjLive, 
-                                  ppStage, stack, dead, sti, rq, sq, sj, ww, 
-                                  rsq, bown, bwk, bi, bcur, bw, bsp, jq, jj, 
-                                  jwk, fj, dq, dj, oq, oop, omode, oj, yq, yop, 
-                                  yclaimed, tq, top, af, wf, wop, sf, sctx, xf, 
-                                  cop, kj, pp, pwk, np, nbp, nres, dp, pf, 
-                                  pctx, pq, pj, pd, nq >>
+                                  dnState, dnWaker, parkTok, barGen, myBar, 
+                                  cdone, rv, rwb, rneed, dsl, atomic, strong, 
+                                  ppPending, ppClosed, ppNotify, ppNC, ppBP, 
+                                  ppDepth, ppAlive, ppHeld, inItems, inClosed, 
+                                  inWaker, pollFn, chuteFn, pwTaken, nextPoll, 
+                                  ppItem, pjLive, ppStage, stack, dead, sti, 
+                                  smax, rq, sq, sj, ww, rsq, bown, bwk, bi, 
+                                  bcur, bw, bsp, jq, jj, jwk, fj, dq, dj, oq, 
+                                  oop, omode, oj, yq, yop, yclaimed, tq, top, 
+                                  af, wf, wop, sf, sctx, xf, cop, kj, pp, pwk, 
+                                  np, nbp, nres, dp, pf, pctx, pq, pj, pd, nq >>
 
 pp_setdepth(self) == /\ pc[self] = "pp_setdepth"
                      /\ ppDepth' = [ppDepth EXCEPT ![OpTab[bcur[self]].p] = OpTab[bcur[self]].n]
@@ -2794,18 +2899,18 @@ pp_setdepth(self) == /\ pc[self] = "pp_setdepth"
                                      dwSt, dwW, dblTaken, dblW1, dblW2, nextDW, 
                                      ready, cwait, cnotif, cvHeld, sdres, 
                                      jpanic, sfst, slotSt, qrSent, qrWaker, 
-                                     dnState, dnWaker, parkTok, rwb, rneed, 
-                                     dsl, atomic, strong, ppPending, ppClosed, 
-                                     ppNotify, ppNC, ppBP, ppAlive, ppHeld, 
-                                     inItems, inClosed, inWaker, pollFn, 
-                                     chuteFn, pwTaken, nextPoll, ppItem, 
-                                     pjLive, ppStage, h, stack, dead, sti, rq, 
-                                     sq, sj, ww, rsq, bown, bwk, bi, bcur, bw, 
-                                     bsp, jq, jj, jwk, fj, dq, dj, oq, oop, 
-                                     omode, oj, yq, yop, yclaimed, tq, top, af, 
-                                     wf, wop, sf, sctx, xf, cop, kj, pp, pwk, 
-                                     np, nbp, nres, dp, pf, pctx, pq, pj, pd, 
-                                     nq >>
+                                     dnState, dnWaker, parkTok, barGen, myBar, 
+                                     cdone, rwb, rneed, dsl, atomic, strong, 
+                                     ppPending, ppClosed, ppNotify, ppNC, ppBP, 
+                                     ppAlive, ppHeld, inItems, inClosed, 
+                                     inWaker, pollFn, chuteFn, pwTaken, 
+                                     nextPoll, ppItem, pjLive, ppStage, h, 
+                                     stack, dead, sti, smax, rq, sq, sj, ww, 
+                                     rsq, bown, bwk, bi, bcur, bw, bsp, jq, jj, 
+                                     jwk, fj, dq, dj, oq, oop, omode, oj, yq, 
+                                     yop, yclaimed, tq, top, af, wf, wop, sf, 
+                                     sctx, xf, cop, kj, pp, pwk, np, nbp, nres, 
+                                     dp, pf, pctx, pq, pj, pd, nq >>
 
 z_spur(self) == /\ pc[self] = "z_spur"
                 /\ IF bsp[self] = << >>
@@ -2831,16 +2936,17 @@ z_spur(self) == /\ pc[self] = "z_spur"
                                 gthreads, gwhist, dwSt, dwW, dblTaken, dblW1, 
                                 dblW2, nextDW, ready, cwait, cnotif, cvHeld, 
                                 sdres, jpanic, sfst, slotSt, qrSent, qrWaker, 
-                                dnState, dnWaker, rv, rwb, rneed, dsl, atomic, 
-                                strong, ppPending, ppClosed, ppNotify, ppNC, 
-                                ppBP, ppDepth, ppAlive, ppHeld, inItems, 
-                                inClosed, inWaker, pollFn, chuteFn, pwTaken, 
-                                nextPoll, ppItem, pjLive, ppStage, h, dead, 
-                                sti, rq, sq, sj, rsq, bown, bwk, bi, bcur, jq, 
-                                jj, jwk, fj, dq, dj, oq, oop, omode, oj, yq, 
-                                yop, yclaimed, tq, top, af, wf, wop, sf, sctx, 
-                                xf, cop, kj, pp, pwk, np, nbp, nres, dp, pf, 
-                                pctx, pq, pj, pd, nq >>
+                                dnState, dnWaker, barGen, myBar, cdone, rv, 
+                                rwb, rneed, dsl, atomic, strong, ppPending, 
+                                ppClosed, ppNotify, ppNC, ppBP, ppDepth, 
+                                ppAlive, ppHeld, inItems, inClosed, inWaker, 
+                                pollFn, chuteFn, pwTaken, nextPoll, ppItem, 
+                                pjLive, ppStage, h, dead, sti, smax, rq, sq, 
+                                sj, rsq, bown, bwk, bi, bcur, jq, jj, jwk, fj, 
+                                dq, dj, oq, oop, omode, oj, yq, yop, yclaimed, 
+                                tq, top, af, wf, wop, sf, sctx, xf, cop, kj, 
+                                pp, pwk, np, nbp, nres, dp, pf, pctx, pq, pj, 
+                                pd, nq >>
 
 rb_wait(self) == /\ pc[self] = "rb_wait"
                  /\ parkTok[self]
@@ -2857,16 +2963,17 @@ rb_wait(self) == /\ pc[self] = "rb_wait"
                                  gwhist, dwSt, dwW, dblTaken, dblW1, dblW2, 
                                  nextDW, ready, cwait, cnotif, cvHeld, sdres, 
                                  jpanic, sfst, slotSt, qrSent, qrWaker, 
-                                 dnState, dnWaker, rv, rwb, rneed, dsl, atomic, 
-                                 strong, ppPending, ppClosed, ppNotify, ppNC, 
-                                 ppBP, ppDepth, ppAlive, ppHeld, inItems, 
-                                 inClosed, inWaker, pollFn, chuteFn, pwTaken, 
-                                 nextPoll, ppItem, pjLive, ppStage, h, stack, 
-                                 dead, sti, rq, sq, sj, ww, rsq, bown, bwk, bi, 
-                                 bcur, bw, bsp, jq, jj, jwk, fj, dq, dj, oq, 
-                                 oop, omode, oj, yq, yop, yclaimed, tq, top, 
-                                 af, wf, wop, sf, sctx, xf, cop, kj, pp, pwk, 
-                                 np, nbp, nres, dp, pf, pctx, pq, pj, pd, nq >>
+                                 dnState, dnWaker, barGen, myBar, cdone, rv, 
+                                 rwb, rneed, dsl, atomic, strong, ppPending, 
+                                 ppClosed, ppNotify, ppNC, ppBP, ppDepth, 
+                                 ppAlive, ppHeld, inItems, inClosed, inWaker, 
+                                 pollFn, chuteFn, pwTaken, nextPoll, ppItem, 
+                                 pjLive, ppStage, h, stack, dead, sti, smax, 
+                                 rq, sq, sj, ww, rsq, bown, bwk, bi, bcur, bw, 
+                                 bsp, jq, jj, jwk, fj, dq, dj, oq, oop, omode, 
+                                 oj, yq, yop, yclaimed, tq, top, af, wf, wop, 
+                                 sf, sctx, xf, cop, kj, pp, pwk, np, nbp, nres, 
+                                 dp, pf, pctx, pq, pj, pd, nq >>
 
 mx_set(self) == /\ pc[self] = "mx_set"
                 /\ maxThreads' = OpTab[bcur[self]].n
@@ -2880,22 +2987,23 @@ mx_set(self) == /\ pc[self] = "mx_set"
                                 dwSt, dwW, dblTaken, dblW1, dblW2, nextDW, 
                                 ready, cwait, cnotif, cvHeld, sdres, jpanic, 
                                 sfst, slotSt, qrSent, qrWaker, dnState, 
-                                dnWaker, parkTok, rwb, rneed, dsl, atomic, 
-                                strong, ppPending, ppClosed, ppNotify, ppNC, 
-                                ppBP, ppDepth, ppAlive, ppHeld, inItems, 
-                                inClosed, inWaker, pollFn, chuteFn, pwTaken, 
-                                nextPoll, ppItem, pjLive, ppStage, stack, dead, 
-                                sti, rq, sq, sj, ww, rsq, bown, bwk, bi, bcur, 
-                                bw, bsp, jq, jj, jwk, fj, dq, dj, oq, oop, 
-                                omode, oj, yq, yop, yclaimed, tq, top, af, wf, 
-                                wop, sf, sctx, xf, cop, kj, pp, pwk, np, nbp, 
-                                nres, dp, pf, pctx, pq, pj, pd, nq >>
+                                dnWaker, parkTok, barGen, myBar, cdone, rwb, 
+                                rneed, dsl, atomic, strong, ppPending, 
+                                ppClosed, ppNotify, ppNC, ppBP, ppDepth, 
+                                ppAlive, ppHeld, inItems, inClosed, inWaker, 
+                                pollFn, chuteFn, pwTaken, nextPoll, ppItem, 
+                                pjLive, ppStage, stack, dead, sti, smax, rq, 
+                                sq, sj, ww, rsq, bown, bwk, bi, bcur, bw, bsp, 
+                                jq, jj, jwk, fj, dq, dj, oq, oop, omode, oj, 
+                                yq, yop, yclaimed, tq, top, af, wf, wop, sf, 
+                                sctx, xf, cop, kj, pp, pwk, np, nbp, nres, dp, 
+                                pf, pctx, pq, pj, pd, nq >>
 
 RunOps(self) == rb_step(self) \/ z_finish(self) \/ z_pollaw(self)
                    \/ z_pollaw_after(self) \/ z_drop_ret(self)
-                   \/ rb_block(self) \/ z_dispatch(self) \/ z_then(self)
-                   \/ z_polled(self) \/ pp_setdepth(self) \/ z_spur(self)
-                   \/ rb_wait(self) \/ mx_set(self)
+                   \/ rb_bar(self) \/ rb_block(self) \/ z_dispatch(self)
+                   \/ z_then(self) \/ z_polled(self) \/ pp_setdepth(self)
+                   \/ z_spur(self) \/ rb_wait(self) \/ mx_set(self)
 
 z_rj(self) == /\ pc[self] = "z_rj"
               /\ IF K(jj[self]) \in {"desync", "sync", "try_sync"}
@@ -3264,14 +3372,14 @@ z_rj(self) == /\ pc[self] = "z_rj"
                               jkind, jaw, fres, fwaker, gfired, gthreads, dwSt, 
                               dwW, dblTaken, dblW1, dblW2, nextDW, ready, 
                               cwait, cnotif, cvHeld, jpanic, sfst, qrWaker, 
-                              dnState, dnWaker, rwb, rneed, dsl, atomic, 
-                              ppPending, ppClosed, ppNotify, ppNC, ppBP, 
-                              ppDepth, ppAlive, ppHeld, inItems, inClosed, 
-                              inWaker, pollFn, pwTaken, nextPoll, ppItem, 
-                              pjLive, ppStage, dead, sti, rq, sq, sj, fj, dq, 
-                              dj, oq, oop, omode, oj, tq, top, af, wf, wop, sf, 
-                              sctx, xf, cop, np, nbp, nres, dp, pf, pctx, pq, 
-                              pj, pd, nq >>
+                              dnState, dnWaker, barGen, myBar, cdone, rwb, 
+                              rneed, dsl, atomic, ppPending, ppClosed, 
+                              ppNotify, ppNC, ppBP, ppDepth, ppAlive, ppHeld, 
+                              inItems, inClosed, inWaker, pollFn, pwTaken, 
+                              nextPoll, ppItem, pjLive, ppStage, dead, sti, 
+                              smax, rq, sq, sj, fj, dq, dj, oq, oop, omode, oj, 
+                              tq, top, af, wf, wop, sf, sctx, xf, cop, np, nbp, 
+                              nres, dp, pf, pctx, pq, pj, pd, nq >>
 
 z_rj_ret(self) == /\ pc[self] = "z_rj_ret"
                   /\ pc' = [pc EXCEPT ![self] = Head(stack[self]).pc]
@@ -3286,16 +3394,17 @@ z_rj_ret(self) == /\ pc[self] = "z_rj_ret"
                                   gthreads, gwhist, dwSt, dwW, dblTaken, dblW1, 
                                   dblW2, nextDW, ready, cwait, cnotif, cvHeld, 
                                   sdres, jpanic, sfst, slotSt, qrSent, qrWaker, 
-                                  dnState, dnWaker, parkTok, rv, rwb, rneed, 
-                                  dsl, atomic, strong, ppPending, ppClosed, 
-                                  ppNotify, ppNC, ppBP, ppDepth, ppAlive, 
-                                  ppHeld, inItems, inClosed, inWaker, pollFn, 
-                                  chuteFn, pwTaken, nextPoll, ppItem, pjLive, 
-                                  ppStage, h, dead, sti, rq, sq, sj, ww, rsq, 
-                                  bown, bwk, bi, bcur, bw, bsp, fj, dq, dj, oq, 
-                                  oop, omode, oj, yq, yop, yclaimed, tq, top, 
-                                  af, wf, wop, sf, sctx, xf, cop, kj, pp, pwk, 
-                                  np, nbp, nres, dp, pf, pctx, pq, pj, pd, nq >>
+                                  dnState, dnWaker, parkTok, barGen, myBar, 
+                                  cdone, rv, rwb, rneed, dsl, atomic, strong, 
+                                  ppPending, ppClosed, ppNotify, ppNC, ppBP, 
+                                  ppDepth, ppAlive, ppHeld, inItems, inClosed, 
+                                  inWaker, pollFn, chuteFn, pwTaken, nextPoll, 
+                                  ppItem, pjLive, ppStage, h, dead, sti, smax, 
+                                  rq, sq, sj, ww, rsq, bown, bwk, bi, bcur, bw, 
+                                  bsp, fj, dq, dj, oq, oop, omode, oj, yq, yop, 
+                                  yclaimed, tq, top, af, wf, wop, sf, sctx, xf, 
+                                  cop, kj, pp, pwk, np, nbp, nres, dp, pf, 
+                                  pctx, pq, pj, pd, nq >>
 
 z_rj_ok(self) == /\ pc[self] = "z_rj_ok"
                  /\ rv' = [rv EXCEPT ![self] = 0]
@@ -3311,16 +3420,17 @@ z_rj_ok(self) == /\ pc[self] = "z_rj_ok"
                                  gthreads, gwhist, dwSt, dwW, dblTaken, dblW1, 
                                  dblW2, nextDW, ready, cwait, cnotif, cvHeld, 
                                  sdres, jpanic, sfst, slotSt, qrSent, qrWaker, 
-                                 dnState, dnWaker, parkTok, rwb, rneed, dsl, 
-                                 atomic, strong, ppPending, ppClosed, ppNotify, 
-                                 ppNC, ppBP, ppDepth, ppAlive, ppHeld, inItems, 
-                                 inClosed, inWaker, pollFn, chuteFn, pwTaken, 
-                                 nextPoll, ppItem, pjLive, ppStage, h, dead, 
-                                 sti, rq, sq, sj, ww, rsq, bown, bwk, bi, bcur, 
-                                 bw, bsp, fj, dq, dj, oq, oop, omode, oj, yq, 
-                                 yop, yclaimed, tq, top, af, wf, wop, sf, sctx, 
-                                 xf, cop, kj, pp, pwk, np, nbp, nres, dp, pf, 
-                                 pctx, pq, pj, pd, nq >>
+                                 dnState, dnWaker, parkTok, barGen, myBar, 
+                                 cdone, rwb, rneed, dsl, atomic, strong, 
+                                 ppPending, ppClosed, ppNotify, ppNC, ppBP, 
+                                 ppDepth, ppAlive, ppHeld, inItems, inClosed, 
+                                 inWaker, pollFn, chuteFn, pwTaken, nextPoll, 
+                                 ppItem, pjLive, ppStage, h, dead, sti, smax, 
+                                 rq, sq, sj, ww, rsq, bown, bwk, bi, bcur, bw, 
+                                 bsp, fj, dq, dj, oq, oop, omode, oj, yq, yop, 
+                                 yclaimed, tq, top, af, wf, wop, sf, sctx, xf, 
+                                 cop, kj, pp, pwk, np, nbp, nres, dp, pf, pctx, 
+                                 pq, pj, pd, nq >>
 
 z_pp_gc(self) == /\ pc[self] = "z_pp_gc"
                  /\ IF pollFn[OpTab[jj[self]].p] /\ rv[self] = 0 /\ ~(\/ HoldsCtx(inWaker[OpTab[jj[self]].p])
@@ -3346,16 +3456,16 @@ z_pp_gc(self) == /\ pc[self] = "z_pp_gc"
                                  gthreads, gwhist, dwSt, dwW, dblTaken, dblW1, 
                                  dblW2, nextDW, ready, cwait, cnotif, cvHeld, 
                                  sdres, jpanic, sfst, slotSt, qrSent, qrWaker, 
-                                 dnState, dnWaker, parkTok, rv, rwb, rneed, 
-                                 dsl, atomic, strong, ppPending, ppClosed, 
-                                 ppNotify, ppNC, ppBP, ppDepth, ppAlive, 
-                                 ppHeld, inItems, inClosed, inWaker, chuteFn, 
-                                 pwTaken, nextPoll, ppItem, ppStage, dead, sti, 
-                                 rq, sq, sj, ww, rsq, bown, bwk, bi, bcur, bw, 
-                                 bsp, fj, dq, dj, oq, oop, omode, oj, yq, yop, 
-                                 yclaimed, tq, top, af, wf, wop, sf, sctx, xf, 
-                                 cop, kj, pp, pwk, np, nbp, nres, dp, pf, pctx, 
-                                 pq, pj, pd, nq >>
+                                 dnState, dnWaker, parkTok, barGen, myBar, 
+                                 cdone, rv, rwb, rneed, dsl, atomic, strong, 
+                                 ppPending, ppClosed, ppNotify, ppNC, ppBP, 
+                                 ppDepth, ppAlive, ppHeld, inItems, inClosed, 
+                                 inWaker, chuteFn, pwTaken, nextPoll, ppItem, 
+                                 ppStage, dead, sti, smax, rq, sq, sj, ww, rsq, 
+                                 bown, bwk, bi, bcur, bw, bsp, fj, dq, dj, oq, 
+                                 oop, omode, oj, yq, yop, yclaimed, tq, top, 
+                                 af, wf, wop, sf, sctx, xf, cop, kj, pp, pwk, 
+                                 np, nbp, nres, dp, pf, pctx, pq, pj, pd, nq >>
 
 z_slot2(self) == /\ pc[self] = "z_slot2"
                  /\ IF dnState[jj[self]] # "open"
@@ -3380,16 +3490,17 @@ z_slot2(self) == /\ pc[self] = "z_slot2"
                                  gthreads, gwhist, dwSt, dwW, dblTaken, dblW1, 
                                  dblW2, nextDW, ready, cwait, cnotif, cvHeld, 
                                  sdres, jpanic, sfst, slotSt, qrSent, qrWaker, 
-                                 dnState, parkTok, rwb, rneed, dsl, atomic, 
-                                 strong, ppPending, ppClosed, ppNotify, ppNC, 
-                                 ppBP, ppDepth, ppAlive, ppHeld, inItems, 
-                                 inClosed, inWaker, pollFn, chuteFn, pwTaken, 
-                                 nextPoll, ppItem, pjLive, ppStage, h, dead, 
-                                 sti, rq, sq, sj, ww, rsq, bown, bwk, bi, bcur, 
-                                 bw, bsp, fj, dq, dj, oq, oop, omode, oj, yq, 
-                                 yop, yclaimed, tq, top, af, wf, wop, sf, sctx, 
-                                 xf, cop, kj, pp, pwk, np, nbp, nres, dp, pf, 
-                                 pctx, pq, pj, pd, nq >>
+                                 dnState, parkTok, barGen, myBar, cdone, rwb, 
+                                 rneed, dsl, atomic, strong, ppPending, 
+                                 ppClosed, ppNotify, ppNC, ppBP, ppDepth, 
+                                 ppAlive, ppHeld, inItems, inClosed, inWaker, 
+                                 pollFn, chuteFn, pwTaken, nextPoll, ppItem, 
+                                 pjLive, ppStage, h, dead, sti, smax, rq, sq, 
+                                 sj, ww, rsq, bown, bwk, bi, bcur, bw, bsp, fj, 
+                                 dq, dj, oq, oop, omode, oj, yq, yop, yclaimed, 
+                                 tq, top, af, wf, wop, sf, sctx, xf, cop, kj, 
+                                 pp, pwk, np, nbp, nres, dp, pf, pctx, pq, pj, 
+                                 pd, nq >>
 
 sus_signal(self) == /\ pc[self] = "sus_signal"
                     /\ LET w == fwaker[jj[self]] IN
@@ -3413,18 +3524,18 @@ sus_signal(self) == /\ pc[self] = "sus_signal"
                                     gthreads, gwhist, dwSt, dwW, dblTaken, 
                                     dblW1, dblW2, nextDW, ready, cwait, cnotif, 
                                     cvHeld, sdres, jpanic, sfst, slotSt, 
-                                    qrSent, qrWaker, dnState, dnWaker, rv, rwb, 
-                                    rneed, dsl, atomic, strong, ppPending, 
-                                    ppClosed, ppNotify, ppNC, ppBP, ppDepth, 
-                                    ppAlive, ppHeld, inItems, inClosed, 
-                                    inWaker, pollFn, chuteFn, pwTaken, 
-                                    nextPoll, ppItem, pjLive, ppStage, h, dead, 
-                                    sti, rq, sq, sj, rsq, bown, bwk, bi, bcur, 
-                                    bw, bsp, jq, jj, jwk, fj, dq, dj, oq, oop, 
-                                    omode, oj, yq, yop, yclaimed, tq, top, af, 
-                                    wf, wop, sf, sctx, xf, cop, kj, pp, pwk, 
-                                    np, nbp, nres, dp, pf, pctx, pq, pj, pd, 
-                                    nq >>
+                                    qrSent, qrWaker, dnState, dnWaker, barGen, 
+                                    myBar, cdone, rv, rwb, rneed, dsl, atomic, 
+                                    strong, ppPending, ppClosed, ppNotify, 
+                                    ppNC, ppBP, ppDepth, ppAlive, ppHeld, 
+                                    inItems, inClosed, inWaker, pollFn, 
+                                    chuteFn, pwTaken, nextPoll, ppItem, pjLive, 
+                                    ppStage, h, dead, sti, smax, rq, sq, sj, 
+                                    rsq, bown, bwk, bi, bcur, bw, bsp, jq, jj, 
+                                    jwk, fj, dq, dj, oq, oop, omode, oj, yq, 
+                                    yop, yclaimed, tq, top, af, wf, wop, sf, 
+                                    sctx, xf, cop, kj, pp, pwk, np, nbp, nres, 
+                                    dp, pf, pctx, pq, pj, pd, nq >>
 
 sus_sigdrop(self) == /\ pc[self] = "sus_sigdrop"
                      /\ jaw' = [jaw EXCEPT ![jj[self]] = 1]
@@ -3446,12 +3557,13 @@ sus_sigdrop(self) == /\ pc[self] = "sus_sigdrop"
                                      dblTaken, dblW1, dblW2, nextDW, ready, 
                                      cwait, cnotif, cvHeld, sdres, jpanic, 
                                      sfst, slotSt, qrSent, qrWaker, dnState, 
-                                     dnWaker, parkTok, rwb, rneed, dsl, atomic, 
-                                     strong, ppPending, ppClosed, ppNotify, 
-                                     ppNC, ppBP, ppDepth, ppAlive, ppHeld, 
-                                     inItems, inClosed, inWaker, pollFn, 
-                                     chuteFn, pwTaken, nextPoll, ppItem, 
-                                     pjLive, ppStage, h, dead, sti, rq, sq, sj, 
+                                     dnWaker, parkTok, barGen, myBar, cdone, 
+                                     rwb, rneed, dsl, atomic, strong, 
+                                     ppPending, ppClosed, ppNotify, ppNC, ppBP, 
+                                     ppDepth, ppAlive, ppHeld, inItems, 
+                                     inClosed, inWaker, pollFn, chuteFn, 
+                                     pwTaken, nextPoll, ppItem, pjLive, 
+                                     ppStage, h, dead, sti, smax, rq, sq, sj, 
                                      ww, rsq, bown, bwk, bi, bcur, bw, bsp, fj, 
                                      dq, dj, oq, oop, omode, oj, yq, yop, 
                                      yclaimed, tq, top, af, wf, wop, sf, sctx, 
@@ -3469,17 +3581,17 @@ sus_inner(self) == /\ pc[self] = "sus_inner"
                                    dblTaken, dblW1, dblW2, nextDW, ready, 
                                    cwait, cnotif, cvHeld, sdres, jpanic, sfst, 
                                    slotSt, qrSent, qrWaker, dnState, dnWaker, 
-                                   parkTok, rv, rwb, rneed, dsl, atomic, 
-                                   strong, ppPending, ppClosed, ppNotify, ppNC, 
-                                   ppBP, ppDepth, ppAlive, ppHeld, inItems, 
-                                   inClosed, inWaker, pollFn, chuteFn, pwTaken, 
-                                   nextPoll, ppItem, pjLive, ppStage, h, stack, 
-                                   dead, sti, rq, sq, sj, ww, rsq, bown, bwk, 
-                                   bi, bcur, bw, bsp, jq, jj, jwk, fj, dq, dj, 
-                                   oq, oop, omode, oj, yq, yop, yclaimed, tq, 
-                                   top, af, wf, wop, sf, sctx, xf, cop, kj, pp, 
-                                   pwk, np, nbp, nres, dp, pf, pctx, pq, pj, 
-                                   pd, nq >>
+                                   parkTok, barGen, myBar, cdone, rv, rwb, 
+                                   rneed, dsl, atomic, strong, ppPending, 
+                                   ppClosed, ppNotify, ppNC, ppBP, ppDepth, 
+                                   ppAlive, ppHeld, inItems, inClosed, inWaker, 
+                                   pollFn, chuteFn, pwTaken, nextPoll, ppItem, 
+                                   pjLive, ppStage, h, stack, dead, sti, smax, 
+                                   rq, sq, sj, ww, rsq, bown, bwk, bi, bcur, 
+                                   bw, bsp, jq, jj, jwk, fj, dq, dj, oq, oop, 
+                                   omode, oj, yq, yop, yclaimed, tq, top, af, 
+                                   wf, wop, sf, sctx, xf, cop, kj, pp, pwk, np, 
+                                   nbp, nres, dp, pf, pctx, pq, pj, pd, nq >>
 
 sus_innerdrop(self) == /\ pc[self] = "sus_innerdrop"
                        /\ rv' = [rv EXCEPT ![self] = 0]
@@ -3497,15 +3609,16 @@ sus_innerdrop(self) == /\ pc[self] = "sus_innerdrop"
                                        dblW2, nextDW, ready, cwait, cnotif, 
                                        cvHeld, sdres, jpanic, sfst, slotSt, 
                                        qrSent, qrWaker, dnState, dnWaker, 
-                                       parkTok, rwb, rneed, dsl, atomic, 
-                                       strong, ppPending, ppClosed, ppNotify, 
-                                       ppNC, ppBP, ppDepth, ppAlive, ppHeld, 
-                                       inItems, inClosed, inWaker, pollFn, 
-                                       chuteFn, pwTaken, nextPoll, ppItem, 
-                                       pjLive, ppStage, h, dead, sti, rq, sq, 
-                                       sj, ww, rsq, bown, bwk, bi, bcur, bw, 
-                                       bsp, fj, dq, dj, oq, oop, omode, oj, yq, 
-                                       yop, yclaimed, tq, top, af, wf, wop, sf, 
+                                       parkTok, barGen, myBar, cdone, rwb, 
+                                       rneed, dsl, atomic, strong, ppPending, 
+                                       ppClosed, ppNotify, ppNC, ppBP, ppDepth, 
+                                       ppAlive, ppHeld, inItems, inClosed, 
+                                       inWaker, pollFn, chuteFn, pwTaken, 
+                                       nextPoll, ppItem, pjLive, ppStage, h, 
+                                       dead, sti, smax, rq, sq, sj, ww, rsq, 
+                                       bown, bwk, bi, bcur, bw, bsp, fj, dq, 
+                                       dj, oq, oop, omode, oj, yq, yop, 
+                                       yclaimed, tq, top, af, wf, wop, sf, 
                                        sctx, xf, cop, kj, pp, pwk, np, nbp, 
                                        nres, dp, pf, pctx, pq, pj, pd, nq >>
 
@@ -3534,16 +3647,17 @@ ws_take(self) == /\ pc[self] = "ws_take"
                                  gwhist, dwSt, dwW, dblTaken, dblW1, dblW2, 
                                  nextDW, ready, cwait, cnotif, cvHeld, jpanic, 
                                  sfst, slotSt, qrSent, qrWaker, dnState, 
-                                 dnWaker, parkTok, rwb, rneed, dsl, atomic, 
-                                 strong, ppPending, ppClosed, ppNotify, ppNC, 
-                                 ppBP, ppDepth, ppAlive, ppHeld, inItems, 
-                                 inClosed, inWaker, pollFn, chuteFn, pwTaken, 
-                                 nextPoll, ppItem, pjLive, ppStage, h, dead, 
-                                 sti, rq, sq, sj, ww, rsq, bown, bwk, bi, bcur, 
-                                 bw, bsp, fj, dq, dj, oq, oop, omode, oj, yq, 
-                                 yop, yclaimed, tq, top, af, wf, wop, sf, sctx, 
-                                 xf, cop, kj, pp, pwk, np, nbp, nres, dp, pf, 
-                                 pctx, pq, pj, pd, nq >>
+                                 dnWaker, parkTok, barGen, myBar, cdone, rwb, 
+                                 rneed, dsl, atomic, strong, ppPending, 
+                                 ppClosed, ppNotify, ppNC, ppBP, ppDepth, 
+                                 ppAlive, ppHeld, inItems, inClosed, inWaker, 
+                                 pollFn, chuteFn, pwTaken, nextPoll, ppItem, 
+                                 pjLive, ppStage, h, dead, sti, smax, rq, sq, 
+                                 sj, ww, rsq, bown, bwk, bi, bcur, bw, bsp, fj, 
+                                 dq, dj, oq, oop, omode, oj, yq, yop, yclaimed, 
+                                 tq, top, af, wf, wop, sf, sctx, xf, cop, kj, 
+                                 pp, pwk, np, nbp, nres, dp, pf, pctx, pq, pj, 
+                                 pd, nq >>
 
 RunJob(self) == z_rj(self) \/ z_rj_ret(self) \/ z_rj_ok(self)
                    \/ z_pp_gc(self) \/ z_slot2(self) \/ sus_signal(self)
@@ -3579,17 +3693,17 @@ fj_lock(self) == /\ pc[self] = "fj_lock"
                                  jkind, jaw, gfired, gwaker, gthreads, gwhist, 
                                  dwSt, dwW, dblTaken, dblW1, dblW2, nextDW, 
                                  cwait, cvHeld, sdres, jpanic, sfst, slotSt, 
-                                 qrSent, qrWaker, dnState, dnWaker, rv, rwb, 
-                                 rneed, dsl, atomic, strong, ppPending, 
-                                 ppClosed, ppNotify, ppNC, ppBP, ppDepth, 
-                                 ppAlive, ppHeld, inItems, inClosed, inWaker, 
-                                 pollFn, chuteFn, pwTaken, nextPoll, ppItem, 
-                                 pjLive, ppStage, h, dead, sti, rq, sq, sj, 
-                                 rsq, bown, bwk, bi, bcur, bw, bsp, jq, jj, 
-                                 jwk, dq, dj, oq, oop, omode, oj, yq, yop, 
-                                 yclaimed, tq, top, af, wf, wop, sf, sctx, xf, 
-                                 cop, kj, pp, pwk, np, nbp, nres, dp, pf, pctx, 
-                                 pq, pj, pd, nq >>
+                                 qrSent, qrWaker, dnState, dnWaker, barGen, 
+                                 myBar, cdone, rv, rwb, rneed, dsl, atomic, 
+                                 strong, ppPending, ppClosed, ppNotify, ppNC, 
+                                 ppBP, ppDepth, ppAlive, ppHeld, inItems, 
+                                 inClosed, inWaker, pollFn, chuteFn, pwTaken, 
+                                 nextPoll, ppItem, pjLive, ppStage, h, dead, 
+                                 sti, smax, rq, sq, sj, rsq, bown, bwk, bi, 
+                                 bcur, bw, bsp, jq, jj, jwk, dq, dj, oq, oop, 
+                                 omode, oj, yq, yop, yclaimed, tq, top, af, wf, 
+                                 wop, sf, sctx, xf, cop, kj, pp, pwk, np, nbp, 
+                                 nres, dp, pf, pctx, pq, pj, pd, nq >>
 
 z_fj_chk(self) == /\ pc[self] = "z_fj_chk"
                   /\ IF jpanic[fj[self]] /\ jkind[fj[self]] = "fut"
@@ -3605,17 +3719,17 @@ z_fj_chk(self) == /\ pc[self] = "z_fj_chk"
                                   gthreads, gwhist, dwSt, dwW, dblTaken, dblW1, 
                                   dblW2, nextDW, ready, cwait, cnotif, cvHeld, 
                                   sdres, jpanic, sfst, slotSt, qrSent, qrWaker, 
-                                  dnState, dnWaker, parkTok, rv, rwb, rneed, 
-                                  dsl, atomic, strong, ppPending, ppClosed, 
-                                  ppNotify, ppNC, ppBP, ppDepth, ppAlive, 
-                                  ppHeld, inItems, inClosed, inWaker, pollFn, 
-                                  chuteFn, pwTaken, nextPoll, ppItem, pjLive, 
-                                  ppStage, h, dead, sti, rq, sq, sj, ww, rsq, 
-                                  bown, bwk, bi, bcur, bw, bsp, jq, jj, jwk, 
-                                  dq, dj, oq, oop, omode, oj, yq, yop, 
-                                  yclaimed, tq, top, af, wf, wop, sf, sctx, xf, 
-                                  cop, kj, pp, pwk, np, nbp, nres, dp, pf, 
-                                  pctx, pq, pj, pd, nq >>
+                                  dnState, dnWaker, parkTok, barGen, myBar, 
+                                  cdone, rv, rwb, rneed, dsl, atomic, strong, 
+                                  ppPending, ppClosed, ppNotify, ppNC, ppBP, 
+                                  ppDepth, ppAlive, ppHeld, inItems, inClosed, 
+                                  inWaker, pollFn, chuteFn, pwTaken, nextPoll, 
+                                  ppItem, pjLive, ppStage, h, dead, sti, smax, 
+                                  rq, sq, sj, ww, rsq, bown, bwk, bi, bcur, bw, 
+                                  bsp, jq, jj, jwk, dq, dj, oq, oop, omode, oj, 
+                                  yq, yop, yclaimed, tq, top, af, wf, wop, sf, 
+                                  sctx, xf, cop, kj, pp, pwk, np, nbp, nres, 
+                                  dp, pf, pctx, pq, pj, pd, nq >>
 
 fj_sigdrop(self) == /\ pc[self] = "fj_sigdrop"
                     /\ pc' = [pc EXCEPT ![self] = Head(stack[self]).pc]
@@ -3629,17 +3743,18 @@ fj_sigdrop(self) == /\ pc[self] = "fj_sigdrop"
                                     dwW, dblTaken, dblW1, dblW2, nextDW, ready, 
                                     cwait, cnotif, cvHeld, sdres, jpanic, sfst, 
                                     slotSt, qrSent, qrWaker, dnState, dnWaker, 
-                                    parkTok, rv, rwb, rneed, dsl, atomic, 
-                                    strong, ppPending, ppClosed, ppNotify, 
-                                    ppNC, ppBP, ppDepth, ppAlive, ppHeld, 
-                                    inItems, inClosed, inWaker, pollFn, 
-                                    chuteFn, pwTaken, nextPoll, ppItem, pjLive, 
-                                    ppStage, h, dead, sti, rq, sq, sj, ww, rsq, 
-                                    bown, bwk, bi, bcur, bw, bsp, jq, jj, jwk, 
-                                    dq, dj, oq, oop, omode, oj, yq, yop, 
-                                    yclaimed, tq, top, af, wf, wop, sf, sctx, 
-                                    xf, cop, kj, pp, pwk, np, nbp, nres, dp, 
-                                    pf, pctx, pq, pj, pd, nq >>
+                                    parkTok, barGen, myBar, cdone, rv, rwb, 
+                                    rneed, dsl, atomic, strong, ppPending, 
+                                    ppClosed, ppNotify, ppNC, ppBP, ppDepth, 
+                                    ppAlive, ppHeld, inItems, inClosed, 
+                                    inWaker, pollFn, chuteFn, pwTaken, 
+                                    nextPoll, ppItem, pjLive, ppStage, h, dead, 
+                                    sti, smax, rq, sq, sj, ww, rsq, bown, bwk, 
+                                    bi, bcur, bw, bsp, jq, jj, jwk, dq, dj, oq, 
+                                    oop, omode, oj, yq, yop, yclaimed, tq, top, 
+                                    af, wf, wop, sf, sctx, xf, cop, kj, pp, 
+                                    pwk, np, nbp, nres, dp, pf, pctx, pq, pj, 
+                                    pd, nq >>
 
 FinishJob(self) == fj_lock(self) \/ z_fj_chk(self) \/ fj_sigdrop(self)
 
@@ -3666,16 +3781,17 @@ pd_deq(self) == /\ pc[self] = "pd_deq"
                                 gwhist, dwSt, dwW, dblTaken, dblW1, dblW2, 
                                 nextDW, ready, cwait, cnotif, cvHeld, sdres, 
                                 jpanic, sfst, slotSt, qrSent, qrWaker, dnState, 
-                                dnWaker, parkTok, rv, rwb, rneed, dsl, atomic, 
-                                strong, ppPending, ppClosed, ppNotify, ppNC, 
-                                ppBP, ppDepth, ppAlive, ppHeld, inItems, 
-                                inClosed, inWaker, pollFn, chuteFn, pwTaken, 
-                                nextPoll, ppItem, pjLive, ppStage, h, dead, 
-                                sti, rq, sq, sj, ww, rsq, bown, bwk, bi, bcur, 
-                                bw, bsp, fj, dq, oq, oop, omode, oj, yq, yop, 
-                                yclaimed, tq, top, af, wf, wop, sf, sctx, xf, 
-                                cop, kj, pp, pwk, np, nbp, nres, dp, pf, pctx, 
-                                pq, pj, pd, nq >>
+                                dnWaker, parkTok, barGen, myBar, cdone, rv, 
+                                rwb, rneed, dsl, atomic, strong, ppPending, 
+                                ppClosed, ppNotify, ppNC, ppBP, ppDepth, 
+                                ppAlive, ppHeld, inItems, inClosed, inWaker, 
+                                pollFn, chuteFn, pwTaken, nextPoll, ppItem, 
+                                pjLive, ppStage, h, dead, sti, smax, rq, sq, 
+                                sj, ww, rsq, bown, bwk, bi, bcur, bw, bsp, fj, 
+                                dq, oq, oop, omode, oj, yq, yop, yclaimed, tq, 
+                                top, af, wf, wop, sf, sctx, xf, cop, kj, pp, 
+                                pwk, np, nbp, nres, dp, pf, pctx, pq, pj, pd, 
+                                nq >>
 
 z_pd_after(self) == /\ pc[self] = "z_pd_after"
                     /\ IF rv[self] = 5
@@ -3708,17 +3824,18 @@ z_pd_after(self) == /\ pc[self] = "z_pd_after"
                                     dwW, dblTaken, dblW1, dblW2, nextDW, ready, 
                                     cwait, cnotif, cvHeld, sdres, jpanic, sfst, 
                                     slotSt, qrSent, qrWaker, dnState, dnWaker, 
-                                    parkTok, rv, rwb, rneed, dsl, atomic, 
-                                    strong, ppPending, ppClosed, ppNotify, 
-                                    ppNC, ppBP, ppDepth, ppAlive, ppHeld, 
-                                    inItems, inClosed, inWaker, pollFn, 
-                                    chuteFn, pwTaken, nextPoll, ppItem, pjLive, 
-                                    ppStage, h, dead, sti, rq, sq, sj, ww, rsq, 
-                                    bown, bwk, bi, bcur, bw, bsp, jq, jj, jwk, 
-                                    dq, dj, oq, oop, omode, oj, yq, yop, 
-                                    yclaimed, tq, top, af, wf, wop, sf, sctx, 
-                                    xf, cop, kj, pp, pwk, np, nbp, nres, dp, 
-                                    pf, pctx, pq, pj, pd, nq >>
+                                    parkTok, barGen, myBar, cdone, rv, rwb, 
+                                    rneed, dsl, atomic, strong, ppPending, 
+                                    ppClosed, ppNotify, ppNC, ppBP, ppDepth, 
+                                    ppAlive, ppHeld, inItems, inClosed, 
+                                    inWaker, pollFn, chuteFn, pwTaken, 
+                                    nextPoll, ppItem, pjLive, ppStage, h, dead, 
+                                    sti, smax, rq, sq, sj, ww, rsq, bown, bwk, 
+                                    bi, bcur, bw, bsp, jq, jj, jwk, dq, dj, oq, 
+                                    oop, omode, oj, yq, yop, yclaimed, tq, top, 
+                                    af, wf, wop, sf, sctx, xf, cop, kj, pp, 
+                                    pwk, np, nbp, nres, dp, pf, pctx, pq, pj, 
+                                    pd, nq >>
 
 pd_requeue(self) == /\ pc[self] = "pd_requeue"
                     /\ jobs' = [jobs EXCEPT ![dq[self]] = << dj[self] >> \o jobs[dq[self]]]
@@ -3731,17 +3848,18 @@ pd_requeue(self) == /\ pc[self] = "pd_requeue"
                                     dwW, dblTaken, dblW1, dblW2, nextDW, ready, 
                                     cwait, cnotif, cvHeld, sdres, jpanic, sfst, 
                                     slotSt, qrSent, qrWaker, dnState, dnWaker, 
-                                    parkTok, rv, rwb, rneed, dsl, atomic, 
-                                    strong, ppPending, ppClosed, ppNotify, 
-                                    ppNC, ppBP, ppDepth, ppAlive, ppHeld, 
-                                    inItems, inClosed, inWaker, pollFn, 
-                                    chuteFn, pwTaken, nextPoll, ppItem, pjLive, 
-                                    ppStage, h, stack, dead, sti, rq, sq, sj, 
-                                    ww, rsq, bown, bwk, bi, bcur, bw, bsp, jq, 
-                                    jj, jwk, fj, dq, dj, oq, oop, omode, oj, 
-                                    yq, yop, yclaimed, tq, top, af, wf, wop, 
-                                    sf, sctx, xf, cop, kj, pp, pwk, np, nbp, 
-                                    nres, dp, pf, pctx, pq, pj, pd, nq >>
+                                    parkTok, barGen, myBar, cdone, rv, rwb, 
+                                    rneed, dsl, atomic, strong, ppPending, 
+                                    ppClosed, ppNotify, ppNC, ppBP, ppDepth, 
+                                    ppAlive, ppHeld, inItems, inClosed, 
+                                    inWaker, pollFn, chuteFn, pwTaken, 
+                                    nextPoll, ppItem, pjLive, ppStage, h, 
+                                    stack, dead, sti, smax, rq, sq, sj, ww, 
+                                    rsq, bown, bwk, bi, bcur, bw, bsp, jq, jj, 
+                                    jwk, fj, dq, dj, oq, oop, omode, oj, yq, 
+                                    yop, yclaimed, tq, top, af, wf, wop, sf, 
+                                    sctx, xf, cop, kj, pp, pwk, np, nbp, nres, 
+                                    dp, pf, pctx, pq, pj, pd, nq >>
 
 pd_park(self) == /\ pc[self] = "pd_park"
                  /\ IF qstate[dq[self]] = "Running"
@@ -3764,16 +3882,17 @@ pd_park(self) == /\ pc[self] = "pd_park"
                                  gwhist, dwSt, dwW, dblTaken, dblW1, dblW2, 
                                  nextDW, ready, cwait, cnotif, cvHeld, sdres, 
                                  jpanic, sfst, slotSt, qrSent, qrWaker, 
-                                 dnState, dnWaker, parkTok, rwb, rneed, dsl, 
-                                 atomic, strong, ppPending, ppClosed, ppNotify, 
-                                 ppNC, ppBP, ppDepth, ppAlive, ppHeld, inItems, 
-                                 inClosed, inWaker, pollFn, chuteFn, pwTaken, 
-                                 nextPoll, ppItem, pjLive, ppStage, h, dead, 
-                                 sti, rq, sq, sj, ww, rsq, bown, bwk, bi, bcur, 
-                                 bw, bsp, jq, jj, jwk, fj, oq, oop, omode, oj, 
-                                 yq, yop, yclaimed, tq, top, af, wf, wop, sf, 
-                                 sctx, xf, cop, kj, pp, pwk, np, nbp, nres, dp, 
-                                 pf, pctx, pq, pj, pd, nq >>
+                                 dnState, dnWaker, parkTok, barGen, myBar, 
+                                 cdone, rwb, rneed, dsl, atomic, strong, 
+                                 ppPending, ppClosed, ppNotify, ppNC, ppBP, 
+                                 ppDepth, ppAlive, ppHeld, inItems, inClosed, 
+                                 inWaker, pollFn, chuteFn, pwTaken, nextPoll, 
+                                 ppItem, pjLive, ppStage, h, dead, sti, smax, 
+                                 rq, sq, sj, ww, rsq, bown, bwk, bi, bcur, bw, 
+                                 bsp, jq, jj, jwk, fj, oq, oop, omode, oj, yq, 
+                                 yop, yclaimed, tq, top, af, wf, wop, sf, sctx, 
+                                 xf, cop, kj, pp, pwk, np, nbp, nres, dp, pf, 
+                                 pctx, pq, pj, pd, nq >>
 
 pd_end(self) == /\ pc[self] = "pd_end"
                 /\ IF jobs[dq[self]] = << >>
@@ -3802,16 +3921,17 @@ pd_end(self) == /\ pc[self] = "pd_end"
                                 gwhist, dwSt, dwW, dblTaken, dblW1, dblW2, 
                                 nextDW, ready, cwait, cnotif, cvHeld, sdres, 
                                 jpanic, sfst, slotSt, qrSent, qrWaker, dnState, 
-                                dnWaker, parkTok, rwb, rneed, dsl, atomic, 
-                                strong, ppPending, ppClosed, ppNotify, ppNC, 
-                                ppBP, ppDepth, ppAlive, ppHeld, inItems, 
-                                inClosed, inWaker, pollFn, chuteFn, pwTaken, 
-                                nextPoll, ppItem, pjLive, ppStage, h, dead, 
-                                sti, rq, sq, sj, ww, rsq, bown, bwk, bi, bcur, 
-                                bw, bsp, jq, jj, jwk, fj, oq, oop, omode, oj, 
-                                yq, yop, yclaimed, tq, top, af, wf, wop, sf, 
-                                sctx, xf, cop, kj, pp, pwk, np, nbp, nres, dp, 
-                                pf, pctx, pq, pj, pd, nq >>
+                                dnWaker, parkTok, barGen, myBar, cdone, rwb, 
+                                rneed, dsl, atomic, strong, ppPending, 
+                                ppClosed, ppNotify, ppNC, ppBP, ppDepth, 
+                                ppAlive, ppHeld, inItems, inClosed, inWaker, 
+                                pollFn, chuteFn, pwTaken, nextPoll, ppItem, 
+                                pjLive, ppStage, h, dead, sti, smax, rq, sq, 
+                                sj, ww, rsq, bown, bwk, bi, bcur, bw, bsp, jq, 
+                                jj, jwk, fj, oq, oop, omode, oj, yq, yop, 
+                                yclaimed, tq, top, af, wf, wop, sf, sctx, xf, 
+                                cop, kj, pp, pwk, np, nbp, nres, dp, pf, pctx, 
+                                pq, pj, pd, nq >>
 
 pd_panic(self) == /\ pc[self] = "pd_panic"
                   /\ qstate' = [qstate EXCEPT ![dq[self]] = "Panicked"]
@@ -3827,17 +3947,17 @@ pd_panic(self) == /\ pc[self] = "pd_panic"
                                   gwhist, dwSt, dwW, dblTaken, dblW1, dblW2, 
                                   nextDW, ready, cwait, cnotif, cvHeld, sdres, 
                                   jpanic, sfst, slotSt, qrSent, qrWaker, 
-                                  dnState, dnWaker, parkTok, rwb, rneed, dsl, 
-                                  atomic, strong, ppPending, ppClosed, 
-                                  ppNotify, ppNC, ppBP, ppDepth, ppAlive, 
-                                  ppHeld, inItems, inClosed, inWaker, pollFn, 
-                                  chuteFn, pwTaken, nextPoll, ppItem, pjLive, 
-                                  ppStage, h, dead, sti, rq, sq, sj, ww, rsq, 
-                                  bown, bwk, bi, bcur, bw, bsp, jq, jj, jwk, 
-                                  fj, oq, oop, omode, oj, yq, yop, yclaimed, 
-                                  tq, top, af, wf, wop, sf, sctx, xf, cop, kj, 
-                                  pp, pwk, np, nbp, nres, dp, pf, pctx, pq, pj, 
-                                  pd, nq >>
+                                  dnState, dnWaker, parkTok, barGen, myBar, 
+                                  cdone, rwb, rneed, dsl, atomic, strong, 
+                                  ppPending, ppClosed, ppNotify, ppNC, ppBP, 
+                                  ppDepth, ppAlive, ppHeld, inItems, inClosed, 
+                                  inWaker, pollFn, chuteFn, pwTaken, nextPoll, 
+                                  ppItem, pjLive, ppStage, h, dead, sti, smax, 
+                                  rq, sq, sj, ww, rsq, bown, bwk, bi, bcur, bw, 
+                                  bsp, jq, jj, jwk, fj, oq, oop, omode, oj, yq, 
+                                  yop, yclaimed, tq, top, af, wf, wop, sf, 
+                                  sctx, xf, cop, kj, pp, pwk, np, nbp, nres, 
+                                  dp, pf, pctx, pq, pj, pd, nq >>
 
 PoolDrain(self) == pd_deq(self) \/ z_pd_after(self) \/ pd_requeue(self)
                       \/ pd_park(self) \/ pd_end(self) \/ pd_panic(self)
@@ -3876,16 +3996,16 @@ ro_deq(self) == /\ pc[self] = "ro_deq"
                                 gwhist, dwSt, dwW, dblTaken, dblW1, dblW2, 
                                 nextDW, ready, cwait, cnotif, cvHeld, sdres, 
                                 jpanic, sfst, slotSt, qrSent, qrWaker, dnState, 
-                                dnWaker, parkTok, rwb, rneed, dsl, atomic, 
-                                strong, ppPending, ppClosed, ppNotify, ppNC, 
-                                ppBP, ppDepth, ppAlive, ppHeld, inItems, 
-                                inClosed, inWaker, pollFn, chuteFn, pwTaken, 
-                                nextPoll, ppItem, pjLive, ppStage, h, dead, 
-                                sti, rq, sq, sj, ww, rsq, bown, bwk, bi, bcur, 
-                                bw, bsp, fj, dq, dj, yq, yop, yclaimed, tq, 
-                                top, af, wf, wop, sf, sctx, xf, cop, kj, pp, 
-                                pwk, np, nbp, nres, dp, pf, pctx, pq, pj, pd, 
-                                nq >>
+                                dnWaker, parkTok, barGen, myBar, cdone, rwb, 
+                                rneed, dsl, atomic, strong, ppPending, 
+                                ppClosed, ppNotify, ppNC, ppBP, ppDepth, 
+                                ppAlive, ppHeld, inItems, inClosed, inWaker, 
+                                pollFn, chuteFn, pwTaken, nextPoll, ppItem, 
+                                pjLive, ppStage, h, dead, sti, smax, rq, sq, 
+                                sj, ww, rsq, bown, bwk, bi, bcur, bw, bsp, fj, 
+                                dq, dj, yq, yop, yclaimed, tq, top, af, wf, 
+                                wop, sf, sctx, xf, cop, kj, pp, pwk, np, nbp, 
+                                nres, dp, pf, pctx, pq, pj, pd, nq >>
 
 z_ro_after(self) == /\ pc[self] = "z_ro_after"
                     /\ IF rv[self] = 5
@@ -3918,17 +4038,18 @@ z_ro_after(self) == /\ pc[self] = "z_ro_after"
                                     dwW, dblTaken, dblW1, dblW2, nextDW, ready, 
                                     cwait, cnotif, cvHeld, sdres, jpanic, sfst, 
                                     slotSt, qrSent, qrWaker, dnState, dnWaker, 
-                                    parkTok, rv, rwb, rneed, dsl, atomic, 
-                                    strong, ppPending, ppClosed, ppNotify, 
-                                    ppNC, ppBP, ppDepth, ppAlive, ppHeld, 
-                                    inItems, inClosed, inWaker, pollFn, 
-                                    chuteFn, pwTaken, nextPoll, ppItem, pjLive, 
-                                    ppStage, h, dead, sti, rq, sq, sj, ww, rsq, 
-                                    bown, bwk, bi, bcur, bw, bsp, jq, jj, jwk, 
-                                    dq, dj, oq, oop, omode, oj, yq, yop, 
-                                    yclaimed, tq, top, af, wf, wop, sf, sctx, 
-                                    xf, cop, kj, pp, pwk, np, nbp, nres, dp, 
-                                    pf, pctx, pq, pj, pd, nq >>
+                                    parkTok, barGen, myBar, cdone, rv, rwb, 
+                                    rneed, dsl, atomic, strong, ppPending, 
+                                    ppClosed, ppNotify, ppNC, ppBP, ppDepth, 
+                                    ppAlive, ppHeld, inItems, inClosed, 
+                                    inWaker, pollFn, chuteFn, pwTaken, 
+                                    nextPoll, ppItem, pjLive, ppStage, h, dead, 
+                                    sti, smax, rq, sq, sj, ww, rsq, bown, bwk, 
+                                    bi, bcur, bw, bsp, jq, jj, jwk, dq, dj, oq, 
+                                    oop, omode, oj, yq, yop, yclaimed, tq, top, 
+                                    af, wf, wop, sf, sctx, xf, cop, kj, pp, 
+                                    pwk, np, nbp, nres, dp, pf, pctx, pq, pj, 
+                                    pd, nq >>
 
 z_ro_done(self) == /\ pc[self] = "z_ro_done"
                    /\ IF omode[self] = "sd" /\ ~sdres[oop[self]]
@@ -3949,16 +4070,16 @@ z_ro_done(self) == /\ pc[self] = "z_ro_done"
                                    dblTaken, dblW1, dblW2, nextDW, ready, 
                                    cwait, cnotif, cvHeld, sdres, jpanic, sfst, 
                                    slotSt, qrSent, qrWaker, dnState, dnWaker, 
-                                   parkTok, rwb, rneed, dsl, atomic, strong, 
-                                   ppPending, ppClosed, ppNotify, ppNC, ppBP, 
-                                   ppDepth, ppAlive, ppHeld, inItems, inClosed, 
-                                   inWaker, pollFn, chuteFn, pwTaken, nextPoll, 
-                                   ppItem, pjLive, ppStage, h, dead, sti, rq, 
-                                   sq, sj, ww, rsq, bown, bwk, bi, bcur, bw, 
-                                   bsp, jq, jj, jwk, fj, dq, dj, yq, yop, 
-                                   yclaimed, tq, top, af, wf, wop, sf, sctx, 
-                                   xf, cop, kj, pp, pwk, np, nbp, nres, dp, pf, 
-                                   pctx, pq, pj, pd, nq >>
+                                   parkTok, barGen, myBar, cdone, rwb, rneed, 
+                                   dsl, atomic, strong, ppPending, ppClosed, 
+                                   ppNotify, ppNC, ppBP, ppDepth, ppAlive, 
+                                   ppHeld, inItems, inClosed, inWaker, pollFn, 
+                                   chuteFn, pwTaken, nextPoll, ppItem, pjLive, 
+                                   ppStage, h, dead, sti, smax, rq, sq, sj, ww, 
+                                   rsq, bown, bwk, bi, bcur, bw, bsp, jq, jj, 
+                                   jwk, fj, dq, dj, yq, yop, yclaimed, tq, top, 
+                                   af, wf, wop, sf, sctx, xf, cop, kj, pp, pwk, 
+                                   np, nbp, nres, dp, pf, pctx, pq, pj, pd, nq >>
 
 z_ro_panic(self) == /\ pc[self] = "z_ro_panic"
                     /\ rv' = [rv EXCEPT ![self] = 9]
@@ -3976,16 +4097,17 @@ z_ro_panic(self) == /\ pc[self] = "z_ro_panic"
                                     dwW, dblTaken, dblW1, dblW2, nextDW, ready, 
                                     cwait, cnotif, cvHeld, sdres, jpanic, sfst, 
                                     slotSt, qrSent, qrWaker, dnState, dnWaker, 
-                                    parkTok, rwb, rneed, dsl, atomic, strong, 
-                                    ppPending, ppClosed, ppNotify, ppNC, ppBP, 
-                                    ppDepth, ppAlive, ppHeld, inItems, 
-                                    inClosed, inWaker, pollFn, chuteFn, 
-                                    pwTaken, nextPoll, ppItem, pjLive, ppStage, 
-                                    h, dead, sti, rq, sq, sj, ww, rsq, bown, 
-                                    bwk, bi, bcur, bw, bsp, jq, jj, jwk, fj, 
-                                    dq, dj, yq, yop, yclaimed, tq, top, af, wf, 
-                                    wop, sf, sctx, xf, cop, kj, pp, pwk, np, 
-                                    nbp, nres, dp, pf, pctx, pq, pj, pd, nq >>
+                                    parkTok, barGen, myBar, cdone, rwb, rneed, 
+                                    dsl, atomic, strong, ppPending, ppClosed, 
+                                    ppNotify, ppNC, ppBP, ppDepth, ppAlive, 
+                                    ppHeld, inItems, inClosed, inWaker, pollFn, 
+                                    chuteFn, pwTaken, nextPoll, ppItem, pjLive, 
+                                    ppStage, h, dead, sti, smax, rq, sq, sj, 
+                                    ww, rsq, bown, bwk, bi, bcur, bw, bsp, jq, 
+                                    jj, jwk, fj, dq, dj, yq, yop, yclaimed, tq, 
+                                    top, af, wf, wop, sf, sctx, xf, cop, kj, 
+                                    pp, pwk, np, nbp, nres, dp, pf, pctx, pq, 
+                                    pj, pd, nq >>
 
 ro_park(self) == /\ pc[self] = "ro_park"
                  /\ IF qstate[oq[self]] = "AwokenWhileRunning"
@@ -4001,7 +4123,7 @@ ro_park(self) == /\ pc[self] = "ro_park"
                                                                     \o stack[self]]
                             /\ pc' = [pc EXCEPT ![self] = "z_rj"]
                        ELSE /\ Assert(qstate[oq[self]] = "Running", 
-                                      "Failure of assertion at line 590, column 5.")
+                                      "Failure of assertion at line 605, column 5.")
                             /\ qstate' = [qstate EXCEPT ![oq[self]] = "WaitingForUnpark"]
                             /\ pc' = [pc EXCEPT ![self] = "ro_check"]
                             /\ UNCHANGED << stack, jq, jj, jwk >>
@@ -4012,16 +4134,17 @@ ro_park(self) == /\ pc[self] = "ro_park"
                                  gwhist, dwSt, dwW, dblTaken, dblW1, dblW2, 
                                  nextDW, ready, cwait, cnotif, cvHeld, sdres, 
                                  jpanic, sfst, slotSt, qrSent, qrWaker, 
-                                 dnState, dnWaker, parkTok, rv, rwb, rneed, 
-                                 dsl, atomic, strong, ppPending, ppClosed, 
-                                 ppNotify, ppNC, ppBP, ppDepth, ppAlive, 
-                                 ppHeld, inItems, inClosed, inWaker, pollFn, 
-                                 chuteFn, pwTaken, nextPoll, ppItem, pjLive, 
-                                 ppStage, h, dead, sti, rq, sq, sj, ww, rsq, 
-                                 bown, bwk, bi, bcur, bw, bsp, fj, dq, dj, oq, 
-                                 oop, omode, oj, yq, yop, yclaimed, tq, top, 
-                                 af, wf, wop, sf, sctx, xf, cop, kj, pp, pwk, 
-                                 np, nbp, nres, dp, pf, pctx, pq, pj, pd, nq >>
+                                 dnState, dnWaker, parkTok, barGen, myBar, 
+                                 cdone, rv, rwb, rneed, dsl, atomic, strong, 
+                                 ppPending, ppClosed, ppNotify, ppNC, ppBP, 
+                                 ppDepth, ppAlive, ppHeld, inItems, inClosed, 
+                                 inWaker, pollFn, chuteFn, pwTaken, nextPoll, 
+                                 ppItem, pjLive, ppStage, h, dead, sti, smax, 
+                                 rq, sq, sj, ww, rsq, bown, bwk, bi, bcur, bw, 
+                                 bsp, fj, dq, dj, oq, oop, omode, oj, yq, yop, 
+                                 yclaimed, tq, top, af, wf, wop, sf, sctx, xf, 
+                                 cop, kj, pp, pwk, np, nbp, nres, dp, pf, pctx, 
+                                 pq, pj, pd, nq >>
 
 ro_check(self) == /\ pc[self] = "ro_check"
                   /\ IF qstate[oq[self]] \in {"Running", "AwokenWhileRunning"}
@@ -4036,7 +4159,7 @@ ro_check(self) == /\ pc[self] = "ro_check"
                                                                      \o stack[self]]
                              /\ pc' = [pc EXCEPT ![self] = "z_rj"]
                         ELSE /\ Assert(qstate[oq[self]] = "WaitingForUnpark", 
-                                       "Failure of assertion at line 597, column 12.")
+                                       "Failure of assertion at line 612, column 12.")
                              /\ pc' = [pc EXCEPT ![self] = "ro_parked"]
                              /\ UNCHANGED << stack, jq, jj, jwk >>
                   /\ UNCHANGED << qstate, qpoll, jobs, wakeBlocked, schedule, 
@@ -4046,16 +4169,17 @@ ro_check(self) == /\ pc[self] = "ro_check"
                                   gthreads, gwhist, dwSt, dwW, dblTaken, dblW1, 
                                   dblW2, nextDW, ready, cwait, cnotif, cvHeld, 
                                   sdres, jpanic, sfst, slotSt, qrSent, qrWaker, 
-                                  dnState, dnWaker, parkTok, rv, rwb, rneed, 
-                                  dsl, atomic, strong, ppPending, ppClosed, 
-                                  ppNotify, ppNC, ppBP, ppDepth, ppAlive, 
-                                  ppHeld, inItems, inClosed, inWaker, pollFn, 
-                                  chuteFn, pwTaken, nextPoll, ppItem, pjLive, 
-                                  ppStage, h, dead, sti, rq, sq, sj, ww, rsq, 
-                                  bown, bwk, bi, bcur, bw, bsp, fj, dq, dj, oq, 
-                                  oop, omode, oj, yq, yop, yclaimed, tq, top, 
-                                  af, wf, wop, sf, sctx, xf, cop, kj, pp, pwk, 
-                                  np, nbp, nres, dp, pf, pctx, pq, pj, pd, nq >>
+                                  dnState, dnWaker, parkTok, barGen, myBar, 
+                                  cdone, rv, rwb, rneed, dsl, atomic, strong, 
+                                  ppPending, ppClosed, ppNotify, ppNC, ppBP, 
+                                  ppDepth, ppAlive, ppHeld, inItems, inClosed, 
+                                  inWaker, pollFn, chuteFn, pwTaken, nextPoll, 
+                                  ppItem, pjLive, ppStage, h, dead, sti, smax, 
+                                  rq, sq, sj, ww, rsq, bown, bwk, bi, bcur, bw, 
+                                  bsp, fj, dq, dj, oq, oop, omode, oj, yq, yop, 
+                                  yclaimed, tq, top, af, wf, wop, sf, sctx, xf, 
+                                  cop, kj, pp, pwk, np, nbp, nres, dp, pf, 
+                                  pctx, pq, pj, pd, nq >>
 
 ro_parked(self) == /\ pc[self] = "ro_parked"
                    /\ parkTok[self]
@@ -4070,16 +4194,17 @@ ro_parked(self) == /\ pc[self] = "ro_parked"
                                    dblTaken, dblW1, dblW2, nextDW, ready, 
                                    cwait, cnotif, cvHeld, sdres, jpanic, sfst, 
                                    slotSt, qrSent, qrWaker, dnState, dnWaker, 
-                                   rv, rwb, rneed, dsl, atomic, strong, 
-                                   ppPending, ppClosed, ppNotify, ppNC, ppBP, 
-                                   ppDepth, ppAlive, ppHeld, inItems, inClosed, 
-                                   inWaker, pollFn, chuteFn, pwTaken, nextPoll, 
-                                   ppItem, pjLive, ppStage, stack, dead, sti, 
-                                   rq, sq, sj, ww, rsq, bown, bwk, bi, bcur, 
-                                   bw, bsp, jq, jj, jwk, fj, dq, dj, oq, oop, 
-                                   omode, oj, yq, yop, yclaimed, tq, top, af, 
-                                   wf, wop, sf, sctx, xf, cop, kj, pp, pwk, np, 
-                                   nbp, nres, dp, pf, pctx, pq, pj, pd, nq >>
+                                   barGen, myBar, cdone, rv, rwb, rneed, dsl, 
+                                   atomic, strong, ppPending, ppClosed, 
+                                   ppNotify, ppNC, ppBP, ppDepth, ppAlive, 
+                                   ppHeld, inItems, inClosed, inWaker, pollFn, 
+                                   chuteFn, pwTaken, nextPoll, ppItem, pjLive, 
+                                   ppStage, stack, dead, sti, smax, rq, sq, sj, 
+                                   ww, rsq, bown, bwk, bi, bcur, bw, bsp, jq, 
+                                   jj, jwk, fj, dq, dj, oq, oop, omode, oj, yq, 
+                                   yop, yclaimed, tq, top, af, wf, wop, sf, 
+                                   sctx, xf, cop, kj, pp, pwk, np, nbp, nres, 
+                                   dp, pf, pctx, pq, pj, pd, nq >>
 
 RunOne(self) == ro_deq(self) \/ z_ro_after(self) \/ z_ro_done(self)
                    \/ z_ro_panic(self) \/ ro_park(self) \/ ro_check(self)
@@ -4133,16 +4258,16 @@ sy_decide(self) == /\ pc[self] = "sy_decide"
                                    dblTaken, dblW1, dblW2, nextDW, ready, 
                                    cwait, cnotif, cvHeld, sdres, jpanic, sfst, 
                                    slotSt, qrSent, qrWaker, dnState, dnWaker, 
-                                   parkTok, rwb, rneed, dsl, atomic, strong, 
-                                   ppPending, ppClosed, ppNotify, ppNC, ppBP, 
-                                   ppDepth, ppAlive, ppHeld, inItems, inClosed, 
-                                   inWaker, pollFn, chuteFn, pwTaken, nextPoll, 
-                                   ppItem, pjLive, ppStage, h, dead, sti, rq, 
-                                   sq, sj, ww, rsq, bown, bwk, bi, bcur, bw, 
-                                   bsp, fj, dq, dj, oq, oop, omode, oj, tq, 
-                                   top, af, wf, wop, sf, sctx, xf, cop, kj, pp, 
-                                   pwk, np, nbp, nres, dp, pf, pctx, pq, pj, 
-                                   pd, nq >>
+                                   parkTok, barGen, myBar, cdone, rwb, rneed, 
+                                   dsl, atomic, strong, ppPending, ppClosed, 
+                                   ppNotify, ppNC, ppBP, ppDepth, ppAlive, 
+                                   ppHeld, inItems, inClosed, inWaker, pollFn, 
+                                   chuteFn, pwTaken, nextPoll, ppItem, pjLive, 
+                                   ppStage, h, dead, sti, smax, rq, sq, sj, ww, 
+                                   rsq, bown, bwk, bi, bcur, bw, bsp, fj, dq, 
+                                   dj, oq, oop, omode, oj, tq, top, af, wf, 
+                                   wop, sf, sctx, xf, cop, kj, pp, pwk, np, 
+                                   nbp, nres, dp, pf, pctx, pq, pj, pd, nq >>
 
 z_si_chk(self) == /\ pc[self] = "z_si_chk"
                   /\ IF rv[self] = 9
@@ -4155,17 +4280,17 @@ z_si_chk(self) == /\ pc[self] = "z_si_chk"
                                   gthreads, gwhist, dwSt, dwW, dblTaken, dblW1, 
                                   dblW2, nextDW, ready, cwait, cnotif, cvHeld, 
                                   sdres, jpanic, sfst, slotSt, qrSent, qrWaker, 
-                                  dnState, dnWaker, parkTok, rv, rwb, rneed, 
-                                  dsl, atomic, strong, ppPending, ppClosed, 
-                                  ppNotify, ppNC, ppBP, ppDepth, ppAlive, 
-                                  ppHeld, inItems, inClosed, inWaker, pollFn, 
-                                  chuteFn, pwTaken, nextPoll, ppItem, pjLive, 
-                                  ppStage, h, stack, dead, sti, rq, sq, sj, ww, 
-                                  rsq, bown, bwk, bi, bcur, bw, bsp, jq, jj, 
-                                  jwk, fj, dq, dj, oq, oop, omode, oj, yq, yop, 
-                                  yclaimed, tq, top, af, wf, wop, sf, sctx, xf, 
-                                  cop, kj, pp, pwk, np, nbp, nres, dp, pf, 
-                                  pctx, pq, pj, pd, nq >>
+                                  dnState, dnWaker, parkTok, barGen, myBar, 
+                                  cdone, rv, rwb, rneed, dsl, atomic, strong, 
+                                  ppPending, ppClosed, ppNotify, ppNC, ppBP, 
+                                  ppDepth, ppAlive, ppHeld, inItems, inClosed, 
+                                  inWaker, pollFn, chuteFn, pwTaken, nextPoll, 
+                                  ppItem, pjLive, ppStage, h, stack, dead, sti, 
+                                  smax, rq, sq, sj, ww, rsq, bown, bwk, bi, 
+                                  bcur, bw, bsp, jq, jj, jwk, fj, dq, dj, oq, 
+                                  oop, omode, oj, yq, yop, yclaimed, tq, top, 
+                                  af, wf, wop, sf, sctx, xf, cop, kj, pp, pwk, 
+                                  np, nbp, nres, dp, pf, pctx, pq, pj, pd, nq >>
 
 si_idle(self) == /\ pc[self] = "si_idle"
                  /\ qstate' = [qstate EXCEPT ![yq[self]] = "Idle"]
@@ -4182,17 +4307,17 @@ si_idle(self) == /\ pc[self] = "si_idle"
                                  gwhist, dwSt, dwW, dblTaken, dblW1, dblW2, 
                                  nextDW, ready, cwait, cnotif, cvHeld, sdres, 
                                  jpanic, sfst, slotSt, qrSent, qrWaker, 
-                                 dnState, dnWaker, parkTok, rv, rwb, rneed, 
-                                 dsl, atomic, strong, ppPending, ppClosed, 
-                                 ppNotify, ppNC, ppBP, ppDepth, ppAlive, 
-                                 ppHeld, inItems, inClosed, inWaker, pollFn, 
-                                 chuteFn, pwTaken, nextPoll, ppItem, pjLive, 
-                                 ppStage, h, dead, sti, sq, sj, ww, rsq, bown, 
-                                 bwk, bi, bcur, bw, bsp, jq, jj, jwk, fj, dq, 
-                                 dj, oq, oop, omode, oj, yq, yop, yclaimed, tq, 
-                                 top, af, wf, wop, sf, sctx, xf, cop, kj, pp, 
-                                 pwk, np, nbp, nres, dp, pf, pctx, pq, pj, pd, 
-                                 nq >>
+                                 dnState, dnWaker, parkTok, barGen, myBar, 
+                                 cdone, rv, rwb, rneed, dsl, atomic, strong, 
+                                 ppPending, ppClosed, ppNotify, ppNC, ppBP, 
+                                 ppDepth, ppAlive, ppHeld, inItems, inClosed, 
+                                 inWaker, pollFn, chuteFn, pwTaken, nextPoll, 
+                                 ppItem, pjLive, ppStage, h, dead, sti, smax, 
+                                 sq, sj, ww, rsq, bown, bwk, bi, bcur, bw, bsp, 
+                                 jq, jj, jwk, fj, dq, dj, oq, oop, omode, oj, 
+                                 yq, yop, yclaimed, tq, top, af, wf, wop, sf, 
+                                 sctx, xf, cop, kj, pp, pwk, np, nbp, nres, dp, 
+                                 pf, pctx, pq, pj, pd, nq >>
 
 z_si_ret(self) == /\ pc[self] = "z_si_ret"
                   /\ IF Unw(yop[self])
@@ -4211,16 +4336,17 @@ z_si_ret(self) == /\ pc[self] = "z_si_ret"
                                   gthreads, gwhist, dwSt, dwW, dblTaken, dblW1, 
                                   dblW2, nextDW, ready, cwait, cnotif, cvHeld, 
                                   sdres, jpanic, sfst, slotSt, qrSent, qrWaker, 
-                                  dnState, dnWaker, parkTok, rwb, rneed, dsl, 
-                                  atomic, strong, ppPending, ppClosed, 
-                                  ppNotify, ppNC, ppBP, ppDepth, ppAlive, 
-                                  ppHeld, inItems, inClosed, inWaker, pollFn, 
-                                  chuteFn, pwTaken, nextPoll, ppItem, pjLive, 
-                                  ppStage, h, dead, sti, rq, sq, sj, ww, rsq, 
-                                  bown, bwk, bi, bcur, bw, bsp, jq, jj, jwk, 
-                                  fj, dq, dj, oq, oop, omode, oj, tq, top, af, 
-                                  wf, wop, sf, sctx, xf, cop, kj, pp, pwk, np, 
-                                  nbp, nres, dp, pf, pctx, pq, pj, pd, nq >>
+                                  dnState, dnWaker, parkTok, barGen, myBar, 
+                                  cdone, rwb, rneed, dsl, atomic, strong, 
+                                  ppPending, ppClosed, ppNotify, ppNC, ppBP, 
+                                  ppDepth, ppAlive, ppHeld, inItems, inClosed, 
+                                  inWaker, pollFn, chuteFn, pwTaken, nextPoll, 
+                                  ppItem, pjLive, ppStage, h, dead, sti, smax, 
+                                  rq, sq, sj, ww, rsq, bown, bwk, bi, bcur, bw, 
+                                  bsp, jq, jj, jwk, fj, dq, dj, oq, oop, omode, 
+                                  oj, tq, top, af, wf, wop, sf, sctx, xf, cop, 
+                                  kj, pp, pwk, np, nbp, nres, dp, pf, pctx, pq, 
+                                  pj, pd, nq >>
 
 sy_unw(self) == /\ pc[self] = "sy_unw"
                 /\ qstate' = [qstate EXCEPT ![yq[self]] = "Panicked"]
@@ -4237,16 +4363,17 @@ sy_unw(self) == /\ pc[self] = "sy_unw"
                                 gwhist, dwSt, dwW, dblTaken, dblW1, dblW2, 
                                 nextDW, ready, cwait, cnotif, cvHeld, sdres, 
                                 jpanic, sfst, slotSt, qrSent, qrWaker, dnState, 
-                                dnWaker, parkTok, rwb, rneed, dsl, atomic, 
-                                strong, ppPending, ppClosed, ppNotify, ppNC, 
-                                ppBP, ppDepth, ppAlive, ppHeld, inItems, 
-                                inClosed, inWaker, pollFn, chuteFn, pwTaken, 
-                                nextPoll, ppItem, pjLive, ppStage, h, dead, 
-                                sti, rq, sq, sj, ww, rsq, bown, bwk, bi, bcur, 
-                                bw, bsp, jq, jj, jwk, fj, dq, dj, oq, oop, 
-                                omode, oj, tq, top, af, wf, wop, sf, sctx, xf, 
-                                cop, kj, pp, pwk, np, nbp, nres, dp, pf, pctx, 
-                                pq, pj, pd, nq >>
+                                dnWaker, parkTok, barGen, myBar, cdone, rwb, 
+                                rneed, dsl, atomic, strong, ppPending, 
+                                ppClosed, ppNotify, ppNC, ppBP, ppDepth, 
+                                ppAlive, ppHeld, inItems, inClosed, inWaker, 
+                                pollFn, chuteFn, pwTaken, nextPoll, ppItem, 
+                                pjLive, ppStage, h, dead, sti, smax, rq, sq, 
+                                sj, ww, rsq, bown, bwk, bi, bcur, bw, bsp, jq, 
+                                jj, jwk, fj, dq, dj, oq, oop, omode, oj, tq, 
+                                top, af, wf, wop, sf, sctx, xf, cop, kj, pp, 
+                                pwk, np, nbp, nres, dp, pf, pctx, pq, pj, pd, 
+                                nq >>
 
 sd_push(self) == /\ pc[self] = "sd_push"
                  /\ jkind' = [jkind EXCEPT ![yop[self]] = "syncdrain"]
@@ -4270,16 +4397,17 @@ sd_push(self) == /\ pc[self] = "sd_push"
                                  gwhist, dwSt, dwW, dblTaken, dblW1, dblW2, 
                                  nextDW, ready, cwait, cnotif, cvHeld, sdres, 
                                  jpanic, sfst, slotSt, qrSent, qrWaker, 
-                                 dnState, dnWaker, parkTok, rv, rwb, rneed, 
-                                 dsl, atomic, strong, ppPending, ppClosed, 
-                                 ppNotify, ppNC, ppBP, ppDepth, ppAlive, 
-                                 ppHeld, inItems, inClosed, inWaker, pollFn, 
-                                 chuteFn, pwTaken, nextPoll, ppItem, pjLive, 
-                                 ppStage, h, dead, sti, rq, sq, sj, ww, rsq, 
-                                 bown, bwk, bi, bcur, bw, bsp, jq, jj, jwk, fj, 
-                                 dq, dj, yq, yop, yclaimed, tq, top, af, wf, 
-                                 wop, sf, sctx, xf, cop, kj, pp, pwk, np, nbp, 
-                                 nres, dp, pf, pctx, pq, pj, pd, nq >>
+                                 dnState, dnWaker, parkTok, barGen, myBar, 
+                                 cdone, rv, rwb, rneed, dsl, atomic, strong, 
+                                 ppPending, ppClosed, ppNotify, ppNC, ppBP, 
+                                 ppDepth, ppAlive, ppHeld, inItems, inClosed, 
+                                 inWaker, pollFn, chuteFn, pwTaken, nextPoll, 
+                                 ppItem, pjLive, ppStage, h, dead, sti, smax, 
+                                 rq, sq, sj, ww, rsq, bown, bwk, bi, bcur, bw, 
+                                 bsp, jq, jj, jwk, fj, dq, dj, yq, yop, 
+                                 yclaimed, tq, top, af, wf, wop, sf, sctx, xf, 
+                                 cop, kj, pp, pwk, np, nbp, nres, dp, pf, pctx, 
+                                 pq, pj, pd, nq >>
 
 z_sd_chk(self) == /\ pc[self] = "z_sd_chk"
                   /\ IF rv[self] = 9
@@ -4292,17 +4420,17 @@ z_sd_chk(self) == /\ pc[self] = "z_sd_chk"
                                   gthreads, gwhist, dwSt, dwW, dblTaken, dblW1, 
                                   dblW2, nextDW, ready, cwait, cnotif, cvHeld, 
                                   sdres, jpanic, sfst, slotSt, qrSent, qrWaker, 
-                                  dnState, dnWaker, parkTok, rv, rwb, rneed, 
-                                  dsl, atomic, strong, ppPending, ppClosed, 
-                                  ppNotify, ppNC, ppBP, ppDepth, ppAlive, 
-                                  ppHeld, inItems, inClosed, inWaker, pollFn, 
-                                  chuteFn, pwTaken, nextPoll, ppItem, pjLive, 
-                                  ppStage, h, stack, dead, sti, rq, sq, sj, ww, 
-                                  rsq, bown, bwk, bi, bcur, bw, bsp, jq, jj, 
-                                  jwk, fj, dq, dj, oq, oop, omode, oj, yq, yop, 
-                                  yclaimed, tq, top, af, wf, wop, sf, sctx, xf, 
-                                  cop, kj, pp, pwk, np, nbp, nres, dp, pf, 
-                                  pctx, pq, pj, pd, nq >>
+                                  dnState, dnWaker, parkTok, barGen, myBar, 
+                                  cdone, rv, rwb, rneed, dsl, atomic, strong, 
+                                  ppPending, ppClosed, ppNotify, ppNC, ppBP, 
+                                  ppDepth, ppAlive, ppHeld, inItems, inClosed, 
+                                  inWaker, pollFn, chuteFn, pwTaken, nextPoll, 
+                                  ppItem, pjLive, ppStage, h, stack, dead, sti, 
+                                  smax, rq, sq, sj, ww, rsq, bown, bwk, bi, 
+                                  bcur, bw, bsp, jq, jj, jwk, fj, dq, dj, oq, 
+                                  oop, omode, oj, yq, yop, yclaimed, tq, top, 
+                                  af, wf, wop, sf, sctx, xf, cop, kj, pp, pwk, 
+                                  np, nbp, nres, dp, pf, pctx, pq, pj, pd, nq >>
 
 sd_idle(self) == /\ pc[self] = "sd_idle"
                  /\ qstate' = [qstate EXCEPT ![yq[self]] = "Idle"]
@@ -4319,17 +4447,17 @@ sd_idle(self) == /\ pc[self] = "sd_idle"
                                  gwhist, dwSt, dwW, dblTaken, dblW1, dblW2, 
                                  nextDW, ready, cwait, cnotif, cvHeld, sdres, 
                                  jpanic, sfst, slotSt, qrSent, qrWaker, 
-                                 dnState, dnWaker, parkTok, rv, rwb, rneed, 
-                                 dsl, atomic, strong, ppPending, ppClosed, 
-                                 ppNotify, ppNC, ppBP, ppDepth, ppAlive, 
-                                 ppHeld, inItems, inClosed, inWaker, pollFn, 
-                                 chuteFn, pwTaken, nextPoll, ppItem, pjLive, 
-                                 ppStage, h, dead, sti, sq, sj, ww, rsq, bown, 
-                                 bwk, bi, bcur, bw, bsp, jq, jj, jwk, fj, dq, 
-                                 dj, oq, oop, omode, oj, yq, yop, yclaimed, tq, 
-                                 top, af, wf, wop, sf, sctx, xf, cop, kj, pp, 
-                                 pwk, np, nbp, nres, dp, pf, pctx, pq, pj, pd, 
-                                 nq >>
+                                 dnState, dnWaker, parkTok, barGen, myBar, 
+                                 cdone, rv, rwb, rneed, dsl, atomic, strong, 
+                                 ppPending, ppClosed, ppNotify, ppNC, ppBP, 
+                                 ppDepth, ppAlive, ppHeld, inItems, inClosed, 
+                                 inWaker, pollFn, chuteFn, pwTaken, nextPoll, 
+                                 ppItem, pjLive, ppStage, h, dead, sti, smax, 
+                                 sq, sj, ww, rsq, bown, bwk, bi, bcur, bw, bsp, 
+                                 jq, jj, jwk, fj, dq, dj, oq, oop, omode, oj, 
+                                 yq, yop, yclaimed, tq, top, af, wf, wop, sf, 
+                                 sctx, xf, cop, kj, pp, pwk, np, nbp, nres, dp, 
+                                 pf, pctx, pq, pj, pd, nq >>
 
 sb_reg(self) == /\ pc[self] = "sb_reg"
                 /\ wakeBlocked' = [wakeBlocked EXCEPT ![yq[self]] = Append(wakeBlocked[yq[self]], yop[self])]
@@ -4342,16 +4470,17 @@ sb_reg(self) == /\ pc[self] = "sb_reg"
                                 gwhist, dwSt, dwW, dblTaken, dblW1, dblW2, 
                                 nextDW, ready, cwait, cnotif, sdres, jpanic, 
                                 sfst, slotSt, qrSent, qrWaker, dnState, 
-                                dnWaker, parkTok, rv, rwb, rneed, dsl, atomic, 
-                                strong, ppPending, ppClosed, ppNotify, ppNC, 
-                                ppBP, ppDepth, ppAlive, ppHeld, inItems, 
-                                inClosed, inWaker, pollFn, chuteFn, pwTaken, 
-                                nextPoll, ppItem, pjLive, ppStage, h, stack, 
-                                dead, sti, rq, sq, sj, ww, rsq, bown, bwk, bi, 
-                                bcur, bw, bsp, jq, jj, jwk, fj, dq, dj, oq, 
-                                oop, omode, oj, yq, yop, yclaimed, tq, top, af, 
-                                wf, wop, sf, sctx, xf, cop, kj, pp, pwk, np, 
-                                nbp, nres, dp, pf, pctx, pq, pj, pd, nq >>
+                                dnWaker, parkTok, barGen, myBar, cdone, rv, 
+                                rwb, rneed, dsl, atomic, strong, ppPending, 
+                                ppClosed, ppNotify, ppNC, ppBP, ppDepth, 
+                                ppAlive, ppHeld, inItems, inClosed, inWaker, 
+                                pollFn, chuteFn, pwTaken, nextPoll, ppItem, 
+                                pjLive, ppStage, h, stack, dead, sti, smax, rq, 
+                                sq, sj, ww, rsq, bown, bwk, bi, bcur, bw, bsp, 
+                                jq, jj, jwk, fj, dq, dj, oq, oop, omode, oj, 
+                                yq, yop, yclaimed, tq, top, af, wf, wop, sf, 
+                                sctx, xf, cop, kj, pp, pwk, np, nbp, nres, dp, 
+                                pf, pctx, pq, pj, pd, nq >>
 
 sb_push(self) == /\ pc[self] = "sb_push"
                  /\ jkind' = [jkind EXCEPT ![yop[self]] = "syncbg"]
@@ -4372,17 +4501,17 @@ sb_push(self) == /\ pc[self] = "sb_push"
                                  gwhist, dwSt, dwW, dblTaken, dblW1, dblW2, 
                                  nextDW, ready, cwait, cnotif, cvHeld, sdres, 
                                  jpanic, sfst, slotSt, qrSent, qrWaker, 
-                                 dnState, dnWaker, parkTok, rv, rwb, rneed, 
-                                 dsl, atomic, strong, ppPending, ppClosed, 
-                                 ppNotify, ppNC, ppBP, ppDepth, ppAlive, 
-                                 ppHeld, inItems, inClosed, inWaker, pollFn, 
-                                 chuteFn, pwTaken, nextPoll, ppItem, pjLive, 
-                                 ppStage, h, dead, sti, sq, sj, ww, rsq, bown, 
-                                 bwk, bi, bcur, bw, bsp, jq, jj, jwk, fj, dq, 
-                                 dj, oq, oop, omode, oj, yq, yop, yclaimed, tq, 
-                                 top, af, wf, wop, sf, sctx, xf, cop, kj, pp, 
-                                 pwk, np, nbp, nres, dp, pf, pctx, pq, pj, pd, 
-                                 nq >>
+                                 dnState, dnWaker, parkTok, barGen, myBar, 
+                                 cdone, rv, rwb, rneed, dsl, atomic, strong, 
+                                 ppPending, ppClosed, ppNotify, ppNC, ppBP, 
+                                 ppDepth, ppAlive, ppHeld, inItems, inClosed, 
+                                 inWaker, pollFn, chuteFn, pwTaken, nextPoll, 
+                                 ppItem, pjLive, ppStage, h, dead, sti, smax, 
+                                 sq, sj, ww, rsq, bown, bwk, bi, bcur, bw, bsp, 
+                                 jq, jj, jwk, fj, dq, dj, oq, oop, omode, oj, 
+                                 yq, yop, yclaimed, tq, top, af, wf, wop, sf, 
+                                 sctx, xf, cop, kj, pp, pwk, np, nbp, nres, dp, 
+                                 pf, pctx, pq, pj, pd, nq >>
 
 sb_lock(self) == /\ pc[self] = "sb_lock"
                  /\ IF yclaimed[self] /\ Unw(yop[self])
@@ -4398,17 +4527,17 @@ sb_lock(self) == /\ pc[self] = "sb_lock"
                                  gwhist, dwSt, dwW, dblTaken, dblW1, dblW2, 
                                  nextDW, ready, cwait, cnotif, cvHeld, sdres, 
                                  jpanic, sfst, slotSt, qrSent, qrWaker, 
-                                 dnState, dnWaker, parkTok, rv, rwb, rneed, 
-                                 dsl, atomic, strong, ppPending, ppClosed, 
-                                 ppNotify, ppNC, ppBP, ppDepth, ppAlive, 
-                                 ppHeld, inItems, inClosed, inWaker, pollFn, 
-                                 chuteFn, pwTaken, nextPoll, ppItem, pjLive, 
-                                 ppStage, h, stack, dead, sti, rq, sq, sj, ww, 
-                                 rsq, bown, bwk, bi, bcur, bw, bsp, jq, jj, 
-                                 jwk, fj, dq, dj, oq, oop, omode, oj, yq, yop, 
-                                 tq, top, af, wf, wop, sf, sctx, xf, cop, kj, 
-                                 pp, pwk, np, nbp, nres, dp, pf, pctx, pq, pj, 
-                                 pd, nq >>
+                                 dnState, dnWaker, parkTok, barGen, myBar, 
+                                 cdone, rv, rwb, rneed, dsl, atomic, strong, 
+                                 ppPending, ppClosed, ppNotify, ppNC, ppBP, 
+                                 ppDepth, ppAlive, ppHeld, inItems, inClosed, 
+                                 inWaker, pollFn, chuteFn, pwTaken, nextPoll, 
+                                 ppItem, pjLive, ppStage, h, stack, dead, sti, 
+                                 smax, rq, sq, sj, ww, rsq, bown, bwk, bi, 
+                                 bcur, bw, bsp, jq, jj, jwk, fj, dq, dj, oq, 
+                                 oop, omode, oj, yq, yop, tq, top, af, wf, wop, 
+                                 sf, sctx, xf, cop, kj, pp, pwk, np, nbp, nres, 
+                                 dp, pf, pctx, pq, pj, pd, nq >>
 
 z_sb_lock2(self) == /\ pc[self] = "z_sb_lock2"
                     /\ IF ready[yop[self]]
@@ -4435,17 +4564,18 @@ z_sb_lock2(self) == /\ pc[self] = "z_sb_lock2"
                                     gthreads, gwhist, dwSt, dwW, dblTaken, 
                                     dblW1, dblW2, nextDW, ready, sdres, jpanic, 
                                     sfst, slotSt, qrSent, qrWaker, dnState, 
-                                    dnWaker, parkTok, rv, rwb, rneed, dsl, 
-                                    atomic, strong, ppPending, ppClosed, 
-                                    ppNotify, ppNC, ppBP, ppDepth, ppAlive, 
-                                    ppHeld, inItems, inClosed, inWaker, pollFn, 
-                                    chuteFn, pwTaken, nextPoll, ppItem, pjLive, 
-                                    ppStage, h, stack, dead, sti, rq, sq, sj, 
-                                    ww, rsq, bown, bwk, bi, bcur, bw, bsp, jq, 
-                                    jj, jwk, fj, dq, dj, oq, oop, omode, oj, 
-                                    yq, yop, tq, top, af, wf, wop, sf, sctx, 
-                                    xf, cop, kj, pp, pwk, np, nbp, nres, dp, 
-                                    pf, pctx, pq, pj, pd, nq >>
+                                    dnWaker, parkTok, barGen, myBar, cdone, rv, 
+                                    rwb, rneed, dsl, atomic, strong, ppPending, 
+                                    ppClosed, ppNotify, ppNC, ppBP, ppDepth, 
+                                    ppAlive, ppHeld, inItems, inClosed, 
+                                    inWaker, pollFn, chuteFn, pwTaken, 
+                                    nextPoll, ppItem, pjLive, ppStage, h, 
+                                    stack, dead, sti, smax, rq, sq, sj, ww, 
+                                    rsq, bown, bwk, bi, bcur, bw, bsp, jq, jj, 
+                                    jwk, fj, dq, dj, oq, oop, omode, oj, yq, 
+                                    yop, tq, top, af, wf, wop, sf, sctx, xf, 
+                                    cop, kj, pp, pwk, np, nbp, nres, dp, pf, 
+                                    pctx, pq, pj, pd, nq >>
 
 sb_claim(self) == /\ pc[self] = "sb_claim"
                   /\ IF qstate[yq[self]] \in {"Pending", "Idle"}
@@ -4462,17 +4592,17 @@ sb_claim(self) == /\ pc[self] = "sb_claim"
                                   dwSt, dwW, dblTaken, dblW1, dblW2, nextDW, 
                                   ready, cwait, cnotif, cvHeld, sdres, jpanic, 
                                   sfst, slotSt, qrSent, qrWaker, dnState, 
-                                  dnWaker, parkTok, rv, rwb, rneed, dsl, 
-                                  atomic, strong, ppPending, ppClosed, 
-                                  ppNotify, ppNC, ppBP, ppDepth, ppAlive, 
-                                  ppHeld, inItems, inClosed, inWaker, pollFn, 
-                                  chuteFn, pwTaken, nextPoll, ppItem, pjLive, 
-                                  ppStage, h, stack, dead, sti, rq, sq, sj, ww, 
-                                  rsq, bown, bwk, bi, bcur, bw, bsp, jq, jj, 
-                                  jwk, fj, dq, dj, oq, oop, omode, oj, yq, yop, 
-                                  tq, top, af, wf, wop, sf, sctx, xf, cop, kj, 
-                                  pp, pwk, np, nbp, nres, dp, pf, pctx, pq, pj, 
-                                  pd, nq >>
+                                  dnWaker, parkTok, barGen, myBar, cdone, rv, 
+                                  rwb, rneed, dsl, atomic, strong, ppPending, 
+                                  ppClosed, ppNotify, ppNC, ppBP, ppDepth, 
+                                  ppAlive, ppHeld, inItems, inClosed, inWaker, 
+                                  pollFn, chuteFn, pwTaken, nextPoll, ppItem, 
+                                  pjLive, ppStage, h, stack, dead, sti, smax, 
+                                  rq, sq, sj, ww, rsq, bown, bwk, bi, bcur, bw, 
+                                  bsp, jq, jj, jwk, fj, dq, dj, oq, oop, omode, 
+                                  oj, yq, yop, tq, top, af, wf, wop, sf, sctx, 
+                                  xf, cop, kj, pp, pwk, np, nbp, nres, dp, pf, 
+                                  pctx, pq, pj, pd, nq >>
 
 sb_chk(self) == /\ pc[self] = "sb_chk"
                 /\ IF ~ready[yop[self]]
@@ -4497,13 +4627,14 @@ sb_chk(self) == /\ pc[self] = "sb_chk"
                                 gthreads, gwhist, dwSt, dwW, dblTaken, dblW1, 
                                 dblW2, nextDW, ready, cwait, cnotif, cvHeld, 
                                 sdres, jpanic, sfst, slotSt, qrSent, qrWaker, 
-                                dnState, dnWaker, parkTok, rv, rwb, rneed, dsl, 
-                                atomic, strong, ppPending, ppClosed, ppNotify, 
-                                ppNC, ppBP, ppDepth, ppAlive, ppHeld, inItems, 
-                                inClosed, inWaker, pollFn, chuteFn, pwTaken, 
-                                nextPoll, ppItem, pjLive, ppStage, h, dead, 
-                                sti, rq, sq, sj, ww, rsq, bown, bwk, bi, bcur, 
-                                bw, bsp, jq, jj, jwk, fj, dq, dj, yq, yop, 
+                                dnState, dnWaker, parkTok, barGen, myBar, 
+                                cdone, rv, rwb, rneed, dsl, atomic, strong, 
+                                ppPending, ppClosed, ppNotify, ppNC, ppBP, 
+                                ppDepth, ppAlive, ppHeld, inItems, inClosed, 
+                                inWaker, pollFn, chuteFn, pwTaken, nextPoll, 
+                                ppItem, pjLive, ppStage, h, dead, sti, smax, 
+                                rq, sq, sj, ww, rsq, bown, bwk, bi, bcur, bw, 
+                                bsp, jq, jj, jwk, fj, dq, dj, yq, yop, 
                                 yclaimed, tq, top, af, wf, wop, sf, sctx, xf, 
                                 cop, kj, pp, pwk, np, nbp, nres, dp, pf, pctx, 
                                 pq, pj, pd, nq >>
@@ -4523,17 +4654,17 @@ sb_idle(self) == /\ pc[self] = "sb_idle"
                                  gwhist, dwSt, dwW, dblTaken, dblW1, dblW2, 
                                  nextDW, ready, cwait, cnotif, cvHeld, sdres, 
                                  jpanic, sfst, slotSt, qrSent, qrWaker, 
-                                 dnState, dnWaker, parkTok, rv, rwb, rneed, 
-                                 dsl, atomic, strong, ppPending, ppClosed, 
-                                 ppNotify, ppNC, ppBP, ppDepth, ppAlive, 
-                                 ppHeld, inItems, inClosed, inWaker, pollFn, 
-                                 chuteFn, pwTaken, nextPoll, ppItem, pjLive, 
-                                 ppStage, h, dead, sti, sq, sj, ww, rsq, bown, 
-                                 bwk, bi, bcur, bw, bsp, jq, jj, jwk, fj, dq, 
-                                 dj, oq, oop, omode, oj, yq, yop, yclaimed, tq, 
-                                 top, af, wf, wop, sf, sctx, xf, cop, kj, pp, 
-                                 pwk, np, nbp, nres, dp, pf, pctx, pq, pj, pd, 
-                                 nq >>
+                                 dnState, dnWaker, parkTok, barGen, myBar, 
+                                 cdone, rv, rwb, rneed, dsl, atomic, strong, 
+                                 ppPending, ppClosed, ppNotify, ppNC, ppBP, 
+                                 ppDepth, ppAlive, ppHeld, inItems, inClosed, 
+                                 inWaker, pollFn, chuteFn, pwTaken, nextPoll, 
+                                 ppItem, pjLive, ppStage, h, dead, sti, smax, 
+                                 sq, sj, ww, rsq, bown, bwk, bi, bcur, bw, bsp, 
+                                 jq, jj, jwk, fj, dq, dj, oq, oop, omode, oj, 
+                                 yq, yop, yclaimed, tq, top, af, wf, wop, sf, 
+                                 sctx, xf, cop, kj, pp, pwk, np, nbp, nres, dp, 
+                                 pf, pctx, pq, pj, pd, nq >>
 
 z_sb_chk(self) == /\ pc[self] = "z_sb_chk"
                   /\ IF rv[self] = 9
@@ -4558,16 +4689,17 @@ z_sb_chk(self) == /\ pc[self] = "z_sb_chk"
                                   gthreads, gwhist, dwSt, dwW, dblTaken, dblW1, 
                                   dblW2, nextDW, ready, cwait, cnotif, sdres, 
                                   jpanic, sfst, slotSt, qrSent, qrWaker, 
-                                  dnState, dnWaker, parkTok, rwb, rneed, dsl, 
-                                  atomic, strong, ppPending, ppClosed, 
-                                  ppNotify, ppNC, ppBP, ppDepth, ppAlive, 
-                                  ppHeld, inItems, inClosed, inWaker, pollFn, 
-                                  chuteFn, pwTaken, nextPoll, ppItem, pjLive, 
-                                  ppStage, h, dead, sti, rq, sq, sj, ww, rsq, 
-                                  bown, bwk, bi, bcur, bw, bsp, jq, jj, jwk, 
-                                  fj, dq, dj, oq, oop, omode, oj, tq, top, af, 
-                                  wf, wop, sf, sctx, xf, cop, kj, pp, pwk, np, 
-                                  nbp, nres, dp, pf, pctx, pq, pj, pd, nq >>
+                                  dnState, dnWaker, parkTok, barGen, myBar, 
+                                  cdone, rwb, rneed, dsl, atomic, strong, 
+                                  ppPending, ppClosed, ppNotify, ppNC, ppBP, 
+                                  ppDepth, ppAlive, ppHeld, inItems, inClosed, 
+                                  inWaker, pollFn, chuteFn, pwTaken, nextPoll, 
+                                  ppItem, pjLive, ppStage, h, dead, sti, smax, 
+                                  rq, sq, sj, ww, rsq, bown, bwk, bi, bcur, bw, 
+                                  bsp, jq, jj, jwk, fj, dq, dj, oq, oop, omode, 
+                                  oj, tq, top, af, wf, wop, sf, sctx, xf, cop, 
+                                  kj, pp, pwk, np, nbp, nres, dp, pf, pctx, pq, 
+                                  pj, pd, nq >>
 
 sb_wait(self) == /\ pc[self] = "sb_wait"
                  /\ cnotif[yop[self]]
@@ -4604,17 +4736,17 @@ sb_wait(self) == /\ pc[self] = "sb_wait"
                                  fwaker, gfired, gwaker, gthreads, gwhist, 
                                  dwSt, dwW, dblTaken, dblW1, dblW2, nextDW, 
                                  ready, sdres, jpanic, sfst, slotSt, qrSent, 
-                                 qrWaker, dnState, dnWaker, parkTok, rv, rwb, 
-                                 rneed, dsl, atomic, strong, ppPending, 
-                                 ppClosed, ppNotify, ppNC, ppBP, ppDepth, 
-                                 ppAlive, ppHeld, inItems, inClosed, inWaker, 
-                                 pollFn, chuteFn, pwTaken, nextPoll, ppItem, 
-                                 pjLive, ppStage, stack, dead, sti, rq, sq, sj, 
-                                 ww, rsq, bown, bwk, bi, bcur, bw, bsp, jq, jj, 
-                                 jwk, fj, dq, dj, oq, oop, omode, oj, yq, yop, 
-                                 tq, top, af, wf, wop, sf, sctx, xf, cop, kj, 
-                                 pp, pwk, np, nbp, nres, dp, pf, pctx, pq, pj, 
-                                 pd, nq >>
+                                 qrWaker, dnState, dnWaker, parkTok, barGen, 
+                                 myBar, cdone, rv, rwb, rneed, dsl, atomic, 
+                                 strong, ppPending, ppClosed, ppNotify, ppNC, 
+                                 ppBP, ppDepth, ppAlive, ppHeld, inItems, 
+                                 inClosed, inWaker, pollFn, chuteFn, pwTaken, 
+                                 nextPoll, ppItem, pjLive, ppStage, stack, 
+                                 dead, sti, smax, rq, sq, sj, ww, rsq, bown, 
+                                 bwk, bi, bcur, bw, bsp, jq, jj, jwk, fj, dq, 
+                                 dj, oq, oop, omode, oj, yq, yop, tq, top, af, 
+                                 wf, wop, sf, sctx, xf, cop, kj, pp, pwk, np, 
+                                 nbp, nres, dp, pf, pctx, pq, pj, pd, nq >>
 
 sb_fin(self) == /\ pc[self] = "sb_fin"
                 /\ wakeBlocked' = [wakeBlocked EXCEPT ![yq[self]] = SelectSeq(wakeBlocked[yq[self]], LAMBDA x : (x # yop[self] /\ CvAlive(x)) \/ (x = yop[self] /\ \E t \in Procs : yop[self] \in SeqSet(rwb[t])))]
@@ -4631,16 +4763,17 @@ sb_fin(self) == /\ pc[self] = "sb_fin"
                                 gwhist, dwSt, dwW, dblTaken, dblW1, dblW2, 
                                 nextDW, ready, cwait, cnotif, cvHeld, sdres, 
                                 jpanic, sfst, slotSt, qrSent, qrWaker, dnState, 
-                                dnWaker, parkTok, rwb, rneed, dsl, atomic, 
-                                strong, ppPending, ppClosed, ppNotify, ppNC, 
-                                ppBP, ppDepth, ppAlive, ppHeld, inItems, 
-                                inClosed, inWaker, pollFn, chuteFn, pwTaken, 
-                                nextPoll, ppItem, pjLive, ppStage, h, dead, 
-                                sti, rq, sq, sj, ww, rsq, bown, bwk, bi, bcur, 
-                                bw, bsp, jq, jj, jwk, fj, dq, dj, oq, oop, 
-                                omode, oj, tq, top, af, wf, wop, sf, sctx, xf, 
-                                cop, kj, pp, pwk, np, nbp, nres, dp, pf, pctx, 
-                                pq, pj, pd, nq >>
+                                dnWaker, parkTok, barGen, myBar, cdone, rwb, 
+                                rneed, dsl, atomic, strong, ppPending, 
+                                ppClosed, ppNotify, ppNC, ppBP, ppDepth, 
+                                ppAlive, ppHeld, inItems, inClosed, inWaker, 
+                                pollFn, chuteFn, pwTaken, nextPoll, ppItem, 
+                                pjLive, ppStage, h, dead, sti, smax, rq, sq, 
+                                sj, ww, rsq, bown, bwk, bi, bcur, bw, bsp, jq, 
+                                jj, jwk, fj, dq, dj, oq, oop, omode, oj, tq, 
+                                top, af, wf, wop, sf, sctx, xf, cop, kj, pp, 
+                                pwk, np, nbp, nres, dp, pf, pctx, pq, pj, pd, 
+                                nq >>
 
 sy_panic(self) == /\ pc[self] = "sy_panic"
                   /\ qstate' = [qstate EXCEPT ![yq[self]] = "Panicked"]
@@ -4657,16 +4790,17 @@ sy_panic(self) == /\ pc[self] = "sy_panic"
                                   gwhist, dwSt, dwW, dblTaken, dblW1, dblW2, 
                                   nextDW, ready, cwait, cnotif, cvHeld, sdres, 
                                   jpanic, sfst, slotSt, qrSent, qrWaker, 
-                                  dnState, dnWaker, parkTok, rwb, rneed, dsl, 
-                                  atomic, strong, ppPending, ppClosed, 
-                                  ppNotify, ppNC, ppBP, ppDepth, ppAlive, 
-                                  ppHeld, inItems, inClosed, inWaker, pollFn, 
-                                  chuteFn, pwTaken, nextPoll, ppItem, pjLive, 
-                                  ppStage, h, dead, sti, rq, sq, sj, ww, rsq, 
-                                  bown, bwk, bi, bcur, bw, bsp, jq, jj, jwk, 
-                                  fj, dq, dj, oq, oop, omode, oj, tq, top, af, 
-                                  wf, wop, sf, sctx, xf, cop, kj, pp, pwk, np, 
-                                  nbp, nres, dp, pf, pctx, pq, pj, pd, nq >>
+                                  dnState, dnWaker, parkTok, barGen, myBar, 
+                                  cdone, rwb, rneed, dsl, atomic, strong, 
+                                  ppPending, ppClosed, ppNotify, ppNC, ppBP, 
+                                  ppDepth, ppAlive, ppHeld, inItems, inClosed, 
+                                  inWaker, pollFn, chuteFn, pwTaken, nextPoll, 
+                                  ppItem, pjLive, ppStage, h, dead, sti, smax, 
+                                  rq, sq, sj, ww, rsq, bown, bwk, bi, bcur, bw, 
+                                  bsp, jq, jj, jwk, fj, dq, dj, oq, oop, omode, 
+                                  oj, tq, top, af, wf, wop, sf, sctx, xf, cop, 
+                                  kj, pp, pwk, np, nbp, nres, dp, pf, pctx, pq, 
+                                  pj, pd, nq >>
 
 Sync(self) == sy_decide(self) \/ z_si_chk(self) \/ si_idle(self)
                  \/ z_si_ret(self) \/ sy_unw(self) \/ sd_push(self)
@@ -4722,16 +4856,16 @@ ts_decide(self) == /\ pc[self] = "ts_decide"
                                    dblTaken, dblW1, dblW2, nextDW, ready, 
                                    cwait, cnotif, cvHeld, sdres, jpanic, sfst, 
                                    slotSt, qrSent, qrWaker, dnState, dnWaker, 
-                                   parkTok, rwb, rneed, dsl, atomic, strong, 
-                                   ppPending, ppClosed, ppNotify, ppNC, ppBP, 
-                                   ppDepth, ppAlive, ppHeld, inItems, inClosed, 
-                                   inWaker, pollFn, chuteFn, pwTaken, nextPoll, 
-                                   ppItem, pjLive, ppStage, h, dead, sti, rq, 
-                                   sq, sj, ww, rsq, bown, bwk, bi, bcur, bw, 
-                                   bsp, fj, dq, dj, oq, oop, omode, oj, yq, 
-                                   yop, yclaimed, af, wf, wop, sf, sctx, xf, 
-                                   cop, kj, pp, pwk, np, nbp, nres, dp, pf, 
-                                   pctx, pq, pj, pd, nq >>
+                                   parkTok, barGen, myBar, cdone, rwb, rneed, 
+                                   dsl, atomic, strong, ppPending, ppClosed, 
+                                   ppNotify, ppNC, ppBP, ppDepth, ppAlive, 
+                                   ppHeld, inItems, inClosed, inWaker, pollFn, 
+                                   chuteFn, pwTaken, nextPoll, ppItem, pjLive, 
+                                   ppStage, h, dead, sti, smax, rq, sq, sj, ww, 
+                                   rsq, bown, bwk, bi, bcur, bw, bsp, fj, dq, 
+                                   dj, oq, oop, omode, oj, yq, yop, yclaimed, 
+                                   af, wf, wop, sf, sctx, xf, cop, kj, pp, pwk, 
+                                   np, nbp, nres, dp, pf, pctx, pq, pj, pd, nq >>
 
 z_ts_chk(self) == /\ pc[self] = "z_ts_chk"
                   /\ IF rv[self] = 9
@@ -4744,17 +4878,17 @@ z_ts_chk(self) == /\ pc[self] = "z_ts_chk"
                                   gthreads, gwhist, dwSt, dwW, dblTaken, dblW1, 
                                   dblW2, nextDW, ready, cwait, cnotif, cvHeld, 
                                   sdres, jpanic, sfst, slotSt, qrSent, qrWaker, 
-                                  dnState, dnWaker, parkTok, rv, rwb, rneed, 
-                                  dsl, atomic, strong, ppPending, ppClosed, 
-                                  ppNotify, ppNC, ppBP, ppDepth, ppAlive, 
-                                  ppHeld, inItems, inClosed, inWaker, pollFn, 
-                                  chuteFn, pwTaken, nextPoll, ppItem, pjLive, 
-                                  ppStage, h, stack, dead, sti, rq, sq, sj, ww, 
-                                  rsq, bown, bwk, bi, bcur, bw, bsp, jq, jj, 
-                                  jwk, fj, dq, dj, oq, oop, omode, oj, yq, yop, 
-                                  yclaimed, tq, top, af, wf, wop, sf, sctx, xf, 
-                                  cop, kj, pp, pwk, np, nbp, nres, dp, pf, 
-                                  pctx, pq, pj, pd, nq >>
+                                  dnState, dnWaker, parkTok, barGen, myBar, 
+                                  cdone, rv, rwb, rneed, dsl, atomic, strong, 
+                                  ppPending, ppClosed, ppNotify, ppNC, ppBP, 
+                                  ppDepth, ppAlive, ppHeld, inItems, inClosed, 
+                                  inWaker, pollFn, chuteFn, pwTaken, nextPoll, 
+                                  ppItem, pjLive, ppStage, h, stack, dead, sti, 
+                                  smax, rq, sq, sj, ww, rsq, bown, bwk, bi, 
+                                  bcur, bw, bsp, jq, jj, jwk, fj, dq, dj, oq, 
+                                  oop, omode, oj, yq, yop, yclaimed, tq, top, 
+                                  af, wf, wop, sf, sctx, xf, cop, kj, pp, pwk, 
+                                  np, nbp, nres, dp, pf, pctx, pq, pj, pd, nq >>
 
 ts_idle(self) == /\ pc[self] = "ts_idle"
                  /\ qstate' = [qstate EXCEPT ![tq[self]] = "Idle"]
@@ -4771,17 +4905,17 @@ ts_idle(self) == /\ pc[self] = "ts_idle"
                                  gwhist, dwSt, dwW, dblTaken, dblW1, dblW2, 
                                  nextDW, ready, cwait, cnotif, cvHeld, sdres, 
                                  jpanic, sfst, slotSt, qrSent, qrWaker, 
-                                 dnState, dnWaker, parkTok, rv, rwb, rneed, 
-                                 dsl, atomic, strong, ppPending, ppClosed, 
-                                 ppNotify, ppNC, ppBP, ppDepth, ppAlive, 
-                                 ppHeld, inItems, inClosed, inWaker, pollFn, 
-                                 chuteFn, pwTaken, nextPoll, ppItem, pjLive, 
-                                 ppStage, h, dead, sti, sq, sj, ww, rsq, bown, 
-                                 bwk, bi, bcur, bw, bsp, jq, jj, jwk, fj, dq, 
-                                 dj, oq, oop, omode, oj, yq, yop, yclaimed, tq, 
-                                 top, af, wf, wop, sf, sctx, xf, cop, kj, pp, 
-                                 pwk, np, nbp, nres, dp, pf, pctx, pq, pj, pd, 
-                                 nq >>
+                                 dnState, dnWaker, parkTok, barGen, myBar, 
+                                 cdone, rv, rwb, rneed, dsl, atomic, strong, 
+                                 ppPending, ppClosed, ppNotify, ppNC, ppBP, 
+                                 ppDepth, ppAlive, ppHeld, inItems, inClosed, 
+                                 inWaker, pollFn, chuteFn, pwTaken, nextPoll, 
+                                 ppItem, pjLive, ppStage, h, dead, sti, smax, 
+                                 sq, sj, ww, rsq, bown, bwk, bi, bcur, bw, bsp, 
+                                 jq, jj, jwk, fj, dq, dj, oq, oop, omode, oj, 
+                                 yq, yop, yclaimed, tq, top, af, wf, wop, sf, 
+                                 sctx, xf, cop, kj, pp, pwk, np, nbp, nres, dp, 
+                                 pf, pctx, pq, pj, pd, nq >>
 
 z_ts_ret(self) == /\ pc[self] = "z_ts_ret"
                   /\ rv' = [rv EXCEPT ![self] = 0]
@@ -4796,17 +4930,17 @@ z_ts_ret(self) == /\ pc[self] = "z_ts_ret"
                                   gthreads, gwhist, dwSt, dwW, dblTaken, dblW1, 
                                   dblW2, nextDW, ready, cwait, cnotif, cvHeld, 
                                   sdres, jpanic, sfst, slotSt, qrSent, qrWaker, 
-                                  dnState, dnWaker, parkTok, rwb, rneed, dsl, 
-                                  atomic, strong, ppPending, ppClosed, 
-                                  ppNotify, ppNC, ppBP, ppDepth, ppAlive, 
-                                  ppHeld, inItems, inClosed, inWaker, pollFn, 
-                                  chuteFn, pwTaken, nextPoll, ppItem, pjLive, 
-                                  ppStage, h, dead, sti, rq, sq, sj, ww, rsq, 
-                                  bown, bwk, bi, bcur, bw, bsp, jq, jj, jwk, 
-                                  fj, dq, dj, oq, oop, omode, oj, yq, yop, 
-                                  yclaimed, af, wf, wop, sf, sctx, xf, cop, kj, 
-                                  pp, pwk, np, nbp, nres, dp, pf, pctx, pq, pj, 
-                                  pd, nq >>
+                                  dnState, dnWaker, parkTok, barGen, myBar, 
+                                  cdone, rwb, rneed, dsl, atomic, strong, 
+                                  ppPending, ppClosed, ppNotify, ppNC, ppBP, 
+                                  ppDepth, ppAlive, ppHeld, inItems, inClosed, 
+                                  inWaker, pollFn, chuteFn, pwTaken, nextPoll, 
+                                  ppItem, pjLive, ppStage, h, dead, sti, smax, 
+                                  rq, sq, sj, ww, rsq, bown, bwk, bi, bcur, bw, 
+                                  bsp, jq, jj, jwk, fj, dq, dj, oq, oop, omode, 
+                                  oj, yq, yop, yclaimed, af, wf, wop, sf, sctx, 
+                                  xf, cop, kj, pp, pwk, np, nbp, nres, dp, pf, 
+                                  pctx, pq, pj, pd, nq >>
 
 ts_panic(self) == /\ pc[self] = "ts_panic"
                   /\ qstate' = [qstate EXCEPT ![tq[self]] = "Panicked"]
@@ -4822,17 +4956,17 @@ ts_panic(self) == /\ pc[self] = "ts_panic"
                                   gwhist, dwSt, dwW, dblTaken, dblW1, dblW2, 
                                   nextDW, ready, cwait, cnotif, cvHeld, sdres, 
                                   jpanic, sfst, slotSt, qrSent, qrWaker, 
-                                  dnState, dnWaker, parkTok, rwb, rneed, dsl, 
-                                  atomic, strong, ppPending, ppClosed, 
-                                  ppNotify, ppNC, ppBP, ppDepth, ppAlive, 
-                                  ppHeld, inItems, inClosed, inWaker, pollFn, 
-                                  chuteFn, pwTaken, nextPoll, ppItem, pjLive, 
-                                  ppStage, h, dead, sti, rq, sq, sj, ww, rsq, 
-                                  bown, bwk, bi, bcur, bw, bsp, jq, jj, jwk, 
-                                  fj, dq, dj, oq, oop, omode, oj, yq, yop, 
-                                  yclaimed, af, wf, wop, sf, sctx, xf, cop, kj, 
-                                  pp, pwk, np, nbp, nres, dp, pf, pctx, pq, pj, 
-                                  pd, nq >>
+                                  dnState, dnWaker, parkTok, barGen, myBar, 
+                                  cdone, rwb, rneed, dsl, atomic, strong, 
+                                  ppPending, ppClosed, ppNotify, ppNC, ppBP, 
+                                  ppDepth, ppAlive, ppHeld, inItems, inClosed, 
+                                  inWaker, pollFn, chuteFn, pwTaken, nextPoll, 
+                                  ppItem, pjLive, ppStage, h, dead, sti, smax, 
+                                  rq, sq, sj, ww, rsq, bown, bwk, bi, bcur, bw, 
+                                  bsp, jq, jj, jwk, fj, dq, dj, oq, oop, omode, 
+                                  oj, yq, yop, yclaimed, af, wf, wop, sf, sctx, 
+                                  xf, cop, kj, pp, pwk, np, nbp, nres, dp, pf, 
+                                  pctx, pq, pj, pd, nq >>
 
 TrySync(self) == ts_decide(self) \/ z_ts_chk(self) \/ ts_idle(self)
                     \/ z_ts_ret(self) \/ ts_panic(self)
@@ -4871,16 +5005,16 @@ z_aw_poll(self) == /\ pc[self] = "z_aw_poll"
                                    dblTaken, dblW1, dblW2, nextDW, ready, 
                                    cwait, cnotif, cvHeld, sdres, jpanic, sfst, 
                                    slotSt, qrSent, qrWaker, dnState, dnWaker, 
-                                   parkTok, rv, rwb, rneed, dsl, atomic, 
-                                   strong, ppPending, ppClosed, ppNotify, ppNC, 
-                                   ppBP, ppDepth, ppAlive, ppHeld, inItems, 
-                                   inClosed, inWaker, pollFn, chuteFn, pwTaken, 
-                                   nextPoll, ppItem, pjLive, ppStage, h, dead, 
-                                   sti, rq, sq, sj, ww, rsq, bown, bwk, bi, 
-                                   bcur, bw, bsp, jq, jj, jwk, fj, dq, dj, oq, 
-                                   oop, omode, oj, yq, yop, yclaimed, tq, top, 
-                                   af, wf, wop, xf, cop, kj, pp, pwk, np, nbp, 
-                                   nres, dp, nq >>
+                                   parkTok, barGen, myBar, cdone, rv, rwb, 
+                                   rneed, dsl, atomic, strong, ppPending, 
+                                   ppClosed, ppNotify, ppNC, ppBP, ppDepth, 
+                                   ppAlive, ppHeld, inItems, inClosed, inWaker, 
+                                   pollFn, chuteFn, pwTaken, nextPoll, ppItem, 
+                                   pjLive, ppStage, h, dead, sti, smax, rq, sq, 
+                                   sj, ww, rsq, bown, bwk, bi, bcur, bw, bsp, 
+                                   jq, jj, jwk, fj, dq, dj, oq, oop, omode, oj, 
+                                   yq, yop, yclaimed, tq, top, af, wf, wop, xf, 
+                                   cop, kj, pp, pwk, np, nbp, nres, dp, nq >>
 
 z_aw_after(self) == /\ pc[self] = "z_aw_after"
                     /\ IF rv[self] = 5
@@ -4901,17 +5035,18 @@ z_aw_after(self) == /\ pc[self] = "z_aw_after"
                                     dwW, dblTaken, dblW1, dblW2, nextDW, ready, 
                                     cwait, cnotif, cvHeld, sdres, jpanic, sfst, 
                                     slotSt, qrSent, qrWaker, dnState, dnWaker, 
-                                    parkTok, rv, rwb, rneed, dsl, atomic, 
-                                    strong, ppPending, ppClosed, ppNotify, 
-                                    ppNC, ppBP, ppDepth, ppAlive, ppHeld, 
-                                    inItems, inClosed, inWaker, pollFn, 
-                                    chuteFn, pwTaken, nextPoll, ppItem, pjLive, 
-                                    ppStage, dead, sti, rq, sq, sj, ww, rsq, 
-                                    bown, bwk, bi, bcur, bw, bsp, jq, jj, jwk, 
-                                    fj, dq, dj, oq, oop, omode, oj, yq, yop, 
-                                    yclaimed, tq, top, wf, wop, sf, sctx, xf, 
-                                    cop, kj, pp, pwk, np, nbp, nres, dp, pf, 
-                                    pctx, pq, pj, pd, nq >>
+                                    parkTok, barGen, myBar, cdone, rv, rwb, 
+                                    rneed, dsl, atomic, strong, ppPending, 
+                                    ppClosed, ppNotify, ppNC, ppBP, ppDepth, 
+                                    ppAlive, ppHeld, inItems, inClosed, 
+                                    inWaker, pollFn, chuteFn, pwTaken, 
+                                    nextPoll, ppItem, pjLive, ppStage, dead, 
+                                    sti, smax, rq, sq, sj, ww, rsq, bown, bwk, 
+                                    bi, bcur, bw, bsp, jq, jj, jwk, fj, dq, dj, 
+                                    oq, oop, omode, oj, yq, yop, yclaimed, tq, 
+                                    top, wf, wop, sf, sctx, xf, cop, kj, pp, 
+                                    pwk, np, nbp, nres, dp, pf, pctx, pq, pj, 
+                                    pd, nq >>
 
 aw_park(self) == /\ pc[self] = "aw_park"
                  /\ parkTok[self]
@@ -4924,16 +5059,17 @@ aw_park(self) == /\ pc[self] = "aw_park"
                                  gthreads, gwhist, dwSt, dwW, dblTaken, dblW1, 
                                  dblW2, nextDW, ready, cwait, cnotif, cvHeld, 
                                  sdres, jpanic, sfst, slotSt, qrSent, qrWaker, 
-                                 dnState, dnWaker, rv, rwb, rneed, dsl, atomic, 
-                                 strong, ppPending, ppClosed, ppNotify, ppNC, 
-                                 ppBP, ppDepth, ppAlive, ppHeld, inItems, 
-                                 inClosed, inWaker, pollFn, chuteFn, pwTaken, 
-                                 nextPoll, ppItem, pjLive, ppStage, h, stack, 
-                                 dead, sti, rq, sq, sj, ww, rsq, bown, bwk, bi, 
-                                 bcur, bw, bsp, jq, jj, jwk, fj, dq, dj, oq, 
-                                 oop, omode, oj, yq, yop, yclaimed, tq, top, 
-                                 af, wf, wop, sf, sctx, xf, cop, kj, pp, pwk, 
-                                 np, nbp, nres, dp, pf, pctx, pq, pj, pd, nq >>
+                                 dnState, dnWaker, barGen, myBar, cdone, rv, 
+                                 rwb, rneed, dsl, atomic, strong, ppPending, 
+                                 ppClosed, ppNotify, ppNC, ppBP, ppDepth, 
+                                 ppAlive, ppHeld, inItems, inClosed, inWaker, 
+                                 pollFn, chuteFn, pwTaken, nextPoll, ppItem, 
+                                 pjLive, ppStage, h, stack, dead, sti, smax, 
+                                 rq, sq, sj, ww, rsq, bown, bwk, bi, bcur, bw, 
+                                 bsp, jq, jj, jwk, fj, dq, dj, oq, oop, omode, 
+                                 oj, yq, yop, yclaimed, tq, top, af, wf, wop, 
+                                 sf, sctx, xf, cop, kj, pp, pwk, np, nbp, nres, 
+                                 dp, pf, pctx, pq, pj, pd, nq >>
 
 Await(self) == z_aw_poll(self) \/ z_aw_after(self) \/ aw_park(self)
 
@@ -4974,16 +5110,16 @@ fs_take(self) == /\ pc[self] = "fs_take"
                                  gwhist, dwSt, dwW, dblTaken, dblW1, dblW2, 
                                  nextDW, ready, cwait, cnotif, cvHeld, sdres, 
                                  jpanic, sfst, slotSt, qrSent, qrWaker, 
-                                 dnState, dnWaker, parkTok, rwb, rneed, dsl, 
-                                 atomic, strong, ppPending, ppClosed, ppNotify, 
-                                 ppNC, ppBP, ppDepth, ppAlive, ppHeld, inItems, 
-                                 inClosed, inWaker, pollFn, chuteFn, pwTaken, 
-                                 nextPoll, ppItem, pjLive, ppStage, dead, sti, 
-                                 rq, sq, sj, ww, rsq, bown, bwk, bi, bcur, bw, 
-                                 bsp, jq, jj, jwk, fj, dq, dj, oq, oop, omode, 
-                                 oj, tq, top, af, sf, sctx, xf, cop, kj, pp, 
-                                 pwk, np, nbp, nres, dp, pf, pctx, pq, pj, pd, 
-                                 nq >>
+                                 dnState, dnWaker, parkTok, barGen, myBar, 
+                                 cdone, rwb, rneed, dsl, atomic, strong, 
+                                 ppPending, ppClosed, ppNotify, ppNC, ppBP, 
+                                 ppDepth, ppAlive, ppHeld, inItems, inClosed, 
+                                 inWaker, pollFn, chuteFn, pwTaken, nextPoll, 
+                                 ppItem, pjLive, ppStage, dead, sti, smax, rq, 
+                                 sq, sj, ww, rsq, bown, bwk, bi, bcur, bw, bsp, 
+                                 jq, jj, jwk, fj, dq, dj, oq, oop, omode, oj, 
+                                 tq, top, af, sf, sctx, xf, cop, kj, pp, pwk, 
+                                 np, nbp, nres, dp, pf, pctx, pq, pj, pd, nq >>
 
 z_fs_after(self) == /\ pc[self] = "z_fs_after"
                     /\ IF rv[self] = 0
@@ -5002,17 +5138,18 @@ z_fs_after(self) == /\ pc[self] = "z_fs_after"
                                     dwW, dblTaken, dblW1, dblW2, nextDW, ready, 
                                     cwait, cnotif, cvHeld, sdres, jpanic, sfst, 
                                     slotSt, qrSent, qrWaker, dnState, dnWaker, 
-                                    parkTok, rv, rwb, rneed, dsl, atomic, 
-                                    strong, ppPending, ppClosed, ppNotify, 
-                                    ppNC, ppBP, ppDepth, ppAlive, ppHeld, 
-                                    inItems, inClosed, inWaker, pollFn, 
-                                    chuteFn, pwTaken, nextPoll, ppItem, pjLive, 
-                                    ppStage, dead, sti, rq, sq, sj, ww, rsq, 
-                                    bown, bwk, bi, bcur, bw, bsp, jq, jj, jwk, 
-                                    fj, dq, dj, oq, oop, omode, oj, yq, yop, 
-                                    yclaimed, tq, top, af, sf, sctx, xf, cop, 
-                                    kj, pp, pwk, np, nbp, nres, dp, pf, pctx, 
-                                    pq, pj, pd, nq >>
+                                    parkTok, barGen, myBar, cdone, rv, rwb, 
+                                    rneed, dsl, atomic, strong, ppPending, 
+                                    ppClosed, ppNotify, ppNC, ppBP, ppDepth, 
+                                    ppAlive, ppHeld, inItems, inClosed, 
+                                    inWaker, pollFn, chuteFn, pwTaken, 
+                                    nextPoll, ppItem, pjLive, ppStage, dead, 
+                                    sti, smax, rq, sq, sj, ww, rsq, bown, bwk, 
+                                    bi, bcur, bw, bsp, jq, jj, jwk, fj, dq, dj, 
+                                    oq, oop, omode, oj, yq, yop, yclaimed, tq, 
+                                    top, af, sf, sctx, xf, cop, kj, pp, pwk, 
+                                    np, nbp, nres, dp, pf, pctx, pq, pj, pd, 
+                                    nq >>
 
 WaitSync(self) == fs_take(self) \/ z_fs_after(self)
 
@@ -5085,14 +5222,15 @@ z_ps(self) == /\ pc[self] = "z_ps"
                               dwW, dblTaken, dblW1, dblW2, nextDW, ready, 
                               cwait, cnotif, cvHeld, sdres, jpanic, sfst, 
                               slotSt, qrSent, qrWaker, dnState, dnWaker, 
-                              parkTok, rwb, rneed, dsl, atomic, strong, 
-                              ppPending, ppClosed, ppNotify, ppNC, ppBP, 
-                              ppDepth, ppAlive, ppHeld, inItems, inClosed, 
-                              inWaker, pollFn, chuteFn, pwTaken, nextPoll, 
-                              ppItem, pjLive, ppStage, h, dead, sti, rq, sq, 
-                              sj, ww, jq, jj, jwk, fj, dq, dj, oq, oop, omode, 
-                              oj, yq, yop, yclaimed, tq, top, af, wf, wop, xf, 
-                              cop, kj, pp, pwk, np, nbp, nres, dp, nq >>
+                              parkTok, barGen, myBar, cdone, rwb, rneed, dsl, 
+                              atomic, strong, ppPending, ppClosed, ppNotify, 
+                              ppNC, ppBP, ppDepth, ppAlive, ppHeld, inItems, 
+                              inClosed, inWaker, pollFn, chuteFn, pwTaken, 
+                              nextPoll, ppItem, pjLive, ppStage, h, dead, sti, 
+                              smax, rq, sq, sj, ww, jq, jj, jwk, fj, dq, dj, 
+                              oq, oop, omode, oj, yq, yop, yclaimed, tq, top, 
+                              af, wf, wop, xf, cop, kj, pp, pwk, np, nbp, nres, 
+                              dp, nq >>
 
 z_ps_q(self) == /\ pc[self] = "z_ps_q"
                 /\ IF rv[self] \in {2, 4}
@@ -5142,15 +5280,15 @@ z_ps_q(self) == /\ pc[self] = "z_ps_q"
                                 gthreads, gwhist, dwSt, dwW, dblTaken, dblW1, 
                                 dblW2, nextDW, ready, cwait, cnotif, cvHeld, 
                                 sdres, jpanic, slotSt, qrSent, dnWaker, 
-                                parkTok, rwb, rneed, dsl, atomic, strong, 
-                                ppPending, ppClosed, ppNotify, ppNC, ppBP, 
-                                ppDepth, ppAlive, ppHeld, inItems, inClosed, 
-                                inWaker, pollFn, chuteFn, pwTaken, nextPoll, 
-                                ppItem, pjLive, ppStage, dead, sti, rq, sq, sj, 
-                                ww, jq, jj, jwk, fj, dq, dj, oq, oop, omode, 
-                                oj, yq, yop, yclaimed, tq, top, af, wf, wop, 
-                                xf, cop, kj, pp, pwk, np, nbp, nres, dp, pf, 
-                                pctx, pq, pj, pd, nq >>
+                                parkTok, barGen, myBar, cdone, rwb, rneed, dsl, 
+                                atomic, strong, ppPending, ppClosed, ppNotify, 
+                                ppNC, ppBP, ppDepth, ppAlive, ppHeld, inItems, 
+                                inClosed, inWaker, pollFn, chuteFn, pwTaken, 
+                                nextPoll, ppItem, pjLive, ppStage, dead, sti, 
+                                smax, rq, sq, sj, ww, jq, jj, jwk, fj, dq, dj, 
+                                oq, oop, omode, oj, yq, yop, yclaimed, tq, top, 
+                                af, wf, wop, xf, cop, kj, pp, pwk, np, nbp, 
+                                nres, dp, pf, pctx, pq, pj, pd, nq >>
 
 z_ps_f(self) == /\ pc[self] = "z_ps_f"
                 /\ IF rv[self] = 5
@@ -5194,16 +5332,16 @@ z_ps_f(self) == /\ pc[self] = "z_ps_f"
                                 gthreads, gwhist, dwSt, dwW, dblTaken, dblW1, 
                                 dblW2, nextDW, ready, cwait, cnotif, cvHeld, 
                                 sdres, jpanic, slotSt, qrSent, qrWaker, 
-                                dnWaker, rv, rwb, rneed, dsl, atomic, strong, 
-                                ppPending, ppClosed, ppNotify, ppNC, ppBP, 
-                                ppDepth, ppAlive, ppHeld, inItems, inClosed, 
-                                inWaker, pollFn, chuteFn, pwTaken, nextPoll, 
-                                ppItem, pjLive, ppStage, h, dead, sti, rq, sq, 
-                                sj, rsq, bown, bwk, bi, bcur, bw, bsp, jq, jj, 
-                                jwk, fj, dq, dj, oq, oop, omode, oj, yq, yop, 
-                                yclaimed, tq, top, af, wf, wop, xf, cop, kj, 
-                                pp, pwk, np, nbp, nres, dp, pf, pctx, pq, pj, 
-                                pd, nq >>
+                                dnWaker, barGen, myBar, cdone, rv, rwb, rneed, 
+                                dsl, atomic, strong, ppPending, ppClosed, 
+                                ppNotify, ppNC, ppBP, ppDepth, ppAlive, ppHeld, 
+                                inItems, inClosed, inWaker, pollFn, chuteFn, 
+                                pwTaken, nextPoll, ppItem, pjLive, ppStage, h, 
+                                dead, sti, smax, rq, sq, sj, rsq, bown, bwk, 
+                                bi, bcur, bw, bsp, jq, jj, jwk, fj, dq, dj, oq, 
+                                oop, omode, oj, yq, yop, yclaimed, tq, top, af, 
+                                wf, wop, xf, cop, kj, pp, pwk, np, nbp, nres, 
+                                dp, pf, pctx, pq, pj, pd, nq >>
 
 z_ps_s(self) == /\ pc[self] = "z_ps_s"
                 /\ /\ pctx' = [pctx EXCEPT ![self] = sctx[self]]
@@ -5227,16 +5365,17 @@ z_ps_s(self) == /\ pc[self] = "z_ps_s"
                                 gthreads, gwhist, dwSt, dwW, dblTaken, dblW1, 
                                 dblW2, nextDW, ready, cwait, cnotif, cvHeld, 
                                 sdres, jpanic, sfst, slotSt, qrSent, qrWaker, 
-                                dnState, dnWaker, parkTok, rv, rwb, rneed, dsl, 
-                                atomic, strong, ppPending, ppClosed, ppNotify, 
-                                ppNC, ppBP, ppDepth, ppAlive, ppHeld, inItems, 
-                                inClosed, inWaker, pollFn, chuteFn, pwTaken, 
-                                nextPoll, ppItem, pjLive, ppStage, h, dead, 
-                                sti, rq, sq, sj, ww, rsq, bown, bwk, bi, bcur, 
-                                bw, bsp, jq, jj, jwk, fj, dq, dj, oq, oop, 
-                                omode, oj, yq, yop, yclaimed, tq, top, af, wf, 
-                                wop, sf, sctx, xf, cop, kj, pp, pwk, np, nbp, 
-                                nres, dp, nq >>
+                                dnState, dnWaker, parkTok, barGen, myBar, 
+                                cdone, rv, rwb, rneed, dsl, atomic, strong, 
+                                ppPending, ppClosed, ppNotify, ppNC, ppBP, 
+                                ppDepth, ppAlive, ppHeld, inItems, inClosed, 
+                                inWaker, pollFn, chuteFn, pwTaken, nextPoll, 
+                                ppItem, pjLive, ppStage, h, dead, sti, smax, 
+                                rq, sq, sj, ww, rsq, bown, bwk, bi, bcur, bw, 
+                                bsp, jq, jj, jwk, fj, dq, dj, oq, oop, omode, 
+                                oj, yq, yop, yclaimed, tq, top, af, wf, wop, 
+                                sf, sctx, xf, cop, kj, pp, pwk, np, nbp, nres, 
+                                dp, nq >>
 
 z_ps_s2(self) == /\ pc[self] = "z_ps_s2"
                  /\ IF rv[self] = 5
@@ -5258,16 +5397,17 @@ z_ps_s2(self) == /\ pc[self] = "z_ps_s2"
                                  gthreads, gwhist, dwSt, dwW, dblTaken, dblW1, 
                                  dblW2, nextDW, ready, cwait, cnotif, cvHeld, 
                                  sdres, jpanic, slotSt, qrSent, qrWaker, 
-                                 dnState, dnWaker, parkTok, rwb, rneed, dsl, 
-                                 atomic, strong, ppPending, ppClosed, ppNotify, 
-                                 ppNC, ppBP, ppDepth, ppAlive, ppHeld, inItems, 
-                                 inClosed, inWaker, pollFn, chuteFn, pwTaken, 
-                                 nextPoll, ppItem, pjLive, ppStage, h, dead, 
-                                 sti, rq, sq, sj, ww, rsq, bown, bwk, bi, bcur, 
-                                 bw, bsp, jq, jj, jwk, fj, dq, dj, oq, oop, 
-                                 omode, oj, yq, yop, yclaimed, tq, top, af, wf, 
-                                 wop, xf, cop, kj, pp, pwk, np, nbp, nres, dp, 
-                                 pf, pctx, pq, pj, pd, nq >>
+                                 dnState, dnWaker, parkTok, barGen, myBar, 
+                                 cdone, rwb, rneed, dsl, atomic, strong, 
+                                 ppPending, ppClosed, ppNotify, ppNC, ppBP, 
+                                 ppDepth, ppAlive, ppHeld, inItems, inClosed, 
+                                 inWaker, pollFn, chuteFn, pwTaken, nextPoll, 
+                                 ppItem, pjLive, ppStage, h, dead, sti, smax, 
+                                 rq, sq, sj, ww, rsq, bown, bwk, bi, bcur, bw, 
+                                 bsp, jq, jj, jwk, fj, dq, dj, oq, oop, omode, 
+                                 oj, yq, yop, yclaimed, tq, top, af, wf, wop, 
+                                 xf, cop, kj, pp, pwk, np, nbp, nres, dp, pf, 
+                                 pctx, pq, pj, pd, nq >>
 
 z_ps_panic(self) == /\ pc[self] = "z_ps_panic"
                     /\ rv' = [rv EXCEPT ![self] = 2]
@@ -5283,17 +5423,17 @@ z_ps_panic(self) == /\ pc[self] = "z_ps_panic"
                                     dwW, dblTaken, dblW1, dblW2, nextDW, ready, 
                                     cwait, cnotif, cvHeld, sdres, jpanic, sfst, 
                                     slotSt, qrSent, qrWaker, dnState, dnWaker, 
-                                    parkTok, rwb, rneed, dsl, atomic, strong, 
-                                    ppPending, ppClosed, ppNotify, ppNC, ppBP, 
-                                    ppDepth, ppAlive, ppHeld, inItems, 
-                                    inClosed, inWaker, pollFn, chuteFn, 
-                                    pwTaken, nextPoll, ppItem, pjLive, ppStage, 
-                                    h, dead, sti, rq, sq, sj, ww, rsq, bown, 
-                                    bwk, bi, bcur, bw, bsp, jq, jj, jwk, fj, 
-                                    dq, dj, oq, oop, omode, oj, yq, yop, 
-                                    yclaimed, tq, top, af, wf, wop, xf, cop, 
-                                    kj, pp, pwk, np, nbp, nres, dp, pf, pctx, 
-                                    pq, pj, pd, nq >>
+                                    parkTok, barGen, myBar, cdone, rwb, rneed, 
+                                    dsl, atomic, strong, ppPending, ppClosed, 
+                                    ppNotify, ppNC, ppBP, ppDepth, ppAlive, 
+                                    ppHeld, inItems, inClosed, inWaker, pollFn, 
+                                    chuteFn, pwTaken, nextPoll, ppItem, pjLive, 
+                                    ppStage, h, dead, sti, smax, rq, sq, sj, 
+                                    ww, rsq, bown, bwk, bi, bcur, bw, bsp, jq, 
+                                    jj, jwk, fj, dq, dj, oq, oop, omode, oj, 
+                                    yq, yop, yclaimed, tq, top, af, wf, wop, 
+                                    xf, cop, kj, pp, pwk, np, nbp, nres, dp, 
+                                    pf, pctx, pq, pj, pd, nq >>
 
 PollSync(self) == z_ps(self) \/ z_ps_q(self) \/ z_ps_f(self)
                      \/ z_ps_s(self) \/ z_ps_s2(self) \/ z_ps_panic(self)
@@ -5329,16 +5469,16 @@ z_df(self) == /\ pc[self] = "z_df"
                               gthreads, gwhist, dwSt, dwW, dblTaken, dblW1, 
                               dblW2, nextDW, ready, cwait, cnotif, cvHeld, 
                               sdres, jpanic, slotSt, qrSent, qrWaker, dnWaker, 
-                              parkTok, rwb, rneed, dsl, atomic, strong, 
-                              ppPending, ppClosed, ppNotify, ppNC, ppBP, 
-                              ppDepth, ppAlive, ppHeld, inItems, inClosed, 
-                              inWaker, pollFn, chuteFn, pwTaken, nextPoll, 
-                              ppItem, pjLive, ppStage, dead, sti, rq, sq, sj, 
-                              rsq, bown, bwk, bi, bcur, bw, bsp, jq, jj, jwk, 
-                              fj, dq, dj, oq, oop, omode, oj, yq, yop, 
-                              yclaimed, tq, top, af, wf, wop, sf, sctx, cop, 
-                              kj, pp, pwk, np, nbp, nres, dp, pf, pctx, pq, pj, 
-                              pd, nq >>
+                              parkTok, barGen, myBar, cdone, rwb, rneed, dsl, 
+                              atomic, strong, ppPending, ppClosed, ppNotify, 
+                              ppNC, ppBP, ppDepth, ppAlive, ppHeld, inItems, 
+                              inClosed, inWaker, pollFn, chuteFn, pwTaken, 
+                              nextPoll, ppItem, pjLive, ppStage, dead, sti, 
+                              smax, rq, sq, sj, rsq, bown, bwk, bi, bcur, bw, 
+                              bsp, jq, jj, jwk, fj, dq, dj, oq, oop, omode, oj, 
+                              yq, yop, yclaimed, tq, top, af, wf, wop, sf, 
+                              sctx, cop, kj, pp, pwk, np, nbp, nres, dp, pf, 
+                              pctx, pq, pj, pd, nq >>
 
 z_df2(self) == /\ pc[self] = "z_df2"
                /\ rv' = [rv EXCEPT ![self] = 0]
@@ -5352,16 +5492,17 @@ z_df2(self) == /\ pc[self] = "z_df2"
                                gthreads, gwhist, dwSt, dwW, dblTaken, dblW1, 
                                dblW2, nextDW, ready, cwait, cnotif, cvHeld, 
                                sdres, jpanic, sfst, slotSt, qrSent, qrWaker, 
-                               dnState, dnWaker, parkTok, rwb, rneed, dsl, 
-                               atomic, strong, ppPending, ppClosed, ppNotify, 
-                               ppNC, ppBP, ppDepth, ppAlive, ppHeld, inItems, 
-                               inClosed, inWaker, pollFn, chuteFn, pwTaken, 
-                               nextPoll, ppItem, pjLive, ppStage, h, dead, sti, 
-                               rq, sq, sj, ww, rsq, bown, bwk, bi, bcur, bw, 
-                               bsp, jq, jj, jwk, fj, dq, dj, oq, oop, omode, 
-                               oj, yq, yop, yclaimed, tq, top, af, wf, wop, sf, 
-                               sctx, cop, kj, pp, pwk, np, nbp, nres, dp, pf, 
-                               pctx, pq, pj, pd, nq >>
+                               dnState, dnWaker, parkTok, barGen, myBar, cdone, 
+                               rwb, rneed, dsl, atomic, strong, ppPending, 
+                               ppClosed, ppNotify, ppNC, ppBP, ppDepth, 
+                               ppAlive, ppHeld, inItems, inClosed, inWaker, 
+                               pollFn, chuteFn, pwTaken, nextPoll, ppItem, 
+                               pjLive, ppStage, h, dead, sti, smax, rq, sq, sj, 
+                               ww, rsq, bown, bwk, bi, bcur, bw, bsp, jq, jj, 
+                               jwk, fj, dq, dj, oq, oop, omode, oj, yq, yop, 
+                               yclaimed, tq, top, af, wf, wop, sf, sctx, cop, 
+                               kj, pp, pwk, np, nbp, nres, dp, pf, pctx, pq, 
+                               pj, pd, nq >>
 
 DropFuture(self) == z_df(self) \/ z_df2(self)
 
@@ -5387,15 +5528,16 @@ z_pcr1(self) == /\ pc[self] = "z_pcr1"
                                 gwhist, dwSt, dwW, dblTaken, dblW1, dblW2, 
                                 nextDW, ready, cwait, cnotif, cvHeld, sdres, 
                                 jpanic, sfst, slotSt, qrSent, qrWaker, dnState, 
-                                dnWaker, parkTok, rv, rwb, rneed, dsl, atomic, 
-                                ppPending, ppClosed, ppNotify, ppNC, ppBP, 
-                                ppDepth, ppHeld, inItems, inClosed, inWaker, 
-                                chuteFn, pwTaken, ppItem, ppStage, h, dead, 
-                                sti, rq, ww, rsq, bown, bwk, bi, bcur, bw, bsp, 
-                                jq, jj, jwk, fj, dq, dj, oq, oop, omode, oj, 
-                                yq, yop, yclaimed, tq, top, af, wf, wop, sf, 
-                                sctx, xf, cop, kj, pp, pwk, np, nbp, nres, dp, 
-                                pf, pctx, pq, pj, pd, nq >>
+                                dnWaker, parkTok, barGen, myBar, cdone, rv, 
+                                rwb, rneed, dsl, atomic, ppPending, ppClosed, 
+                                ppNotify, ppNC, ppBP, ppDepth, ppHeld, inItems, 
+                                inClosed, inWaker, chuteFn, pwTaken, ppItem, 
+                                ppStage, h, dead, sti, smax, rq, ww, rsq, bown, 
+                                bwk, bi, bcur, bw, bsp, jq, jj, jwk, fj, dq, 
+                                dj, oq, oop, omode, oj, yq, yop, yclaimed, tq, 
+                                top, af, wf, wop, sf, sctx, xf, cop, kj, pp, 
+                                pwk, np, nbp, nres, dp, pf, pctx, pq, pj, pd, 
+                                nq >>
 
 z_pcr2(self) == /\ pc[self] = "z_pcr2"
                 /\ strong' = [strong EXCEPT ![O(cop[self])] = strong[O(cop[self])] - 1]
@@ -5416,16 +5558,17 @@ z_pcr2(self) == /\ pc[self] = "z_pcr2"
                                 gthreads, gwhist, dwSt, dwW, dblTaken, dblW1, 
                                 dblW2, nextDW, ready, cwait, cnotif, cvHeld, 
                                 sdres, jpanic, sfst, slotSt, qrSent, qrWaker, 
-                                dnState, dnWaker, parkTok, rv, rwb, rneed, dsl, 
-                                atomic, ppPending, ppClosed, ppNotify, ppNC, 
-                                ppBP, ppDepth, ppAlive, ppHeld, inItems, 
-                                inClosed, inWaker, pollFn, chuteFn, pwTaken, 
-                                nextPoll, ppItem, pjLive, ppStage, h, dead, 
-                                sti, rq, sq, sj, ww, rsq, bown, bwk, bi, bcur, 
-                                bw, bsp, jq, jj, jwk, fj, dq, dj, oq, oop, 
-                                omode, oj, tq, top, af, wf, wop, sf, sctx, xf, 
-                                cop, kj, pp, pwk, np, nbp, nres, dp, pf, pctx, 
-                                pq, pj, pd, nq >>
+                                dnState, dnWaker, parkTok, barGen, myBar, 
+                                cdone, rv, rwb, rneed, dsl, atomic, ppPending, 
+                                ppClosed, ppNotify, ppNC, ppBP, ppDepth, 
+                                ppAlive, ppHeld, inItems, inClosed, inWaker, 
+                                pollFn, chuteFn, pwTaken, nextPoll, ppItem, 
+                                pjLive, ppStage, h, dead, sti, smax, rq, sq, 
+                                sj, ww, rsq, bown, bwk, bi, bcur, bw, bsp, jq, 
+                                jj, jwk, fj, dq, dj, oq, oop, omode, oj, tq, 
+                                top, af, wf, wop, sf, sctx, xf, cop, kj, pp, 
+                                pwk, np, nbp, nres, dp, pf, pctx, pq, pj, pd, 
+                                nq >>
 
 z_pcr3(self) == /\ pc[self] = "z_pcr3"
                 /\ pc' = [pc EXCEPT ![self] = Head(stack[self]).pc]
@@ -5438,16 +5581,17 @@ z_pcr3(self) == /\ pc[self] = "z_pcr3"
                                 gthreads, gwhist, dwSt, dwW, dblTaken, dblW1, 
                                 dblW2, nextDW, ready, cwait, cnotif, cvHeld, 
                                 sdres, jpanic, sfst, slotSt, qrSent, qrWaker, 
-                                dnState, dnWaker, parkTok, rv, rwb, rneed, dsl, 
-                                atomic, strong, ppPending, ppClosed, ppNotify, 
-                                ppNC, ppBP, ppDepth, ppAlive, ppHeld, inItems, 
-                                inClosed, inWaker, pollFn, chuteFn, pwTaken, 
-                                nextPoll, ppItem, pjLive, ppStage, h, dead, 
-                                sti, rq, sq, sj, ww, rsq, bown, bwk, bi, bcur, 
-                                bw, bsp, jq, jj, jwk, fj, dq, dj, oq, oop, 
-                                omode, oj, yq, yop, yclaimed, tq, top, af, wf, 
-                                wop, sf, sctx, xf, kj, pp, pwk, np, nbp, nres, 
-                                dp, pf, pctx, pq, pj, pd, nq >>
+                                dnState, dnWaker, parkTok, barGen, myBar, 
+                                cdone, rv, rwb, rneed, dsl, atomic, strong, 
+                                ppPending, ppClosed, ppNotify, ppNC, ppBP, 
+                                ppDepth, ppAlive, ppHeld, inItems, inClosed, 
+                                inWaker, pollFn, chuteFn, pwTaken, nextPoll, 
+                                ppItem, pjLive, ppStage, h, dead, sti, smax, 
+                                rq, sq, sj, ww, rsq, bown, bwk, bi, bcur, bw, 
+                                bsp, jq, jj, jwk, fj, dq, dj, oq, oop, omode, 
+                                oj, yq, yop, yclaimed, tq, top, af, wf, wop, 
+                                sf, sctx, xf, kj, pp, pwk, np, nbp, nres, dp, 
+                                pf, pctx, pq, pj, pd, nq >>
 
 PipeCreate(self) == z_pcr1(self) \/ z_pcr2(self) \/ z_pcr3(self)
 
@@ -5463,17 +5607,18 @@ z_pp_entry(self) == /\ pc[self] = "z_pp_entry"
                                     dwW, dblTaken, dblW1, dblW2, nextDW, ready, 
                                     cwait, cnotif, cvHeld, sdres, jpanic, sfst, 
                                     slotSt, qrSent, qrWaker, dnState, dnWaker, 
-                                    parkTok, rv, rwb, rneed, dsl, atomic, 
-                                    strong, ppPending, ppClosed, ppNotify, 
-                                    ppNC, ppBP, ppDepth, ppAlive, ppHeld, 
-                                    inItems, inClosed, inWaker, pollFn, 
-                                    chuteFn, pwTaken, nextPoll, ppItem, pjLive, 
-                                    ppStage, h, stack, dead, sti, rq, sq, sj, 
-                                    ww, rsq, bown, bwk, bi, bcur, bw, bsp, jq, 
-                                    jj, jwk, fj, dq, dj, oq, oop, omode, oj, 
-                                    yq, yop, yclaimed, tq, top, af, wf, wop, 
-                                    sf, sctx, xf, cop, kj, pp, pwk, np, nbp, 
-                                    nres, dp, pf, pctx, pq, pj, pd, nq >>
+                                    parkTok, barGen, myBar, cdone, rv, rwb, 
+                                    rneed, dsl, atomic, strong, ppPending, 
+                                    ppClosed, ppNotify, ppNC, ppBP, ppDepth, 
+                                    ppAlive, ppHeld, inItems, inClosed, 
+                                    inWaker, pollFn, chuteFn, pwTaken, 
+                                    nextPoll, ppItem, pjLive, ppStage, h, 
+                                    stack, dead, sti, smax, rq, sq, sj, ww, 
+                                    rsq, bown, bwk, bi, bcur, bw, bsp, jq, jj, 
+                                    jwk, fj, dq, dj, oq, oop, omode, oj, yq, 
+                                    yop, yclaimed, tq, top, af, wf, wop, sf, 
+                                    sctx, xf, cop, kj, pp, pwk, np, nbp, nres, 
+                                    dp, pf, pctx, pq, pj, pd, nq >>
 
 pp_fn(self) == /\ pc[self] = "pp_fn"
                /\ IF ~pollFn[pp[self]]
@@ -5500,16 +5645,17 @@ pp_fn(self) == /\ pc[self] = "pp_fn"
                                gthreads, gwhist, dwSt, dwW, dblTaken, dblW1, 
                                dblW2, nextDW, ready, cwait, cnotif, cvHeld, 
                                sdres, jpanic, sfst, slotSt, qrSent, qrWaker, 
-                               dnState, dnWaker, parkTok, rwb, rneed, dsl, 
-                               atomic, strong, ppPending, ppClosed, ppNotify, 
-                               ppNC, ppBP, ppDepth, ppAlive, inItems, inClosed, 
-                               inWaker, pollFn, chuteFn, pwTaken, nextPoll, 
-                               ppItem, pjLive, ppStage, h, dead, sti, rq, sq, 
-                               sj, ww, rsq, bown, bwk, bi, bcur, bw, bsp, jq, 
-                               jj, jwk, fj, dq, dj, oq, oop, omode, oj, yq, 
-                               yop, yclaimed, tq, top, af, wf, wop, sf, sctx, 
-                               xf, cop, np, nbp, nres, dp, pf, pctx, pq, pj, 
-                               pd, nq >>
+                               dnState, dnWaker, parkTok, barGen, myBar, cdone, 
+                               rwb, rneed, dsl, atomic, strong, ppPending, 
+                               ppClosed, ppNotify, ppNC, ppBP, ppDepth, 
+                               ppAlive, inItems, inClosed, inWaker, pollFn, 
+                               chuteFn, pwTaken, nextPoll, ppItem, pjLive, 
+                               ppStage, h, dead, sti, smax, rq, sq, sj, ww, 
+                               rsq, bown, bwk, bi, bcur, bw, bsp, jq, jj, jwk, 
+                               fj, dq, dj, oq, oop, omode, oj, yq, yop, 
+                               yclaimed, tq, top, af, wf, wop, sf, sctx, xf, 
+                               cop, np, nbp, nres, dp, pf, pctx, pq, pj, pd, 
+                               nq >>
 
 pp_bp(self) == /\ pc[self] = "pp_bp"
                /\ IF Len(ppPending[pp[self]]) >= ppDepth[pp[self]]
@@ -5532,16 +5678,16 @@ pp_bp(self) == /\ pc[self] = "pp_bp"
                                gthreads, gwhist, dwSt, dwW, dblTaken, dblW1, 
                                dblW2, nextDW, ready, cwait, cnotif, cvHeld, 
                                sdres, jpanic, sfst, slotSt, qrSent, qrWaker, 
-                               dnState, dnWaker, parkTok, rwb, rneed, dsl, 
-                               atomic, strong, ppPending, ppClosed, ppNotify, 
-                               ppNC, ppDepth, ppAlive, inItems, inClosed, 
-                               inWaker, pollFn, chuteFn, pwTaken, nextPoll, 
-                               ppItem, pjLive, ppStage, h, dead, sti, rq, sq, 
-                               sj, ww, rsq, bown, bwk, bi, bcur, bw, bsp, jq, 
-                               jj, jwk, fj, dq, dj, oq, oop, omode, oj, yq, 
-                               yop, yclaimed, tq, top, af, wf, wop, sf, sctx, 
-                               xf, cop, np, nbp, nres, dp, pf, pctx, pq, pj, 
-                               pd, nq >>
+                               dnState, dnWaker, parkTok, barGen, myBar, cdone, 
+                               rwb, rneed, dsl, atomic, strong, ppPending, 
+                               ppClosed, ppNotify, ppNC, ppDepth, ppAlive, 
+                               inItems, inClosed, inWaker, pollFn, chuteFn, 
+                               pwTaken, nextPoll, ppItem, pjLive, ppStage, h, 
+                               dead, sti, smax, rq, sq, sj, ww, rsq, bown, bwk, 
+                               bi, bcur, bw, bsp, jq, jj, jwk, fj, dq, dj, oq, 
+                               oop, omode, oj, yq, yop, yclaimed, tq, top, af, 
+                               wf, wop, sf, sctx, xf, cop, np, nbp, nres, dp, 
+                               pf, pctx, pq, pj, pd, nq >>
 
 pp_clear(self) == /\ pc[self] = "pp_clear"
                   /\ IF FixD5 /\ ppClosed[pp[self]]
@@ -5558,17 +5704,17 @@ pp_clear(self) == /\ pc[self] = "pp_clear"
                                   gthreads, gwhist, dwSt, dwW, dblTaken, dblW1, 
                                   dblW2, nextDW, ready, cwait, cnotif, cvHeld, 
                                   sdres, jpanic, sfst, slotSt, qrSent, qrWaker, 
-                                  dnState, dnWaker, parkTok, rv, rwb, rneed, 
-                                  dsl, atomic, strong, ppPending, ppClosed, 
-                                  ppNotify, ppBP, ppDepth, ppAlive, inItems, 
-                                  inClosed, inWaker, pollFn, chuteFn, pwTaken, 
-                                  nextPoll, ppItem, pjLive, ppStage, h, stack, 
-                                  dead, sti, rq, sq, sj, ww, rsq, bown, bwk, 
-                                  bi, bcur, bw, bsp, jq, jj, jwk, fj, dq, dj, 
-                                  oq, oop, omode, oj, yq, yop, yclaimed, tq, 
-                                  top, af, wf, wop, sf, sctx, xf, cop, kj, pp, 
-                                  pwk, np, nbp, nres, dp, pf, pctx, pq, pj, pd, 
-                                  nq >>
+                                  dnState, dnWaker, parkTok, barGen, myBar, 
+                                  cdone, rv, rwb, rneed, dsl, atomic, strong, 
+                                  ppPending, ppClosed, ppNotify, ppBP, ppDepth, 
+                                  ppAlive, inItems, inClosed, inWaker, pollFn, 
+                                  chuteFn, pwTaken, nextPoll, ppItem, pjLive, 
+                                  ppStage, h, stack, dead, sti, smax, rq, sq, 
+                                  sj, ww, rsq, bown, bwk, bi, bcur, bw, bsp, 
+                                  jq, jj, jwk, fj, dq, dj, oq, oop, omode, oj, 
+                                  yq, yop, yclaimed, tq, top, af, wf, wop, sf, 
+                                  sctx, xf, cop, kj, pp, pwk, np, nbp, nres, 
+                                  dp, pf, pctx, pq, pj, pd, nq >>
 
 pp_in(self) == /\ pc[self] = "pp_in"
                /\ IF inItems[pp[self]] # << >>
@@ -5589,16 +5735,17 @@ pp_in(self) == /\ pc[self] = "pp_in"
                                gthreads, gwhist, dwSt, dwW, dblTaken, dblW1, 
                                dblW2, nextDW, ready, cwait, cnotif, cvHeld, 
                                sdres, jpanic, sfst, slotSt, qrSent, qrWaker, 
-                               dnState, dnWaker, parkTok, rv, rwb, rneed, dsl, 
-                               atomic, strong, ppPending, ppClosed, ppNotify, 
-                               ppNC, ppBP, ppDepth, ppAlive, ppHeld, inClosed, 
-                               inWaker, pollFn, chuteFn, pwTaken, nextPoll, 
-                               pjLive, ppStage, stack, dead, sti, rq, sq, sj, 
-                               ww, rsq, bown, bwk, bi, bcur, bw, bsp, jq, jj, 
-                               jwk, fj, dq, dj, oq, oop, omode, oj, yq, yop, 
-                               yclaimed, tq, top, af, wf, wop, sf, sctx, xf, 
-                               cop, kj, pp, pwk, np, nbp, nres, dp, pf, pctx, 
-                               pq, pj, pd, nq >>
+                               dnState, dnWaker, parkTok, barGen, myBar, cdone, 
+                               rv, rwb, rneed, dsl, atomic, strong, ppPending, 
+                               ppClosed, ppNotify, ppNC, ppBP, ppDepth, 
+                               ppAlive, ppHeld, inClosed, inWaker, pollFn, 
+                               chuteFn, pwTaken, nextPoll, pjLive, ppStage, 
+                               stack, dead, sti, smax, rq, sq, sj, ww, rsq, 
+                               bown, bwk, bi, bcur, bw, bsp, jq, jj, jwk, fj, 
+                               dq, dj, oq, oop, omode, oj, yq, yop, yclaimed, 
+                               tq, top, af, wf, wop, sf, sctx, xf, cop, kj, pp, 
+                               pwk, np, nbp, nres, dp, pf, pctx, pq, pj, pd, 
+                               nq >>
 
 pp_in2(self) == /\ pc[self] = "pp_in2"
                 /\ inWaker' = [inWaker EXCEPT ![pp[self]] = PW(kj[self])]
@@ -5620,11 +5767,12 @@ pp_in2(self) == /\ pc[self] = "pp_in2"
                                 gthreads, gwhist, dwSt, dwW, dblTaken, dblW1, 
                                 dblW2, nextDW, ready, cwait, cnotif, cvHeld, 
                                 sdres, jpanic, sfst, slotSt, qrSent, qrWaker, 
-                                dnState, dnWaker, parkTok, rv, rwb, rneed, dsl, 
-                                atomic, strong, ppPending, ppClosed, ppNotify, 
-                                ppNC, ppBP, ppDepth, ppAlive, ppHeld, inClosed, 
-                                pollFn, chuteFn, pwTaken, nextPoll, pjLive, 
-                                ppStage, stack, dead, sti, rq, sq, sj, ww, rsq, 
+                                dnState, dnWaker, parkTok, barGen, myBar, 
+                                cdone, rv, rwb, rneed, dsl, atomic, strong, 
+                                ppPending, ppClosed, ppNotify, ppNC, ppBP, 
+                                ppDepth, ppAlive, ppHeld, inClosed, pollFn, 
+                                chuteFn, pwTaken, nextPoll, pjLive, ppStage, 
+                                stack, dead, sti, smax, rq, sq, sj, ww, rsq, 
                                 bown, bwk, bi, bcur, bw, bsp, jq, jj, jwk, fj, 
                                 dq, dj, oq, oop, omode, oj, yq, yop, yclaimed, 
                                 tq, top, af, wf, wop, sf, sctx, xf, cop, kj, 
@@ -5651,16 +5799,17 @@ pp_reg(self) == /\ pc[self] = "pp_reg"
                                 gthreads, gwhist, dwSt, dwW, dblTaken, dblW1, 
                                 dblW2, nextDW, ready, cwait, cnotif, cvHeld, 
                                 sdres, jpanic, sfst, slotSt, qrSent, qrWaker, 
-                                dnState, dnWaker, parkTok, rwb, rneed, dsl, 
-                                atomic, strong, ppPending, ppClosed, ppNotify, 
-                                ppBP, ppDepth, ppAlive, inItems, inClosed, 
-                                inWaker, pollFn, chuteFn, pwTaken, nextPoll, 
-                                ppItem, pjLive, ppStage, h, dead, sti, rq, sq, 
-                                sj, ww, rsq, bown, bwk, bi, bcur, bw, bsp, jq, 
-                                jj, jwk, fj, dq, dj, oq, oop, omode, oj, yq, 
-                                yop, yclaimed, tq, top, af, wf, wop, sf, sctx, 
-                                xf, cop, np, nbp, nres, dp, pf, pctx, pq, pj, 
-                                pd, nq >>
+                                dnState, dnWaker, parkTok, barGen, myBar, 
+                                cdone, rwb, rneed, dsl, atomic, strong, 
+                                ppPending, ppClosed, ppNotify, ppBP, ppDepth, 
+                                ppAlive, inItems, inClosed, inWaker, pollFn, 
+                                chuteFn, pwTaken, nextPoll, ppItem, pjLive, 
+                                ppStage, h, dead, sti, smax, rq, sq, sj, ww, 
+                                rsq, bown, bwk, bi, bcur, bw, bsp, jq, jj, jwk, 
+                                fj, dq, dj, oq, oop, omode, oj, yq, yop, 
+                                yclaimed, tq, top, af, wf, wop, sf, sctx, xf, 
+                                cop, np, nbp, nres, dp, pf, pctx, pq, pj, pd, 
+                                nq >>
 
 pp_end(self) == /\ pc[self] = "pp_end"
                 /\ ppClosed' = [ppClosed EXCEPT ![pp[self]] = TRUE]
@@ -5675,16 +5824,17 @@ pp_end(self) == /\ pc[self] = "pp_end"
                                 gthreads, gwhist, dwSt, dwW, dblTaken, dblW1, 
                                 dblW2, nextDW, ready, cwait, cnotif, cvHeld, 
                                 sdres, jpanic, sfst, slotSt, qrSent, qrWaker, 
-                                dnState, dnWaker, rv, rwb, rneed, dsl, atomic, 
-                                strong, ppPending, ppNC, ppBP, ppDepth, 
-                                ppAlive, inItems, inClosed, inWaker, pollFn, 
-                                chuteFn, pwTaken, nextPoll, ppItem, pjLive, 
-                                ppStage, h, stack, dead, sti, rq, sq, sj, ww, 
-                                rsq, bown, bwk, bi, bcur, bw, bsp, jq, jj, jwk, 
-                                fj, dq, dj, oq, oop, omode, oj, yq, yop, 
-                                yclaimed, tq, top, af, wf, wop, sf, sctx, xf, 
-                                cop, kj, pp, pwk, np, nbp, nres, dp, pf, pctx, 
-                                pq, pj, pd, nq >>
+                                dnState, dnWaker, barGen, myBar, cdone, rv, 
+                                rwb, rneed, dsl, atomic, strong, ppPending, 
+                                ppNC, ppBP, ppDepth, ppAlive, inItems, 
+                                inClosed, inWaker, pollFn, chuteFn, pwTaken, 
+                                nextPoll, ppItem, pjLive, ppStage, h, stack, 
+                                dead, sti, smax, rq, sq, sj, ww, rsq, bown, 
+                                bwk, bi, bcur, bw, bsp, jq, jj, jwk, fj, dq, 
+                                dj, oq, oop, omode, oj, yq, yop, yclaimed, tq, 
+                                top, af, wf, wop, sf, sctx, xf, cop, kj, pp, 
+                                pwk, np, nbp, nres, dp, pf, pctx, pq, pj, pd, 
+                                nq >>
 
 pp_closed(self) == /\ pc[self] = "pp_closed"
                    /\ parkTok' = Unpark(parkTok, TaskOf(ppNotify[pp[self]]))
@@ -5699,16 +5849,17 @@ pp_closed(self) == /\ pc[self] = "pp_closed"
                                    dblTaken, dblW1, dblW2, nextDW, ready, 
                                    cwait, cnotif, cvHeld, sdres, jpanic, sfst, 
                                    slotSt, qrSent, qrWaker, dnState, dnWaker, 
-                                   rv, rwb, rneed, dsl, atomic, strong, 
-                                   ppPending, ppClosed, ppNC, ppBP, ppDepth, 
-                                   ppAlive, inItems, inClosed, inWaker, pollFn, 
-                                   chuteFn, pwTaken, nextPoll, ppItem, pjLive, 
-                                   ppStage, h, stack, dead, sti, rq, sq, sj, 
-                                   ww, rsq, bown, bwk, bi, bcur, bw, bsp, jq, 
-                                   jj, jwk, fj, dq, dj, oq, oop, omode, oj, yq, 
-                                   yop, yclaimed, tq, top, af, wf, wop, sf, 
-                                   sctx, xf, cop, kj, pp, pwk, np, nbp, nres, 
-                                   dp, pf, pctx, pq, pj, pd, nq >>
+                                   barGen, myBar, cdone, rv, rwb, rneed, dsl, 
+                                   atomic, strong, ppPending, ppClosed, ppNC, 
+                                   ppBP, ppDepth, ppAlive, inItems, inClosed, 
+                                   inWaker, pollFn, chuteFn, pwTaken, nextPoll, 
+                                   ppItem, pjLive, ppStage, h, stack, dead, 
+                                   sti, smax, rq, sq, sj, ww, rsq, bown, bwk, 
+                                   bi, bcur, bw, bsp, jq, jj, jwk, fj, dq, dj, 
+                                   oq, oop, omode, oj, yq, yop, yclaimed, tq, 
+                                   top, af, wf, wop, sf, sctx, xf, cop, kj, pp, 
+                                   pwk, np, nbp, nres, dp, pf, pctx, pq, pj, 
+                                   pd, nq >>
 
 pp_proc(self) == /\ pc[self] = "pp_proc"
                  /\ h' = ObsProcStart(h, self, pp[self], ppItem[kj[self]])
@@ -5720,17 +5871,17 @@ pp_proc(self) == /\ pc[self] = "pp_proc"
                                  gthreads, gwhist, dwSt, dwW, dblTaken, dblW1, 
                                  dblW2, nextDW, ready, cwait, cnotif, cvHeld, 
                                  sdres, jpanic, sfst, slotSt, qrSent, qrWaker, 
-                                 dnState, dnWaker, parkTok, rv, rwb, rneed, 
-                                 dsl, atomic, strong, ppPending, ppClosed, 
-                                 ppNotify, ppNC, ppBP, ppDepth, ppAlive, 
-                                 ppHeld, inItems, inClosed, inWaker, pollFn, 
-                                 chuteFn, pwTaken, nextPoll, ppItem, pjLive, 
-                                 ppStage, stack, dead, sti, rq, sq, sj, ww, 
-                                 rsq, bown, bwk, bi, bcur, bw, bsp, jq, jj, 
-                                 jwk, fj, dq, dj, oq, oop, omode, oj, yq, yop, 
-                                 yclaimed, tq, top, af, wf, wop, sf, sctx, xf, 
-                                 cop, kj, pp, pwk, np, nbp, nres, dp, pf, pctx, 
-                                 pq, pj, pd, nq >>
+                                 dnState, dnWaker, parkTok, barGen, myBar, 
+                                 cdone, rv, rwb, rneed, dsl, atomic, strong, 
+                                 ppPending, ppClosed, ppNotify, ppNC, ppBP, 
+                                 ppDepth, ppAlive, ppHeld, inItems, inClosed, 
+                                 inWaker, pollFn, chuteFn, pwTaken, nextPoll, 
+                                 ppItem, pjLive, ppStage, stack, dead, sti, 
+                                 smax, rq, sq, sj, ww, rsq, bown, bwk, bi, 
+                                 bcur, bw, bsp, jq, jj, jwk, fj, dq, dj, oq, 
+                                 oop, omode, oj, yq, yop, yclaimed, tq, top, 
+                                 af, wf, wop, sf, sctx, xf, cop, kj, pp, pwk, 
+                                 np, nbp, nres, dp, pf, pctx, pq, pj, pd, nq >>
 
 pp_body(self) == /\ pc[self] = "pp_body"
                  /\ IF OpTab[PipeOp(pp[self])].g # 0 /\ OpTab[PipeOp(pp[self])].g \notin gfired
@@ -5762,16 +5913,16 @@ pp_body(self) == /\ pc[self] = "pp_body"
                                  dwSt, dwW, dblTaken, dblW1, dblW2, nextDW, 
                                  ready, cwait, cnotif, cvHeld, sdres, jpanic, 
                                  sfst, slotSt, qrSent, qrWaker, dnState, 
-                                 dnWaker, parkTok, rwb, rneed, dsl, atomic, 
-                                 strong, ppPending, ppClosed, ppNotify, ppNC, 
-                                 ppBP, ppDepth, ppAlive, ppHeld, inItems, 
-                                 inClosed, inWaker, pollFn, chuteFn, pwTaken, 
-                                 nextPoll, ppItem, pjLive, dead, sti, rq, sq, 
-                                 sj, ww, rsq, bown, bwk, bi, bcur, bw, bsp, jq, 
-                                 jj, jwk, fj, dq, dj, oq, oop, omode, oj, yq, 
-                                 yop, yclaimed, tq, top, af, wf, wop, sf, sctx, 
-                                 xf, cop, np, nbp, nres, dp, pf, pctx, pq, pj, 
-                                 pd, nq >>
+                                 dnWaker, parkTok, barGen, myBar, cdone, rwb, 
+                                 rneed, dsl, atomic, strong, ppPending, 
+                                 ppClosed, ppNotify, ppNC, ppBP, ppDepth, 
+                                 ppAlive, ppHeld, inItems, inClosed, inWaker, 
+                                 pollFn, chuteFn, pwTaken, nextPoll, ppItem, 
+                                 pjLive, dead, sti, smax, rq, sq, sj, ww, rsq, 
+                                 bown, bwk, bi, bcur, bw, bsp, jq, jj, jwk, fj, 
+                                 dq, dj, oq, oop, omode, oj, yq, yop, yclaimed, 
+                                 tq, top, af, wf, wop, sf, sctx, xf, cop, np, 
+                                 nbp, nres, dp, pf, pctx, pq, pj, pd, nq >>
 
 pp_resumed(self) == /\ pc[self] = "pp_resumed"
                     /\ ppStage' = [ppStage EXCEPT ![kj[self]] = 0]
@@ -5787,17 +5938,18 @@ pp_resumed(self) == /\ pc[self] = "pp_resumed"
                                     dwW, dblTaken, dblW1, dblW2, nextDW, ready, 
                                     cwait, cnotif, cvHeld, sdres, jpanic, sfst, 
                                     slotSt, qrSent, qrWaker, dnState, dnWaker, 
-                                    parkTok, rv, rwb, rneed, dsl, atomic, 
-                                    strong, ppPending, ppClosed, ppNotify, 
-                                    ppNC, ppBP, ppDepth, ppAlive, ppHeld, 
-                                    inItems, inClosed, inWaker, pollFn, 
-                                    chuteFn, pwTaken, nextPoll, ppItem, pjLive, 
-                                    stack, dead, sti, rq, sq, sj, ww, rsq, 
-                                    bown, bwk, bi, bcur, bw, bsp, jq, jj, jwk, 
-                                    fj, dq, dj, oq, oop, omode, oj, yq, yop, 
-                                    yclaimed, tq, top, af, wf, wop, sf, sctx, 
-                                    xf, cop, kj, pp, pwk, np, nbp, nres, dp, 
-                                    pf, pctx, pq, pj, pd, nq >>
+                                    parkTok, barGen, myBar, cdone, rv, rwb, 
+                                    rneed, dsl, atomic, strong, ppPending, 
+                                    ppClosed, ppNotify, ppNC, ppBP, ppDepth, 
+                                    ppAlive, ppHeld, inItems, inClosed, 
+                                    inWaker, pollFn, chuteFn, pwTaken, 
+                                    nextPoll, ppItem, pjLive, stack, dead, sti, 
+                                    smax, rq, sq, sj, ww, rsq, bown, bwk, bi, 
+                                    bcur, bw, bsp, jq, jj, jwk, fj, dq, dj, oq, 
+                                    oop, omode, oj, yq, yop, yclaimed, tq, top, 
+                                    af, wf, wop, sf, sctx, xf, cop, kj, pp, 
+                                    pwk, np, nbp, nres, dp, pf, pctx, pq, pj, 
+                                    pd, nq >>
 
 pp_push(self) == /\ pc[self] = "pp_push"
                  /\ ppPending' = [ppPending EXCEPT ![pp[self]] = Append(ppPending[pp[self]], 10 * ppItem[kj[self]])]
@@ -5811,16 +5963,17 @@ pp_push(self) == /\ pc[self] = "pp_push"
                                  gthreads, gwhist, dwSt, dwW, dblTaken, dblW1, 
                                  dblW2, nextDW, ready, cwait, cnotif, cvHeld, 
                                  sdres, jpanic, sfst, slotSt, qrSent, qrWaker, 
-                                 dnState, dnWaker, rv, rwb, rneed, dsl, atomic, 
-                                 strong, ppClosed, ppNC, ppBP, ppDepth, 
-                                 ppAlive, ppHeld, inItems, inClosed, inWaker, 
-                                 pollFn, chuteFn, pwTaken, nextPoll, ppItem, 
-                                 pjLive, ppStage, h, stack, dead, sti, rq, sq, 
-                                 sj, ww, rsq, bown, bwk, bi, bcur, bw, bsp, jq, 
-                                 jj, jwk, fj, dq, dj, oq, oop, omode, oj, yq, 
-                                 yop, yclaimed, tq, top, af, wf, wop, sf, sctx, 
-                                 xf, cop, kj, pp, pwk, np, nbp, nres, dp, pf, 
-                                 pctx, pq, pj, pd, nq >>
+                                 dnState, dnWaker, barGen, myBar, cdone, rv, 
+                                 rwb, rneed, dsl, atomic, strong, ppClosed, 
+                                 ppNC, ppBP, ppDepth, ppAlive, ppHeld, inItems, 
+                                 inClosed, inWaker, pollFn, chuteFn, pwTaken, 
+                                 nextPoll, ppItem, pjLive, ppStage, h, stack, 
+                                 dead, sti, smax, rq, sq, sj, ww, rsq, bown, 
+                                 bwk, bi, bcur, bw, bsp, jq, jj, jwk, fj, dq, 
+                                 dj, oq, oop, omode, oj, yq, yop, yclaimed, tq, 
+                                 top, af, wf, wop, sf, sctx, xf, cop, kj, pp, 
+                                 pwk, np, nbp, nres, dp, pf, pctx, pq, pj, pd, 
+                                 nq >>
 
 pi_in(self) == /\ pc[self] = "pi_in"
                /\ IF inItems[pp[self]] # << >>
@@ -5841,16 +5994,17 @@ pi_in(self) == /\ pc[self] = "pi_in"
                                gthreads, gwhist, dwSt, dwW, dblTaken, dblW1, 
                                dblW2, nextDW, ready, cwait, cnotif, cvHeld, 
                                sdres, jpanic, sfst, slotSt, qrSent, qrWaker, 
-                               dnState, dnWaker, parkTok, rv, rwb, rneed, dsl, 
-                               atomic, strong, ppPending, ppClosed, ppNotify, 
-                               ppNC, ppBP, ppDepth, ppAlive, ppHeld, inClosed, 
-                               inWaker, pollFn, chuteFn, pwTaken, nextPoll, 
-                               pjLive, ppStage, stack, dead, sti, rq, sq, sj, 
-                               ww, rsq, bown, bwk, bi, bcur, bw, bsp, jq, jj, 
-                               jwk, fj, dq, dj, oq, oop, omode, oj, yq, yop, 
-                               yclaimed, tq, top, af, wf, wop, sf, sctx, xf, 
-                               cop, kj, pp, pwk, np, nbp, nres, dp, pf, pctx, 
-                               pq, pj, pd, nq >>
+                               dnState, dnWaker, parkTok, barGen, myBar, cdone, 
+                               rv, rwb, rneed, dsl, atomic, strong, ppPending, 
+                               ppClosed, ppNotify, ppNC, ppBP, ppDepth, 
+                               ppAlive, ppHeld, inClosed, inWaker, pollFn, 
+                               chuteFn, pwTaken, nextPoll, pjLive, ppStage, 
+                               stack, dead, sti, smax, rq, sq, sj, ww, rsq, 
+                               bown, bwk, bi, bcur, bw, bsp, jq, jj, jwk, fj, 
+                               dq, dj, oq, oop, omode, oj, yq, yop, yclaimed, 
+                               tq, top, af, wf, wop, sf, sctx, xf, cop, kj, pp, 
+                               pwk, np, nbp, nres, dp, pf, pctx, pq, pj, pd, 
+                               nq >>
 
 pi_in2(self) == /\ pc[self] = "pi_in2"
                 /\ inWaker' = [inWaker EXCEPT ![pp[self]] = PW(kj[self])]
@@ -5878,11 +6032,12 @@ pi_in2(self) == /\ pc[self] = "pi_in2"
                                 gthreads, gwhist, dwSt, dwW, dblTaken, dblW1, 
                                 dblW2, nextDW, ready, cwait, cnotif, cvHeld, 
                                 sdres, jpanic, sfst, slotSt, qrSent, qrWaker, 
-                                dnState, dnWaker, parkTok, rwb, rneed, dsl, 
-                                atomic, strong, ppPending, ppClosed, ppNotify, 
-                                ppNC, ppBP, ppDepth, ppAlive, ppHeld, inClosed, 
-                                pollFn, chuteFn, pwTaken, nextPoll, pjLive, 
-                                ppStage, dead, sti, rq, sq, sj, ww, rsq, bown, 
+                                dnState, dnWaker, parkTok, barGen, myBar, 
+                                cdone, rwb, rneed, dsl, atomic, strong, 
+                                ppPending, ppClosed, ppNotify, ppNC, ppBP, 
+                                ppDepth, ppAlive, ppHeld, inClosed, pollFn, 
+                                chuteFn, pwTaken, nextPoll, pjLive, ppStage, 
+                                dead, sti, smax, rq, sq, sj, ww, rsq, bown, 
                                 bwk, bi, bcur, bw, bsp, jq, jj, jwk, fj, dq, 
                                 dj, oq, oop, omode, oj, yq, yop, yclaimed, tq, 
                                 top, af, wf, wop, sf, sctx, xf, cop, np, nbp, 
@@ -5908,16 +6063,17 @@ pp_dealloc(self) == /\ pc[self] = "pp_dealloc"
                                     dwW, dblTaken, dblW1, dblW2, nextDW, ready, 
                                     cwait, cnotif, cvHeld, sdres, jpanic, sfst, 
                                     slotSt, qrSent, qrWaker, dnState, dnWaker, 
-                                    parkTok, rwb, rneed, dsl, atomic, strong, 
-                                    ppPending, ppClosed, ppNotify, ppNC, ppBP, 
-                                    ppDepth, ppAlive, ppHeld, inItems, 
-                                    inClosed, inWaker, chuteFn, pwTaken, 
-                                    nextPoll, ppItem, pjLive, ppStage, dead, 
-                                    sti, rq, sq, sj, ww, rsq, bown, bwk, bi, 
-                                    bcur, bw, bsp, jq, jj, jwk, fj, dq, dj, oq, 
-                                    oop, omode, oj, yq, yop, yclaimed, tq, top, 
-                                    af, wf, wop, sf, sctx, xf, cop, np, nbp, 
-                                    nres, dp, pf, pctx, pq, pj, pd, nq >>
+                                    parkTok, barGen, myBar, cdone, rwb, rneed, 
+                                    dsl, atomic, strong, ppPending, ppClosed, 
+                                    ppNotify, ppNC, ppBP, ppDepth, ppAlive, 
+                                    ppHeld, inItems, inClosed, inWaker, 
+                                    chuteFn, pwTaken, nextPoll, ppItem, pjLive, 
+                                    ppStage, dead, sti, smax, rq, sq, sj, ww, 
+                                    rsq, bown, bwk, bi, bcur, bw, bsp, jq, jj, 
+                                    jwk, fj, dq, dj, oq, oop, omode, oj, yq, 
+                                    yop, yclaimed, tq, top, af, wf, wop, sf, 
+                                    sctx, xf, cop, np, nbp, nres, dp, pf, pctx, 
+                                    pq, pj, pd, nq >>
 
 PipePoll(self) == z_pp_entry(self) \/ pp_fn(self) \/ pp_bp(self)
                      \/ pp_clear(self) \/ pp_in(self) \/ pp_in2(self)
@@ -5958,16 +6114,16 @@ cn_poll(self) == /\ pc[self] = "cn_poll"
                                  gthreads, gwhist, dwSt, dwW, dblTaken, dblW1, 
                                  dblW2, nextDW, ready, cwait, cnotif, cvHeld, 
                                  sdres, jpanic, sfst, slotSt, qrSent, qrWaker, 
-                                 dnState, dnWaker, parkTok, rwb, rneed, dsl, 
-                                 atomic, strong, ppClosed, ppNC, ppDepth, 
-                                 ppAlive, ppHeld, inItems, inClosed, inWaker, 
-                                 pollFn, chuteFn, pwTaken, nextPoll, ppItem, 
-                                 pjLive, ppStage, h, dead, sti, rq, sq, sj, 
-                                 rsq, bown, bwk, bi, bcur, bw, bsp, jq, jj, 
-                                 jwk, fj, dq, dj, oq, oop, omode, oj, yq, yop, 
-                                 yclaimed, tq, top, af, wf, wop, sf, sctx, xf, 
-                                 cop, kj, pp, pwk, np, dp, pf, pctx, pq, pj, 
-                                 pd, nq >>
+                                 dnState, dnWaker, parkTok, barGen, myBar, 
+                                 cdone, rwb, rneed, dsl, atomic, strong, 
+                                 ppClosed, ppNC, ppDepth, ppAlive, ppHeld, 
+                                 inItems, inClosed, inWaker, pollFn, chuteFn, 
+                                 pwTaken, nextPoll, ppItem, pjLive, ppStage, h, 
+                                 dead, sti, smax, rq, sq, sj, rsq, bown, bwk, 
+                                 bi, bcur, bw, bsp, jq, jj, jwk, fj, dq, dj, 
+                                 oq, oop, omode, oj, yq, yop, yclaimed, tq, 
+                                 top, af, wf, wop, sf, sctx, xf, cop, kj, pp, 
+                                 pwk, np, dp, pf, pctx, pq, pj, pd, nq >>
 
 z_cn_after(self) == /\ pc[self] = "z_cn_after"
                     /\ IF rv[self] = 5
@@ -5987,17 +6143,17 @@ z_cn_after(self) == /\ pc[self] = "z_cn_after"
                                     dwW, dblTaken, dblW1, dblW2, nextDW, ready, 
                                     cwait, cnotif, cvHeld, sdres, jpanic, sfst, 
                                     slotSt, qrSent, qrWaker, dnState, dnWaker, 
-                                    parkTok, rv, rwb, rneed, dsl, atomic, 
-                                    strong, ppPending, ppClosed, ppNotify, 
-                                    ppNC, ppBP, ppDepth, ppAlive, ppHeld, 
-                                    inItems, inClosed, inWaker, pollFn, 
-                                    chuteFn, pwTaken, nextPoll, ppItem, pjLive, 
-                                    ppStage, dead, sti, rq, sq, sj, ww, rsq, 
-                                    bown, bwk, bi, bcur, bw, bsp, jq, jj, jwk, 
-                                    fj, dq, dj, oq, oop, omode, oj, yq, yop, 
-                                    yclaimed, tq, top, af, wf, wop, sf, sctx, 
-                                    xf, cop, kj, pp, pwk, dp, pf, pctx, pq, pj, 
-                                    pd, nq >>
+                                    parkTok, barGen, myBar, cdone, rv, rwb, 
+                                    rneed, dsl, atomic, strong, ppPending, 
+                                    ppClosed, ppNotify, ppNC, ppBP, ppDepth, 
+                                    ppAlive, ppHeld, inItems, inClosed, 
+                                    inWaker, pollFn, chuteFn, pwTaken, 
+                                    nextPoll, ppItem, pjLive, ppStage, dead, 
+                                    sti, smax, rq, sq, sj, ww, rsq, bown, bwk, 
+                                    bi, bcur, bw, bsp, jq, jj, jwk, fj, dq, dj, 
+                                    oq, oop, omode, oj, yq, yop, yclaimed, tq, 
+                                    top, af, wf, wop, sf, sctx, xf, cop, kj, 
+                                    pp, pwk, dp, pf, pctx, pq, pj, pd, nq >>
 
 cn_park(self) == /\ pc[self] = "cn_park"
                  /\ parkTok[self]
@@ -6010,16 +6166,17 @@ cn_park(self) == /\ pc[self] = "cn_park"
                                  gthreads, gwhist, dwSt, dwW, dblTaken, dblW1, 
                                  dblW2, nextDW, ready, cwait, cnotif, cvHeld, 
                                  sdres, jpanic, sfst, slotSt, qrSent, qrWaker, 
-                                 dnState, dnWaker, rv, rwb, rneed, dsl, atomic, 
-                                 strong, ppPending, ppClosed, ppNotify, ppNC, 
-                                 ppBP, ppDepth, ppAlive, ppHeld, inItems, 
-                                 inClosed, inWaker, pollFn, chuteFn, pwTaken, 
-                                 nextPoll, ppItem, pjLive, ppStage, h, stack, 
-                                 dead, sti, rq, sq, sj, ww, rsq, bown, bwk, bi, 
-                                 bcur, bw, bsp, jq, jj, jwk, fj, dq, dj, oq, 
-                                 oop, omode, oj, yq, yop, yclaimed, tq, top, 
-                                 af, wf, wop, sf, sctx, xf, cop, kj, pp, pwk, 
-                                 np, nbp, nres, dp, pf, pctx, pq, pj, pd, nq >>
+                                 dnState, dnWaker, barGen, myBar, cdone, rv, 
+                                 rwb, rneed, dsl, atomic, strong, ppPending, 
+                                 ppClosed, ppNotify, ppNC, ppBP, ppDepth, 
+                                 ppAlive, ppHeld, inItems, inClosed, inWaker, 
+                                 pollFn, chuteFn, pwTaken, nextPoll, ppItem, 
+                                 pjLive, ppStage, h, stack, dead, sti, smax, 
+                                 rq, sq, sj, ww, rsq, bown, bwk, bi, bcur, bw, 
+                                 bsp, jq, jj, jwk, fj, dq, dj, oq, oop, omode, 
+                                 oj, yq, yop, yclaimed, tq, top, af, wf, wop, 
+                                 sf, sctx, xf, cop, kj, pp, pwk, np, nbp, nres, 
+                                 dp, pf, pctx, pq, pj, pd, nq >>
 
 PipeNext(self) == cn_poll(self) \/ z_cn_after(self) \/ cn_park(self)
 
@@ -6043,16 +6200,16 @@ ps_drop(self) == /\ pc[self] = "ps_drop"
                                  gthreads, gwhist, dwSt, dwW, dblTaken, dblW1, 
                                  dblW2, nextDW, ready, cwait, cnotif, cvHeld, 
                                  sdres, jpanic, sfst, slotSt, qrSent, qrWaker, 
-                                 dnState, dnWaker, parkTok, rv, rwb, rneed, 
-                                 dsl, strong, ppNotify, ppNC, ppBP, ppDepth, 
-                                 ppAlive, ppHeld, inItems, inClosed, inWaker, 
-                                 pollFn, chuteFn, pwTaken, nextPoll, ppItem, 
-                                 pjLive, ppStage, h, dead, sti, rq, sq, sj, 
-                                 rsq, bown, bwk, bi, bcur, bw, bsp, jq, jj, 
-                                 jwk, fj, dq, dj, oq, oop, omode, oj, yq, yop, 
-                                 yclaimed, tq, top, af, wf, wop, sf, sctx, xf, 
-                                 cop, kj, pp, pwk, np, nbp, nres, dp, pf, pctx, 
-                                 pq, pj, pd, nq >>
+                                 dnState, dnWaker, parkTok, barGen, myBar, 
+                                 cdone, rv, rwb, rneed, dsl, strong, ppNotify, 
+                                 ppNC, ppBP, ppDepth, ppAlive, ppHeld, inItems, 
+                                 inClosed, inWaker, pollFn, chuteFn, pwTaken, 
+                                 nextPoll, ppItem, pjLive, ppStage, h, dead, 
+                                 sti, smax, rq, sq, sj, rsq, bown, bwk, bi, 
+                                 bcur, bw, bsp, jq, jj, jwk, fj, dq, dj, oq, 
+                                 oop, omode, oj, yq, yop, yclaimed, tq, top, 
+                                 af, wf, wop, sf, sctx, xf, cop, kj, pp, pwk, 
+                                 np, nbp, nres, dp, pf, pctx, pq, pj, pd, nq >>
 
 z_ps2(self) == /\ pc[self] = "z_ps2"
                /\ ppNC' = [ppNC EXCEPT ![dp[self]] = NoW]
@@ -6072,16 +6229,16 @@ z_ps2(self) == /\ pc[self] = "z_ps2"
                                dwSt, dwW, dblTaken, dblW1, dblW2, nextDW, 
                                ready, cwait, cnotif, cvHeld, sdres, jpanic, 
                                sfst, slotSt, qrSent, qrWaker, dnState, dnWaker, 
-                               parkTok, rv, rwb, rneed, dsl, atomic, strong, 
-                               ppPending, ppClosed, ppNotify, ppBP, ppDepth, 
-                               ppAlive, ppHeld, inItems, inClosed, inWaker, 
-                               pollFn, chuteFn, pwTaken, nextPoll, ppItem, 
-                               pjLive, ppStage, h, dead, sti, rq, ww, rsq, 
-                               bown, bwk, bi, bcur, bw, bsp, jq, jj, jwk, fj, 
-                               dq, dj, oq, oop, omode, oj, yq, yop, yclaimed, 
-                               tq, top, af, wf, wop, sf, sctx, xf, cop, kj, pp, 
-                               pwk, np, nbp, nres, dp, pf, pctx, pq, pj, pd, 
-                               nq >>
+                               parkTok, barGen, myBar, cdone, rv, rwb, rneed, 
+                               dsl, atomic, strong, ppPending, ppClosed, 
+                               ppNotify, ppBP, ppDepth, ppAlive, ppHeld, 
+                               inItems, inClosed, inWaker, pollFn, chuteFn, 
+                               pwTaken, nextPoll, ppItem, pjLive, ppStage, h, 
+                               dead, sti, smax, rq, ww, rsq, bown, bwk, bi, 
+                               bcur, bw, bsp, jq, jj, jwk, fj, dq, dj, oq, oop, 
+                               omode, oj, yq, yop, yclaimed, tq, top, af, wf, 
+                               wop, sf, sctx, xf, cop, kj, pp, pwk, np, nbp, 
+                               nres, dp, pf, pctx, pq, pj, pd, nq >>
 
 z_ps3(self) == /\ pc[self] = "z_ps3"
                /\ atomic' = [atomic EXCEPT ![self] = FALSE]
@@ -6095,16 +6252,16 @@ z_ps3(self) == /\ pc[self] = "z_ps3"
                                gthreads, gwhist, dwSt, dwW, dblTaken, dblW1, 
                                dblW2, nextDW, ready, cwait, cnotif, cvHeld, 
                                sdres, jpanic, sfst, slotSt, qrSent, qrWaker, 
-                               dnState, dnWaker, parkTok, rwb, rneed, dsl, 
-                               strong, ppPending, ppClosed, ppNotify, ppNC, 
-                               ppBP, ppDepth, ppHeld, inItems, inClosed, 
-                               inWaker, pollFn, chuteFn, pwTaken, nextPoll, 
-                               ppItem, pjLive, ppStage, h, stack, dead, sti, 
-                               rq, sq, sj, ww, rsq, bown, bwk, bi, bcur, bw, 
-                               bsp, jq, jj, jwk, fj, dq, dj, oq, oop, omode, 
-                               oj, yq, yop, yclaimed, tq, top, af, wf, wop, sf, 
-                               sctx, xf, cop, kj, pp, pwk, np, nbp, nres, dp, 
-                               pf, pctx, pq, pj, pd, nq >>
+                               dnState, dnWaker, parkTok, barGen, myBar, cdone, 
+                               rwb, rneed, dsl, strong, ppPending, ppClosed, 
+                               ppNotify, ppNC, ppBP, ppDepth, ppHeld, inItems, 
+                               inClosed, inWaker, pollFn, chuteFn, pwTaken, 
+                               nextPoll, ppItem, pjLive, ppStage, h, stack, 
+                               dead, sti, smax, rq, sq, sj, ww, rsq, bown, bwk, 
+                               bi, bcur, bw, bsp, jq, jj, jwk, fj, dq, dj, oq, 
+                               oop, omode, oj, yq, yop, yclaimed, tq, top, af, 
+                               wf, wop, sf, sctx, xf, cop, kj, pp, pwk, np, 
+                               nbp, nres, dp, pf, pctx, pq, pj, pd, nq >>
 
 z_ps_gc(self) == /\ pc[self] = "z_ps_gc"
                  /\ IF pollFn[dp[self]] /\ ~CtxAlive(dp[self])
@@ -6122,16 +6279,17 @@ z_ps_gc(self) == /\ pc[self] = "z_ps_gc"
                                  gthreads, gwhist, dwSt, dwW, dblTaken, dblW1, 
                                  dblW2, nextDW, ready, cwait, cnotif, cvHeld, 
                                  sdres, jpanic, sfst, slotSt, qrSent, qrWaker, 
-                                 dnState, dnWaker, parkTok, rv, rwb, rneed, 
-                                 dsl, atomic, strong, ppPending, ppClosed, 
-                                 ppNotify, ppNC, ppBP, ppDepth, ppAlive, 
-                                 ppHeld, inItems, inClosed, inWaker, chuteFn, 
-                                 pwTaken, nextPoll, ppItem, pjLive, ppStage, 
-                                 dead, sti, rq, sq, sj, ww, rsq, bown, bwk, bi, 
-                                 bcur, bw, bsp, jq, jj, jwk, fj, dq, dj, oq, 
-                                 oop, omode, oj, yq, yop, yclaimed, tq, top, 
-                                 af, wf, wop, sf, sctx, xf, cop, kj, pp, pwk, 
-                                 np, nbp, nres, pf, pctx, pq, pj, pd, nq >>
+                                 dnState, dnWaker, parkTok, barGen, myBar, 
+                                 cdone, rv, rwb, rneed, dsl, atomic, strong, 
+                                 ppPending, ppClosed, ppNotify, ppNC, ppBP, 
+                                 ppDepth, ppAlive, ppHeld, inItems, inClosed, 
+                                 inWaker, chuteFn, pwTaken, nextPoll, ppItem, 
+                                 pjLive, ppStage, dead, sti, smax, rq, sq, sj, 
+                                 ww, rsq, bown, bwk, bi, bcur, bw, bsp, jq, jj, 
+                                 jwk, fj, dq, dj, oq, oop, omode, oj, yq, yop, 
+                                 yclaimed, tq, top, af, wf, wop, sf, sctx, xf, 
+                                 cop, kj, pp, pwk, np, nbp, nres, pf, pctx, pq, 
+                                 pj, pd, nq >>
 
 PipeDrop(self) == ps_drop(self) \/ z_ps2(self) \/ z_ps3(self)
                      \/ z_ps_gc(self)
@@ -6146,16 +6304,17 @@ ds_max(self) == /\ pc[self] = "ds_max"
                                 gthreads, gwhist, dwSt, dwW, dblTaken, dblW1, 
                                 dblW2, nextDW, ready, cwait, cnotif, cvHeld, 
                                 sdres, jpanic, sfst, slotSt, qrSent, qrWaker, 
-                                dnState, dnWaker, parkTok, rv, rwb, rneed, dsl, 
-                                atomic, strong, ppPending, ppClosed, ppNotify, 
-                                ppNC, ppBP, ppDepth, ppAlive, ppHeld, inItems, 
-                                inClosed, inWaker, pollFn, chuteFn, pwTaken, 
-                                nextPoll, ppItem, pjLive, ppStage, h, stack, 
-                                dead, sti, rq, sq, sj, ww, rsq, bown, bwk, bi, 
-                                bcur, bw, bsp, jq, jj, jwk, fj, dq, dj, oq, 
-                                oop, omode, oj, yq, yop, yclaimed, tq, top, af, 
-                                wf, wop, sf, sctx, xf, cop, kj, pp, pwk, np, 
-                                nbp, nres, dp, pf, pctx, pq, pj, pd, nq >>
+                                dnState, dnWaker, parkTok, barGen, myBar, 
+                                cdone, rv, rwb, rneed, dsl, atomic, strong, 
+                                ppPending, ppClosed, ppNotify, ppNC, ppBP, 
+                                ppDepth, ppAlive, ppHeld, inItems, inClosed, 
+                                inWaker, pollFn, chuteFn, pwTaken, nextPoll, 
+                                ppItem, pjLive, ppStage, h, stack, dead, sti, 
+                                smax, rq, sq, sj, ww, rsq, bown, bwk, bi, bcur, 
+                                bw, bsp, jq, jj, jwk, fj, dq, dj, oq, oop, 
+                                omode, oj, yq, yop, yclaimed, tq, top, af, wf, 
+                                wop, sf, sctx, xf, cop, kj, pp, pwk, np, nbp, 
+                                nres, dp, pf, pctx, pq, pj, pd, nq >>
 
 ds_pop(self) == /\ pc[self] = "ds_pop"
                 /\ thrHeld = ""
@@ -6175,16 +6334,16 @@ ds_pop(self) == /\ pc[self] = "ds_pop"
                                 dwW, dblTaken, dblW1, dblW2, nextDW, ready, 
                                 cwait, cnotif, cvHeld, sdres, jpanic, sfst, 
                                 slotSt, qrSent, qrWaker, dnState, dnWaker, 
-                                parkTok, rwb, rneed, atomic, strong, ppPending, 
-                                ppClosed, ppNotify, ppNC, ppBP, ppDepth, 
-                                ppAlive, ppHeld, inItems, inClosed, inWaker, 
-                                pollFn, chuteFn, pwTaken, nextPoll, ppItem, 
-                                pjLive, ppStage, h, dead, sti, rq, sq, sj, ww, 
-                                rsq, bown, bwk, bi, bcur, bw, bsp, jq, jj, jwk, 
-                                fj, dq, dj, oq, oop, omode, oj, yq, yop, 
-                                yclaimed, tq, top, af, wf, wop, sf, sctx, xf, 
-                                cop, kj, pp, pwk, np, nbp, nres, dp, pf, pctx, 
-                                pq, pj, pd, nq >>
+                                parkTok, barGen, myBar, cdone, rwb, rneed, 
+                                atomic, strong, ppPending, ppClosed, ppNotify, 
+                                ppNC, ppBP, ppDepth, ppAlive, ppHeld, inItems, 
+                                inClosed, inWaker, pollFn, chuteFn, pwTaken, 
+                                nextPoll, ppItem, pjLive, ppStage, h, dead, 
+                                sti, smax, rq, sq, sj, ww, rsq, bown, bwk, bi, 
+                                bcur, bw, bsp, jq, jj, jwk, fj, dq, dj, oq, 
+                                oop, omode, oj, yq, yop, yclaimed, tq, top, af, 
+                                wf, wop, sf, sctx, xf, cop, kj, pp, pwk, np, 
+                                nbp, nres, dp, pf, pctx, pq, pj, pd, nq >>
 
 ds_join(self) == /\ pc[self] = "ds_join"
                  /\ pfin[Head(dsl[self])]
@@ -6203,16 +6362,17 @@ ds_join(self) == /\ pc[self] = "ds_join"
                                  gthreads, gwhist, dwSt, dwW, dblTaken, dblW1, 
                                  dblW2, nextDW, ready, cwait, cnotif, cvHeld, 
                                  sdres, jpanic, sfst, slotSt, qrSent, qrWaker, 
-                                 dnState, dnWaker, parkTok, rwb, rneed, atomic, 
-                                 strong, ppPending, ppClosed, ppNotify, ppNC, 
-                                 ppBP, ppDepth, ppAlive, ppHeld, inItems, 
-                                 inClosed, inWaker, pollFn, chuteFn, pwTaken, 
-                                 nextPoll, ppItem, pjLive, ppStage, dead, sti, 
-                                 rq, sq, sj, ww, rsq, bown, bwk, bi, bcur, bw, 
-                                 bsp, jq, jj, jwk, fj, dq, dj, oq, oop, omode, 
-                                 oj, yq, yop, yclaimed, tq, top, af, wf, wop, 
-                                 sf, sctx, xf, cop, kj, pp, pwk, np, nbp, nres, 
-                                 dp, pf, pctx, pq, pj, pd, nq >>
+                                 dnState, dnWaker, parkTok, barGen, myBar, 
+                                 cdone, rwb, rneed, atomic, strong, ppPending, 
+                                 ppClosed, ppNotify, ppNC, ppBP, ppDepth, 
+                                 ppAlive, ppHeld, inItems, inClosed, inWaker, 
+                                 pollFn, chuteFn, pwTaken, nextPoll, ppItem, 
+                                 pjLive, ppStage, dead, sti, smax, rq, sq, sj, 
+                                 ww, rsq, bown, bwk, bi, bcur, bw, bsp, jq, jj, 
+                                 jwk, fj, dq, dj, oq, oop, omode, oj, yq, yop, 
+                                 yclaimed, tq, top, af, wf, wop, sf, sctx, xf, 
+                                 cop, kj, pp, pwk, np, nbp, nres, dp, pf, pctx, 
+                                 pq, pj, pd, nq >>
 
 Despawn(self) == ds_max(self) \/ ds_pop(self) \/ ds_join(self)
 
@@ -6283,16 +6443,17 @@ pf_decide(self) == /\ pc[self] = "pf_decide"
                                    dwW, dblTaken, dblW1, dblW2, nextDW, ready, 
                                    cwait, cnotif, cvHeld, sdres, jpanic, sfst, 
                                    slotSt, qrSent, qrWaker, dnState, dnWaker, 
-                                   parkTok, rwb, rneed, dsl, atomic, strong, 
-                                   ppPending, ppClosed, ppNotify, ppNC, ppBP, 
-                                   ppDepth, ppAlive, ppHeld, inItems, inClosed, 
-                                   inWaker, pollFn, chuteFn, pwTaken, nextPoll, 
-                                   ppItem, pjLive, ppStage, h, dead, sti, rq, 
-                                   sq, sj, ww, rsq, bown, bwk, bi, bcur, bw, 
-                                   bsp, jq, jj, jwk, fj, dq, dj, oq, oop, 
-                                   omode, oj, yq, yop, yclaimed, tq, top, af, 
-                                   wf, wop, sf, sctx, xf, cop, kj, pp, pwk, np, 
-                                   nbp, nres, dp, nq >>
+                                   parkTok, barGen, myBar, cdone, rwb, rneed, 
+                                   dsl, atomic, strong, ppPending, ppClosed, 
+                                   ppNotify, ppNC, ppBP, ppDepth, ppAlive, 
+                                   ppHeld, inItems, inClosed, inWaker, pollFn, 
+                                   chuteFn, pwTaken, nextPoll, ppItem, pjLive, 
+                                   ppStage, h, dead, sti, smax, rq, sq, sj, ww, 
+                                   rsq, bown, bwk, bi, bcur, bw, bsp, jq, jj, 
+                                   jwk, fj, dq, dj, oq, oop, omode, oj, yq, 
+                                   yop, yclaimed, tq, top, af, wf, wop, sf, 
+                                   sctx, xf, cop, kj, pp, pwk, np, nbp, nres, 
+                                   dp, nq >>
 
 dq_res(self) == /\ pc[self] = "dq_res"
                 /\ IF fres[pf[self]] = "some"
@@ -6312,16 +6473,17 @@ dq_res(self) == /\ pc[self] = "dq_res"
                                 gwhist, dwSt, dwW, dblTaken, dblW1, dblW2, 
                                 nextDW, ready, cwait, cnotif, cvHeld, sdres, 
                                 jpanic, sfst, slotSt, qrSent, qrWaker, dnState, 
-                                dnWaker, parkTok, rwb, rneed, dsl, atomic, 
-                                strong, ppPending, ppClosed, ppNotify, ppNC, 
-                                ppBP, ppDepth, ppAlive, ppHeld, inItems, 
-                                inClosed, inWaker, pollFn, chuteFn, pwTaken, 
-                                nextPoll, ppItem, pjLive, ppStage, h, stack, 
-                                dead, sti, rq, sq, sj, ww, rsq, bown, bwk, bi, 
-                                bcur, bw, bsp, jq, jj, jwk, fj, dq, dj, oq, 
-                                oop, omode, oj, yq, yop, yclaimed, tq, top, af, 
-                                wf, wop, sf, sctx, xf, cop, kj, pp, pwk, np, 
-                                nbp, nres, dp, pf, pctx, pq, pj, pd, nq >>
+                                dnWaker, parkTok, barGen, myBar, cdone, rwb, 
+                                rneed, dsl, atomic, strong, ppPending, 
+                                ppClosed, ppNotify, ppNC, ppBP, ppDepth, 
+                                ppAlive, ppHeld, inItems, inClosed, inWaker, 
+                                pollFn, chuteFn, pwTaken, nextPoll, ppItem, 
+                                pjLive, ppStage, h, stack, dead, sti, smax, rq, 
+                                sq, sj, ww, rsq, bown, bwk, bi, bcur, bw, bsp, 
+                                jq, jj, jwk, fj, dq, dj, oq, oop, omode, oj, 
+                                yq, yop, yclaimed, tq, top, af, wf, wop, sf, 
+                                sctx, xf, cop, kj, pp, pwk, np, nbp, nres, dp, 
+                                pf, pctx, pq, pj, pd, nq >>
 
 dq_deq(self) == /\ pc[self] = "dq_deq"
                 /\ IF qstate[pq[self]] \in Waiting \/ jobs[pq[self]] = << >>
@@ -6349,16 +6511,16 @@ dq_deq(self) == /\ pc[self] = "dq_deq"
                                 gwhist, dwSt, dwW, dblTaken, dblW1, dblW2, 
                                 ready, cwait, cnotif, cvHeld, sdres, jpanic, 
                                 sfst, slotSt, qrSent, qrWaker, dnState, 
-                                dnWaker, parkTok, rv, rwb, rneed, dsl, atomic, 
-                                strong, ppPending, ppClosed, ppNotify, ppNC, 
-                                ppBP, ppDepth, ppAlive, ppHeld, inItems, 
-                                inClosed, inWaker, pollFn, chuteFn, pwTaken, 
-                                nextPoll, ppItem, pjLive, ppStage, h, dead, 
-                                sti, rq, sq, sj, ww, rsq, bown, bwk, bi, bcur, 
-                                bw, bsp, fj, dq, dj, oq, oop, omode, oj, yq, 
-                                yop, yclaimed, tq, top, af, wf, wop, sf, sctx, 
-                                xf, cop, kj, pp, pwk, np, nbp, nres, dp, pf, 
-                                pctx, pq, nq >>
+                                dnWaker, parkTok, barGen, myBar, cdone, rv, 
+                                rwb, rneed, dsl, atomic, strong, ppPending, 
+                                ppClosed, ppNotify, ppNC, ppBP, ppDepth, 
+                                ppAlive, ppHeld, inItems, inClosed, inWaker, 
+                                pollFn, chuteFn, pwTaken, nextPoll, ppItem, 
+                                pjLive, ppStage, h, dead, sti, smax, rq, sq, 
+                                sj, ww, rsq, bown, bwk, bi, bcur, bw, bsp, fj, 
+                                dq, dj, oq, oop, omode, oj, yq, yop, yclaimed, 
+                                tq, top, af, wf, wop, sf, sctx, xf, cop, kj, 
+                                pp, pwk, np, nbp, nres, dp, pf, pctx, pq, nq >>
 
 z_dq_after(self) == /\ pc[self] = "z_dq_after"
                     /\ IF rv[self] = 5
@@ -6391,17 +6553,18 @@ z_dq_after(self) == /\ pc[self] = "z_dq_after"
                                     dwW, dblTaken, dblW1, dblW2, nextDW, ready, 
                                     cwait, cnotif, cvHeld, sdres, jpanic, sfst, 
                                     slotSt, qrSent, qrWaker, dnState, dnWaker, 
-                                    parkTok, rv, rwb, rneed, dsl, atomic, 
-                                    strong, ppPending, ppClosed, ppNotify, 
-                                    ppNC, ppBP, ppDepth, ppAlive, ppHeld, 
-                                    inItems, inClosed, inWaker, pollFn, 
-                                    chuteFn, pwTaken, nextPoll, ppItem, pjLive, 
-                                    ppStage, h, dead, sti, rq, sq, sj, ww, rsq, 
-                                    bown, bwk, bi, bcur, bw, bsp, jq, jj, jwk, 
-                                    dq, dj, oq, oop, omode, oj, yq, yop, 
-                                    yclaimed, tq, top, af, wf, wop, sf, sctx, 
-                                    xf, cop, kj, pp, pwk, np, nbp, nres, dp, 
-                                    pf, pctx, pq, pj, pd, nq >>
+                                    parkTok, barGen, myBar, cdone, rv, rwb, 
+                                    rneed, dsl, atomic, strong, ppPending, 
+                                    ppClosed, ppNotify, ppNC, ppBP, ppDepth, 
+                                    ppAlive, ppHeld, inItems, inClosed, 
+                                    inWaker, pollFn, chuteFn, pwTaken, 
+                                    nextPoll, ppItem, pjLive, ppStage, h, dead, 
+                                    sti, smax, rq, sq, sj, ww, rsq, bown, bwk, 
+                                    bi, bcur, bw, bsp, jq, jj, jwk, dq, dj, oq, 
+                                    oop, omode, oj, yq, yop, yclaimed, tq, top, 
+                                    af, wf, wop, sf, sctx, xf, cop, kj, pp, 
+                                    pwk, np, nbp, nres, dp, pf, pctx, pq, pj, 
+                                    pd, nq >>
 
 dq_requeue(self) == /\ pc[self] = "dq_requeue"
                     /\ jobs' = [jobs EXCEPT ![pq[self]] = << pj[self] >> \o jobs[pq[self]]]
@@ -6414,17 +6577,18 @@ dq_requeue(self) == /\ pc[self] = "dq_requeue"
                                     dwW, dblTaken, dblW1, dblW2, nextDW, ready, 
                                     cwait, cnotif, cvHeld, sdres, jpanic, sfst, 
                                     slotSt, qrSent, qrWaker, dnState, dnWaker, 
-                                    parkTok, rv, rwb, rneed, dsl, atomic, 
-                                    strong, ppPending, ppClosed, ppNotify, 
-                                    ppNC, ppBP, ppDepth, ppAlive, ppHeld, 
-                                    inItems, inClosed, inWaker, pollFn, 
-                                    chuteFn, pwTaken, nextPoll, ppItem, pjLive, 
-                                    ppStage, h, stack, dead, sti, rq, sq, sj, 
-                                    ww, rsq, bown, bwk, bi, bcur, bw, bsp, jq, 
-                                    jj, jwk, fj, dq, dj, oq, oop, omode, oj, 
-                                    yq, yop, yclaimed, tq, top, af, wf, wop, 
-                                    sf, sctx, xf, cop, kj, pp, pwk, np, nbp, 
-                                    nres, dp, pf, pctx, pq, pj, pd, nq >>
+                                    parkTok, barGen, myBar, cdone, rv, rwb, 
+                                    rneed, dsl, atomic, strong, ppPending, 
+                                    ppClosed, ppNotify, ppNC, ppBP, ppDepth, 
+                                    ppAlive, ppHeld, inItems, inClosed, 
+                                    inWaker, pollFn, chuteFn, pwTaken, 
+                                    nextPoll, ppItem, pjLive, ppStage, h, 
+                                    stack, dead, sti, smax, rq, sq, sj, ww, 
+                                    rsq, bown, bwk, bi, bcur, bw, bsp, jq, jj, 
+                                    jwk, fj, dq, dj, oq, oop, omode, oj, yq, 
+                                    yop, yclaimed, tq, top, af, wf, wop, sf, 
+                                    sctx, xf, cop, kj, pp, pwk, np, nbp, nres, 
+                                    dp, pf, pctx, pq, pj, pd, nq >>
 
 dq_res2(self) == /\ pc[self] = "dq_res2"
                  /\ IF fres[pf[self]] = "some"
@@ -6444,12 +6608,13 @@ dq_res2(self) == /\ pc[self] = "dq_res2"
                                  gwhist, dwSt, dwW, dblTaken, dblW1, dblW2, 
                                  nextDW, ready, cwait, cnotif, cvHeld, sdres, 
                                  jpanic, sfst, slotSt, qrSent, qrWaker, 
-                                 dnState, dnWaker, parkTok, rwb, rneed, dsl, 
-                                 atomic, strong, ppPending, ppClosed, ppNotify, 
-                                 ppNC, ppBP, ppDepth, ppAlive, ppHeld, inItems, 
-                                 inClosed, inWaker, pollFn, chuteFn, pwTaken, 
-                                 nextPoll, ppItem, pjLive, ppStage, h, stack, 
-                                 dead, sti, rq, sq, sj, ww, rsq, bown, bwk, bi, 
+                                 dnState, dnWaker, parkTok, barGen, myBar, 
+                                 cdone, rwb, rneed, dsl, atomic, strong, 
+                                 ppPending, ppClosed, ppNotify, ppNC, ppBP, 
+                                 ppDepth, ppAlive, ppHeld, inItems, inClosed, 
+                                 inWaker, pollFn, chuteFn, pwTaken, nextPoll, 
+                                 ppItem, pjLive, ppStage, h, stack, dead, sti, 
+                                 smax, rq, sq, sj, ww, rsq, bown, bwk, bi, 
                                  bcur, bw, bsp, jq, jj, jwk, fj, dq, dj, oq, 
                                  oop, omode, oj, yq, yop, yclaimed, tq, top, 
                                  af, wf, wop, sf, sctx, xf, cop, kj, pp, pwk, 
@@ -6466,13 +6631,14 @@ dq_waitwake(self) == /\ pc[self] = "dq_waitwake"
                                      dwSt, dwW, dblTaken, dblW1, dblW2, nextDW, 
                                      ready, cwait, cnotif, cvHeld, sdres, 
                                      jpanic, sfst, slotSt, qrSent, qrWaker, 
-                                     dnState, dnWaker, parkTok, rv, rwb, rneed, 
-                                     dsl, atomic, strong, ppPending, ppClosed, 
-                                     ppNotify, ppNC, ppBP, ppDepth, ppAlive, 
-                                     ppHeld, inItems, inClosed, inWaker, 
-                                     pollFn, chuteFn, pwTaken, nextPoll, 
-                                     ppItem, pjLive, ppStage, h, stack, dead, 
-                                     sti, rq, sq, sj, ww, rsq, bown, bwk, bi, 
+                                     dnState, dnWaker, parkTok, barGen, myBar, 
+                                     cdone, rv, rwb, rneed, dsl, atomic, 
+                                     strong, ppPending, ppClosed, ppNotify, 
+                                     ppNC, ppBP, ppDepth, ppAlive, ppHeld, 
+                                     inItems, inClosed, inWaker, pollFn, 
+                                     chuteFn, pwTaken, nextPoll, ppItem, 
+                                     pjLive, ppStage, h, stack, dead, sti, 
+                                     smax, rq, sq, sj, ww, rsq, bown, bwk, bi, 
                                      bcur, bw, bsp, jq, jj, jwk, fj, dq, dj, 
                                      oq, oop, omode, oj, yq, yop, yclaimed, tq, 
                                      top, af, wf, wop, sf, sctx, xf, cop, kj, 
@@ -6499,16 +6665,17 @@ dq_ww1(self) == /\ pc[self] = "dq_ww1"
                                 gthreads, gwhist, dblTaken, dblW1, dblW2, 
                                 nextDW, ready, cwait, cnotif, cvHeld, sdres, 
                                 jpanic, sfst, slotSt, qrSent, qrWaker, dnState, 
-                                dnWaker, parkTok, rv, rwb, rneed, dsl, atomic, 
-                                strong, ppPending, ppClosed, ppNotify, ppNC, 
-                                ppBP, ppDepth, ppAlive, ppHeld, inItems, 
-                                inClosed, inWaker, pollFn, chuteFn, pwTaken, 
-                                nextPoll, ppItem, pjLive, ppStage, h, dead, 
-                                sti, rq, sq, sj, rsq, bown, bwk, bi, bcur, bw, 
-                                bsp, jq, jj, jwk, fj, dq, dj, oq, oop, omode, 
-                                oj, yq, yop, yclaimed, tq, top, af, wf, wop, 
-                                sf, sctx, xf, cop, kj, pp, pwk, np, nbp, nres, 
-                                dp, pf, pctx, pq, pj, pd, nq >>
+                                dnWaker, parkTok, barGen, myBar, cdone, rv, 
+                                rwb, rneed, dsl, atomic, strong, ppPending, 
+                                ppClosed, ppNotify, ppNC, ppBP, ppDepth, 
+                                ppAlive, ppHeld, inItems, inClosed, inWaker, 
+                                pollFn, chuteFn, pwTaken, nextPoll, ppItem, 
+                                pjLive, ppStage, h, dead, sti, smax, rq, sq, 
+                                sj, rsq, bown, bwk, bi, bcur, bw, bsp, jq, jj, 
+                                jwk, fj, dq, dj, oq, oop, omode, oj, yq, yop, 
+                                yclaimed, tq, top, af, wf, wop, sf, sctx, xf, 
+                                cop, kj, pp, pwk, np, nbp, nres, dp, pf, pctx, 
+                                pq, pj, pd, nq >>
 
 z_dq_ready(self) == /\ pc[self] = "z_dq_ready"
                     /\ pc' = [pc EXCEPT ![self] = Head(stack[self]).pc]
@@ -6526,17 +6693,17 @@ z_dq_ready(self) == /\ pc[self] = "z_dq_ready"
                                     dwW, dblTaken, dblW1, dblW2, nextDW, ready, 
                                     cwait, cnotif, cvHeld, sdres, jpanic, sfst, 
                                     slotSt, qrSent, qrWaker, dnState, dnWaker, 
-                                    parkTok, rv, rwb, rneed, dsl, atomic, 
-                                    strong, ppPending, ppClosed, ppNotify, 
-                                    ppNC, ppBP, ppDepth, ppAlive, ppHeld, 
-                                    inItems, inClosed, inWaker, pollFn, 
-                                    chuteFn, pwTaken, nextPoll, ppItem, pjLive, 
-                                    ppStage, h, dead, sti, rq, sq, sj, ww, rsq, 
-                                    bown, bwk, bi, bcur, bw, bsp, jq, jj, jwk, 
-                                    fj, dq, dj, oq, oop, omode, oj, yq, yop, 
-                                    yclaimed, tq, top, af, wf, wop, sf, sctx, 
-                                    xf, cop, kj, pp, pwk, np, nbp, nres, dp, 
-                                    nq >>
+                                    parkTok, barGen, myBar, cdone, rv, rwb, 
+                                    rneed, dsl, atomic, strong, ppPending, 
+                                    ppClosed, ppNotify, ppNC, ppBP, ppDepth, 
+                                    ppAlive, ppHeld, inItems, inClosed, 
+                                    inWaker, pollFn, chuteFn, pwTaken, 
+                                    nextPoll, ppItem, pjLive, ppStage, h, dead, 
+                                    sti, smax, rq, sq, sj, ww, rsq, bown, bwk, 
+                                    bi, bcur, bw, bsp, jq, jj, jwk, fj, dq, dj, 
+                                    oq, oop, omode, oj, yq, yop, yclaimed, tq, 
+                                    top, af, wf, wop, sf, sctx, xf, cop, kj, 
+                                    pp, pwk, np, nbp, nres, dp, nq >>
 
 dq_setwaker(self) == /\ pc[self] = "dq_setwaker"
                      /\ fwaker' = [fwaker EXCEPT ![pf[self]] = pctx[self]]
@@ -6549,13 +6716,14 @@ dq_setwaker(self) == /\ pc[self] = "dq_setwaker"
                                      dwW, dblTaken, dblW1, dblW2, nextDW, 
                                      ready, cwait, cnotif, cvHeld, sdres, 
                                      jpanic, sfst, slotSt, qrSent, qrWaker, 
-                                     dnState, dnWaker, parkTok, rv, rwb, rneed, 
-                                     dsl, atomic, strong, ppPending, ppClosed, 
-                                     ppNotify, ppNC, ppBP, ppDepth, ppAlive, 
-                                     ppHeld, inItems, inClosed, inWaker, 
-                                     pollFn, chuteFn, pwTaken, nextPoll, 
-                                     ppItem, pjLive, ppStage, h, stack, dead, 
-                                     sti, rq, sq, sj, ww, rsq, bown, bwk, bi, 
+                                     dnState, dnWaker, parkTok, barGen, myBar, 
+                                     cdone, rv, rwb, rneed, dsl, atomic, 
+                                     strong, ppPending, ppClosed, ppNotify, 
+                                     ppNC, ppBP, ppDepth, ppAlive, ppHeld, 
+                                     inItems, inClosed, inWaker, pollFn, 
+                                     chuteFn, pwTaken, nextPoll, ppItem, 
+                                     pjLive, ppStage, h, stack, dead, sti, 
+                                     smax, rq, sq, sj, ww, rsq, bown, bwk, bi, 
                                      bcur, bw, bsp, jq, jj, jwk, fj, dq, dj, 
                                      oq, oop, omode, oj, yq, yop, yclaimed, tq, 
                                      top, af, wf, wop, sf, sctx, xf, cop, kj, 
@@ -6574,18 +6742,18 @@ dq_waitpoll(self) == /\ pc[self] = "dq_waitpoll"
                                      dblW1, dblW2, nextDW, ready, cwait, 
                                      cnotif, cvHeld, sdres, jpanic, sfst, 
                                      slotSt, qrSent, qrWaker, dnState, dnWaker, 
-                                     parkTok, rv, rwb, rneed, dsl, atomic, 
-                                     strong, ppPending, ppClosed, ppNotify, 
-                                     ppNC, ppBP, ppDepth, ppAlive, ppHeld, 
-                                     inItems, inClosed, inWaker, pollFn, 
-                                     chuteFn, pwTaken, nextPoll, ppItem, 
-                                     pjLive, ppStage, h, stack, dead, sti, rq, 
-                                     sq, sj, ww, rsq, bown, bwk, bi, bcur, bw, 
-                                     bsp, jq, jj, jwk, fj, dq, dj, oq, oop, 
-                                     omode, oj, yq, yop, yclaimed, tq, top, af, 
-                                     wf, wop, sf, sctx, xf, cop, kj, pp, pwk, 
-                                     np, nbp, nres, dp, pf, pctx, pq, pj, pd, 
-                                     nq >>
+                                     parkTok, barGen, myBar, cdone, rv, rwb, 
+                                     rneed, dsl, atomic, strong, ppPending, 
+                                     ppClosed, ppNotify, ppNC, ppBP, ppDepth, 
+                                     ppAlive, ppHeld, inItems, inClosed, 
+                                     inWaker, pollFn, chuteFn, pwTaken, 
+                                     nextPoll, ppItem, pjLive, ppStage, h, 
+                                     stack, dead, sti, smax, rq, sq, sj, ww, 
+                                     rsq, bown, bwk, bi, bcur, bw, bsp, jq, jj, 
+                                     jwk, fj, dq, dj, oq, oop, omode, oj, yq, 
+                                     yop, yclaimed, tq, top, af, wf, wop, sf, 
+                                     sctx, xf, cop, kj, pp, pwk, np, nbp, nres, 
+                                     dp, pf, pctx, pq, pj, pd, nq >>
 
 dq_ww2(self) == /\ pc[self] = "dq_ww2"
                 /\ dblW1' = [dblW1 EXCEPT ![pd[self]] = WQ(pq[self])]
@@ -6609,16 +6777,16 @@ dq_ww2(self) == /\ pc[self] = "dq_ww2"
                                 gthreads, gwhist, dblTaken, nextDW, ready, 
                                 cwait, cnotif, cvHeld, sdres, jpanic, sfst, 
                                 slotSt, qrSent, qrWaker, dnState, dnWaker, 
-                                parkTok, rv, rwb, rneed, dsl, atomic, strong, 
-                                ppPending, ppClosed, ppNotify, ppNC, ppBP, 
-                                ppDepth, ppAlive, ppHeld, inItems, inClosed, 
-                                inWaker, pollFn, chuteFn, pwTaken, nextPoll, 
-                                ppItem, pjLive, ppStage, h, dead, sti, rq, sq, 
-                                sj, rsq, bown, bwk, bi, bcur, bw, bsp, jq, jj, 
-                                jwk, fj, dq, dj, oq, oop, omode, oj, yq, yop, 
-                                yclaimed, tq, top, af, wf, wop, sf, sctx, xf, 
-                                cop, kj, pp, pwk, np, nbp, nres, dp, pf, pctx, 
-                                pq, pj, pd, nq >>
+                                parkTok, barGen, myBar, cdone, rv, rwb, rneed, 
+                                dsl, atomic, strong, ppPending, ppClosed, 
+                                ppNotify, ppNC, ppBP, ppDepth, ppAlive, ppHeld, 
+                                inItems, inClosed, inWaker, pollFn, chuteFn, 
+                                pwTaken, nextPoll, ppItem, pjLive, ppStage, h, 
+                                dead, sti, smax, rq, sq, sj, rsq, bown, bwk, 
+                                bi, bcur, bw, bsp, jq, jj, jwk, fj, dq, dj, oq, 
+                                oop, omode, oj, yq, yop, yclaimed, tq, top, af, 
+                                wf, wop, sf, sctx, xf, cop, kj, pp, pwk, np, 
+                                nbp, nres, dp, pf, pctx, pq, pj, pd, nq >>
 
 z_dq_pending(self) == /\ pc[self] = "z_dq_pending"
                       /\ rv' = [rv EXCEPT ![self] = 5]
@@ -6637,18 +6805,18 @@ z_dq_pending(self) == /\ pc[self] = "z_dq_pending"
                                       dwSt, dwW, dblTaken, dblW1, dblW2, 
                                       nextDW, ready, cwait, cnotif, cvHeld, 
                                       sdres, jpanic, sfst, slotSt, qrSent, 
-                                      qrWaker, dnState, dnWaker, parkTok, rwb, 
-                                      rneed, dsl, atomic, strong, ppPending, 
-                                      ppClosed, ppNotify, ppNC, ppBP, ppDepth, 
-                                      ppAlive, ppHeld, inItems, inClosed, 
-                                      inWaker, pollFn, chuteFn, pwTaken, 
-                                      nextPoll, ppItem, pjLive, ppStage, h, 
-                                      dead, sti, rq, sq, sj, ww, rsq, bown, 
-                                      bwk, bi, bcur, bw, bsp, jq, jj, jwk, fj, 
-                                      dq, dj, oq, oop, omode, oj, yq, yop, 
-                                      yclaimed, tq, top, af, wf, wop, sf, sctx, 
-                                      xf, cop, kj, pp, pwk, np, nbp, nres, dp, 
-                                      nq >>
+                                      qrWaker, dnState, dnWaker, parkTok, 
+                                      barGen, myBar, cdone, rwb, rneed, dsl, 
+                                      atomic, strong, ppPending, ppClosed, 
+                                      ppNotify, ppNC, ppBP, ppDepth, ppAlive, 
+                                      ppHeld, inItems, inClosed, inWaker, 
+                                      pollFn, chuteFn, pwTaken, nextPoll, 
+                                      ppItem, pjLive, ppStage, h, dead, sti, 
+                                      smax, rq, sq, sj, ww, rsq, bown, bwk, bi, 
+                                      bcur, bw, bsp, jq, jj, jwk, fj, dq, dj, 
+                                      oq, oop, omode, oj, yq, yop, yclaimed, 
+                                      tq, top, af, wf, wop, sf, sctx, xf, cop, 
+                                      kj, pp, pwk, np, nbp, nres, dp, nq >>
 
 dq_empty_w(self) == /\ pc[self] = "dq_empty_w"
                     /\ fwaker' = [fwaker EXCEPT ![pf[self]] = pctx[self]]
@@ -6661,17 +6829,18 @@ dq_empty_w(self) == /\ pc[self] = "dq_empty_w"
                                     dblTaken, dblW1, dblW2, nextDW, ready, 
                                     cwait, cnotif, cvHeld, sdres, jpanic, sfst, 
                                     slotSt, qrSent, qrWaker, dnState, dnWaker, 
-                                    parkTok, rv, rwb, rneed, dsl, atomic, 
-                                    strong, ppPending, ppClosed, ppNotify, 
-                                    ppNC, ppBP, ppDepth, ppAlive, ppHeld, 
-                                    inItems, inClosed, inWaker, pollFn, 
-                                    chuteFn, pwTaken, nextPoll, ppItem, pjLive, 
-                                    ppStage, h, stack, dead, sti, rq, sq, sj, 
-                                    ww, rsq, bown, bwk, bi, bcur, bw, bsp, jq, 
-                                    jj, jwk, fj, dq, dj, oq, oop, omode, oj, 
-                                    yq, yop, yclaimed, tq, top, af, wf, wop, 
-                                    sf, sctx, xf, cop, kj, pp, pwk, np, nbp, 
-                                    nres, dp, pf, pctx, pq, pj, pd, nq >>
+                                    parkTok, barGen, myBar, cdone, rv, rwb, 
+                                    rneed, dsl, atomic, strong, ppPending, 
+                                    ppClosed, ppNotify, ppNC, ppBP, ppDepth, 
+                                    ppAlive, ppHeld, inItems, inClosed, 
+                                    inWaker, pollFn, chuteFn, pwTaken, 
+                                    nextPoll, ppItem, pjLive, ppStage, h, 
+                                    stack, dead, sti, smax, rq, sq, sj, ww, 
+                                    rsq, bown, bwk, bi, bcur, bw, bsp, jq, jj, 
+                                    jwk, fj, dq, dj, oq, oop, omode, oj, yq, 
+                                    yop, yclaimed, tq, top, af, wf, wop, sf, 
+                                    sctx, xf, cop, kj, pp, pwk, np, nbp, nres, 
+                                    dp, pf, pctx, pq, pj, pd, nq >>
 
 dq_empty_idle(self) == /\ pc[self] = "dq_empty_idle"
                        /\ qstate' = [qstate EXCEPT ![pq[self]] = "Idle"]
@@ -6690,17 +6859,18 @@ dq_empty_idle(self) == /\ pc[self] = "dq_empty_idle"
                                        dblW2, nextDW, ready, cwait, cnotif, 
                                        cvHeld, sdres, jpanic, sfst, slotSt, 
                                        qrSent, qrWaker, dnState, dnWaker, 
-                                       parkTok, rv, rwb, rneed, dsl, atomic, 
-                                       strong, ppPending, ppClosed, ppNotify, 
-                                       ppNC, ppBP, ppDepth, ppAlive, ppHeld, 
-                                       inItems, inClosed, inWaker, pollFn, 
-                                       chuteFn, pwTaken, nextPoll, ppItem, 
-                                       pjLive, ppStage, h, dead, sti, sq, sj, 
-                                       ww, rsq, bown, bwk, bi, bcur, bw, bsp, 
-                                       jq, jj, jwk, fj, dq, dj, oq, oop, omode, 
-                                       oj, yq, yop, yclaimed, tq, top, af, wf, 
-                                       wop, sf, sctx, xf, cop, kj, pp, pwk, np, 
-                                       nbp, nres, dp, pf, pctx, pq, pj, pd, nq >>
+                                       parkTok, barGen, myBar, cdone, rv, rwb, 
+                                       rneed, dsl, atomic, strong, ppPending, 
+                                       ppClosed, ppNotify, ppNC, ppBP, ppDepth, 
+                                       ppAlive, ppHeld, inItems, inClosed, 
+                                       inWaker, pollFn, chuteFn, pwTaken, 
+                                       nextPoll, ppItem, pjLive, ppStage, h, 
+                                       dead, sti, smax, sq, sj, ww, rsq, bown, 
+                                       bwk, bi, bcur, bw, bsp, jq, jj, jwk, fj, 
+                                       dq, dj, oq, oop, omode, oj, yq, yop, 
+                                       yclaimed, tq, top, af, wf, wop, sf, 
+                                       sctx, xf, cop, kj, pp, pwk, np, nbp, 
+                                       nres, dp, pf, pctx, pq, pj, pd, nq >>
 
 dq_idle(self) == /\ pc[self] = "dq_idle"
                  /\ qstate' = [qstate EXCEPT ![pq[self]] = "Idle"]
@@ -6717,17 +6887,17 @@ dq_idle(self) == /\ pc[self] = "dq_idle"
                                  gwhist, dwSt, dwW, dblTaken, dblW1, dblW2, 
                                  nextDW, ready, cwait, cnotif, cvHeld, sdres, 
                                  jpanic, sfst, slotSt, qrSent, qrWaker, 
-                                 dnState, dnWaker, parkTok, rv, rwb, rneed, 
-                                 dsl, atomic, strong, ppPending, ppClosed, 
-                                 ppNotify, ppNC, ppBP, ppDepth, ppAlive, 
-                                 ppHeld, inItems, inClosed, inWaker, pollFn, 
-                                 chuteFn, pwTaken, nextPoll, ppItem, pjLive, 
-                                 ppStage, h, dead, sti, sq, sj, ww, rsq, bown, 
-                                 bwk, bi, bcur, bw, bsp, jq, jj, jwk, fj, dq, 
-                                 dj, oq, oop, omode, oj, yq, yop, yclaimed, tq, 
-                                 top, af, wf, wop, sf, sctx, xf, cop, kj, pp, 
-                                 pwk, np, nbp, nres, dp, pf, pctx, pq, pj, pd, 
-                                 nq >>
+                                 dnState, dnWaker, parkTok, barGen, myBar, 
+                                 cdone, rv, rwb, rneed, dsl, atomic, strong, 
+                                 ppPending, ppClosed, ppNotify, ppNC, ppBP, 
+                                 ppDepth, ppAlive, ppHeld, inItems, inClosed, 
+                                 inWaker, pollFn, chuteFn, pwTaken, nextPoll, 
+                                 ppItem, pjLive, ppStage, h, dead, sti, smax, 
+                                 sq, sj, ww, rsq, bown, bwk, bi, bcur, bw, bsp, 
+                                 jq, jj, jwk, fj, dq, dj, oq, oop, omode, oj, 
+                                 yq, yop, yclaimed, tq, top, af, wf, wop, sf, 
+                                 sctx, xf, cop, kj, pp, pwk, np, nbp, nres, dp, 
+                                 pf, pctx, pq, pj, pd, nq >>
 
 dq_panic(self) == /\ pc[self] = "dq_panic"
                   /\ qstate' = [qstate EXCEPT ![pq[self]] = "Panicked"]
@@ -6746,16 +6916,17 @@ dq_panic(self) == /\ pc[self] = "dq_panic"
                                   gwhist, dwSt, dwW, dblTaken, dblW1, dblW2, 
                                   nextDW, ready, cwait, cnotif, cvHeld, sdres, 
                                   jpanic, sfst, slotSt, qrSent, qrWaker, 
-                                  dnState, dnWaker, parkTok, rwb, rneed, dsl, 
-                                  atomic, strong, ppPending, ppClosed, 
-                                  ppNotify, ppNC, ppBP, ppDepth, ppAlive, 
-                                  ppHeld, inItems, inClosed, inWaker, pollFn, 
-                                  chuteFn, pwTaken, nextPoll, ppItem, pjLive, 
-                                  ppStage, h, dead, sti, rq, sq, sj, ww, rsq, 
-                                  bown, bwk, bi, bcur, bw, bsp, jq, jj, jwk, 
-                                  fj, dq, dj, oq, oop, omode, oj, yq, yop, 
-                                  yclaimed, tq, top, af, wf, wop, sf, sctx, xf, 
-                                  cop, kj, pp, pwk, np, nbp, nres, dp, nq >>
+                                  dnState, dnWaker, parkTok, barGen, myBar, 
+                                  cdone, rwb, rneed, dsl, atomic, strong, 
+                                  ppPending, ppClosed, ppNotify, ppNC, ppBP, 
+                                  ppDepth, ppAlive, ppHeld, inItems, inClosed, 
+                                  inWaker, pollFn, chuteFn, pwTaken, nextPoll, 
+                                  ppItem, pjLive, ppStage, h, dead, sti, smax, 
+                                  rq, sq, sj, ww, rsq, bown, bwk, bi, bcur, bw, 
+                                  bsp, jq, jj, jwk, fj, dq, dj, oq, oop, omode, 
+                                  oj, yq, yop, yclaimed, tq, top, af, wf, wop, 
+                                  sf, sctx, xf, cop, kj, pp, pwk, np, nbp, 
+                                  nres, dp, nq >>
 
 PollFuture(self) == pf_decide(self) \/ dq_res(self) \/ dq_deq(self)
                        \/ z_dq_after(self) \/ dq_requeue(self)
@@ -6792,19 +6963,20 @@ c_start(self) == /\ pc[self] = "c_start"
                                  gthreads, gwhist, dwSt, dwW, dblTaken, dblW1, 
                                  dblW2, nextDW, ready, cwait, cnotif, cvHeld, 
                                  sdres, jpanic, sfst, slotSt, qrSent, qrWaker, 
-                                 dnState, dnWaker, parkTok, rv, rwb, rneed, 
-                                 dsl, atomic, strong, ppPending, ppClosed, 
-                                 ppNotify, ppNC, ppBP, ppDepth, ppAlive, 
-                                 ppHeld, inItems, inClosed, inWaker, pollFn, 
-                                 chuteFn, pwTaken, nextPoll, ppItem, pjLive, 
-                                 ppStage, h, dead, sti, rq, sq, sj, ww, jq, jj, 
-                                 jwk, fj, dq, dj, oq, oop, omode, oj, yq, yop, 
-                                 yclaimed, tq, top, af, wf, wop, sf, sctx, xf, 
-                                 cop, kj, pp, pwk, np, nbp, nres, dp, pf, pctx, 
-                                 pq, pj, pd, nq >>
+                                 dnState, dnWaker, parkTok, barGen, myBar, 
+                                 cdone, rv, rwb, rneed, dsl, atomic, strong, 
+                                 ppPending, ppClosed, ppNotify, ppNC, ppBP, 
+                                 ppDepth, ppAlive, ppHeld, inItems, inClosed, 
+                                 inWaker, pollFn, chuteFn, pwTaken, nextPoll, 
+                                 ppItem, pjLive, ppStage, h, dead, sti, smax, 
+                                 rq, sq, sj, ww, jq, jj, jwk, fj, dq, dj, oq, 
+                                 oop, omode, oj, yq, yop, yclaimed, tq, top, 
+                                 af, wf, wop, sf, sctx, xf, cop, kj, pp, pwk, 
+                                 np, nbp, nres, dp, pf, pctx, pq, pj, pd, nq >>
 
 z_c_exit(self) == /\ pc[self] = "z_c_exit"
                   /\ h' = ObsExit(h, self, 0, 0)
+                  /\ cdone' = [cdone EXCEPT ![self] = TRUE]
                   /\ pc' = [pc EXCEPT ![self] = "Done"]
                   /\ UNCHANGED << qstate, qpoll, jobs, wakeBlocked, schedule, 
                                   pthreads, nspawned, palive, busy, busyLocked, 
@@ -6813,17 +6985,17 @@ z_c_exit(self) == /\ pc[self] = "z_c_exit"
                                   gthreads, gwhist, dwSt, dwW, dblTaken, dblW1, 
                                   dblW2, nextDW, ready, cwait, cnotif, cvHeld, 
                                   sdres, jpanic, sfst, slotSt, qrSent, qrWaker, 
-                                  dnState, dnWaker, parkTok, rv, rwb, rneed, 
-                                  dsl, atomic, strong, ppPending, ppClosed, 
-                                  ppNotify, ppNC, ppBP, ppDepth, ppAlive, 
-                                  ppHeld, inItems, inClosed, inWaker, pollFn, 
-                                  chuteFn, pwTaken, nextPoll, ppItem, pjLive, 
-                                  ppStage, stack, dead, sti, rq, sq, sj, ww, 
-                                  rsq, bown, bwk, bi, bcur, bw, bsp, jq, jj, 
-                                  jwk, fj, dq, dj, oq, oop, omode, oj, yq, yop, 
-                                  yclaimed, tq, top, af, wf, wop, sf, sctx, xf, 
-                                  cop, kj, pp, pwk, np, nbp, nres, dp, pf, 
-                                  pctx, pq, pj, pd, nq >>
+                                  dnState, dnWaker, parkTok, barGen, myBar, rv, 
+                                  rwb, rneed, dsl, atomic, strong, ppPending, 
+                                  ppClosed, ppNotify, ppNC, ppBP, ppDepth, 
+                                  ppAlive, ppHeld, inItems, inClosed, inWaker, 
+                                  pollFn, chuteFn, pwTaken, nextPoll, ppItem, 
+                                  pjLive, ppStage, stack, dead, sti, smax, rq, 
+                                  sq, sj, ww, rsq, bown, bwk, bi, bcur, bw, 
+                                  bsp, jq, jj, jwk, fj, dq, dj, oq, oop, omode, 
+                                  oj, yq, yop, yclaimed, tq, top, af, wf, wop, 
+                                  sf, sctx, xf, cop, kj, pp, pwk, np, nbp, 
+                                  nres, dp, pf, pctx, pq, pj, pd, nq >>
 
 caller(self) == c_start(self) \/ z_c_exit(self)
 
@@ -6844,17 +7016,17 @@ pt_recv(self) == /\ pc[self] = "pt_recv"
                                  gwhist, dwSt, dwW, dblTaken, dblW1, dblW2, 
                                  nextDW, ready, cwait, cnotif, cvHeld, sdres, 
                                  jpanic, sfst, slotSt, qrSent, qrWaker, 
-                                 dnState, dnWaker, parkTok, rv, rwb, rneed, 
-                                 dsl, atomic, strong, ppPending, ppClosed, 
-                                 ppNotify, ppNC, ppBP, ppDepth, ppAlive, 
-                                 ppHeld, inItems, inClosed, inWaker, pollFn, 
-                                 chuteFn, pwTaken, nextPoll, ppItem, pjLive, 
-                                 ppStage, stack, dead, sti, rq, sq, sj, ww, 
-                                 rsq, bown, bwk, bi, bcur, bw, bsp, jq, jj, 
-                                 jwk, fj, dq, dj, oq, oop, omode, oj, yq, yop, 
-                                 yclaimed, tq, top, af, wf, wop, sf, sctx, xf, 
-                                 cop, kj, pp, pwk, np, nbp, nres, dp, pf, pctx, 
-                                 pq, pj, pd, nq >>
+                                 dnState, dnWaker, parkTok, barGen, myBar, 
+                                 cdone, rv, rwb, rneed, dsl, atomic, strong, 
+                                 ppPending, ppClosed, ppNotify, ppNC, ppBP, 
+                                 ppDepth, ppAlive, ppHeld, inItems, inClosed, 
+                                 inWaker, pollFn, chuteFn, pwTaken, nextPoll, 
+                                 ppItem, pjLive, ppStage, stack, dead, sti, 
+                                 smax, rq, sq, sj, ww, rsq, bown, bwk, bi, 
+                                 bcur, bw, bsp, jq, jj, jwk, fj, dq, dj, oq, 
+                                 oop, omode, oj, yq, yop, yclaimed, tq, top, 
+                                 af, wf, wop, sf, sctx, xf, cop, kj, pp, pwk, 
+                                 np, nbp, nres, dp, pf, pctx, pq, pj, pd, nq >>
 
 pt_next(self) == /\ pc[self] = "pt_next"
                  /\ LET r == NTR(schedule) IN
@@ -6873,17 +7045,17 @@ pt_next(self) == /\ pc[self] = "pt_next"
                                  gwaker, gthreads, gwhist, dwSt, dwW, dblTaken, 
                                  dblW1, dblW2, nextDW, ready, cwait, cnotif, 
                                  cvHeld, sdres, jpanic, sfst, slotSt, qrSent, 
-                                 qrWaker, dnState, dnWaker, parkTok, rv, rwb, 
-                                 rneed, dsl, atomic, strong, ppPending, 
-                                 ppClosed, ppNotify, ppNC, ppBP, ppDepth, 
-                                 ppAlive, ppHeld, inItems, inClosed, inWaker, 
-                                 pollFn, chuteFn, pwTaken, nextPoll, ppItem, 
-                                 pjLive, ppStage, h, stack, dead, sti, rq, sq, 
-                                 sj, ww, rsq, bown, bwk, bi, bcur, bw, bsp, jq, 
-                                 jj, jwk, fj, dq, dj, oq, oop, omode, oj, yq, 
-                                 yop, yclaimed, tq, top, af, wf, wop, sf, sctx, 
-                                 xf, cop, kj, pp, pwk, np, nbp, nres, dp, pf, 
-                                 pctx, pq, pj, pd >>
+                                 qrWaker, dnState, dnWaker, parkTok, barGen, 
+                                 myBar, cdone, rv, rwb, rneed, dsl, atomic, 
+                                 strong, ppPending, ppClosed, ppNotify, ppNC, 
+                                 ppBP, ppDepth, ppAlive, ppHeld, inItems, 
+                                 inClosed, inWaker, pollFn, chuteFn, pwTaken, 
+                                 nextPoll, ppItem, pjLive, ppStage, h, stack, 
+                                 dead, sti, smax, rq, sq, sj, ww, rsq, bown, 
+                                 bwk, bi, bcur, bw, bsp, jq, jj, jwk, fj, dq, 
+                                 dj, oq, oop, omode, oj, yq, yop, yclaimed, tq, 
+                                 top, af, wf, wop, sf, sctx, xf, cop, kj, pp, 
+                                 pwk, np, nbp, nres, dp, pf, pctx, pq, pj, pd >>
 
 pt_after(self) == /\ pc[self] = "pt_after"
                   /\ busyLocked' = [busyLocked EXCEPT ![self] = FALSE]
@@ -6907,17 +7079,17 @@ pt_after(self) == /\ pc[self] = "pt_after"
                                   dwSt, dwW, dblTaken, dblW1, dblW2, nextDW, 
                                   ready, cwait, cnotif, cvHeld, sdres, jpanic, 
                                   sfst, slotSt, qrSent, qrWaker, dnState, 
-                                  dnWaker, parkTok, rv, rwb, rneed, dsl, 
-                                  atomic, strong, ppPending, ppClosed, 
-                                  ppNotify, ppNC, ppBP, ppDepth, ppAlive, 
-                                  ppHeld, inItems, inClosed, inWaker, pollFn, 
-                                  chuteFn, pwTaken, nextPoll, ppItem, pjLive, 
-                                  ppStage, h, dead, sti, rq, sq, sj, ww, rsq, 
-                                  bown, bwk, bi, bcur, bw, bsp, jq, jj, jwk, 
-                                  fj, oq, oop, omode, oj, yq, yop, yclaimed, 
-                                  tq, top, af, wf, wop, sf, sctx, xf, cop, kj, 
-                                  pp, pwk, np, nbp, nres, dp, pf, pctx, pq, pj, 
-                                  pd, nq >>
+                                  dnWaker, parkTok, barGen, myBar, cdone, rv, 
+                                  rwb, rneed, dsl, atomic, strong, ppPending, 
+                                  ppClosed, ppNotify, ppNC, ppBP, ppDepth, 
+                                  ppAlive, ppHeld, inItems, inClosed, inWaker, 
+                                  pollFn, chuteFn, pwTaken, nextPoll, ppItem, 
+                                  pjLive, ppStage, h, dead, sti, smax, rq, sq, 
+                                  sj, ww, rsq, bown, bwk, bi, bcur, bw, bsp, 
+                                  jq, jj, jwk, fj, oq, oop, omode, oj, yq, yop, 
+                                  yclaimed, tq, top, af, wf, wop, sf, sctx, xf, 
+                                  cop, kj, pp, pwk, np, nbp, nres, dp, pf, 
+                                  pctx, pq, pj, pd, nq >>
 
 z_pt_chk(self) == /\ pc[self] = "z_pt_chk"
                   /\ IF rv[self] = 9
@@ -6933,17 +7105,17 @@ z_pt_chk(self) == /\ pc[self] = "z_pt_chk"
                                   gwhist, dwSt, dwW, dblTaken, dblW1, dblW2, 
                                   nextDW, ready, cwait, cnotif, cvHeld, sdres, 
                                   jpanic, sfst, slotSt, qrSent, qrWaker, 
-                                  dnState, dnWaker, parkTok, rv, rwb, rneed, 
-                                  dsl, atomic, strong, ppPending, ppClosed, 
-                                  ppNotify, ppNC, ppBP, ppDepth, ppAlive, 
-                                  ppHeld, inItems, inClosed, inWaker, pollFn, 
-                                  chuteFn, pwTaken, nextPoll, ppItem, pjLive, 
-                                  ppStage, stack, dead, sti, rq, sq, sj, ww, 
-                                  rsq, bown, bwk, bi, bcur, bw, bsp, jq, jj, 
-                                  jwk, fj, dq, dj, oq, oop, omode, oj, yq, yop, 
-                                  yclaimed, tq, top, af, wf, wop, sf, sctx, xf, 
-                                  cop, kj, pp, pwk, np, nbp, nres, dp, pf, 
-                                  pctx, pq, pj, pd, nq >>
+                                  dnState, dnWaker, parkTok, barGen, myBar, 
+                                  cdone, rv, rwb, rneed, dsl, atomic, strong, 
+                                  ppPending, ppClosed, ppNotify, ppNC, ppBP, 
+                                  ppDepth, ppAlive, ppHeld, inItems, inClosed, 
+                                  inWaker, pollFn, chuteFn, pwTaken, nextPoll, 
+                                  ppItem, pjLive, ppStage, stack, dead, sti, 
+                                  smax, rq, sq, sj, ww, rsq, bown, bwk, bi, 
+                                  bcur, bw, bsp, jq, jj, jwk, fj, dq, dj, oq, 
+                                  oop, omode, oj, yq, yop, yclaimed, tq, top, 
+                                  af, wf, wop, sf, sctx, xf, cop, kj, pp, pwk, 
+                                  np, nbp, nres, dp, pf, pctx, pq, pj, pd, nq >>
 
 z_pt_done(self) == /\ pc[self] = "z_pt_done"
                    /\ TRUE
@@ -6956,17 +7128,17 @@ z_pt_done(self) == /\ pc[self] = "z_pt_done"
                                    dblTaken, dblW1, dblW2, nextDW, ready, 
                                    cwait, cnotif, cvHeld, sdres, jpanic, sfst, 
                                    slotSt, qrSent, qrWaker, dnState, dnWaker, 
-                                   parkTok, rv, rwb, rneed, dsl, atomic, 
-                                   strong, ppPending, ppClosed, ppNotify, ppNC, 
-                                   ppBP, ppDepth, ppAlive, ppHeld, inItems, 
-                                   inClosed, inWaker, pollFn, chuteFn, pwTaken, 
-                                   nextPoll, ppItem, pjLive, ppStage, h, stack, 
-                                   dead, sti, rq, sq, sj, ww, rsq, bown, bwk, 
-                                   bi, bcur, bw, bsp, jq, jj, jwk, fj, dq, dj, 
-                                   oq, oop, omode, oj, yq, yop, yclaimed, tq, 
-                                   top, af, wf, wop, sf, sctx, xf, cop, kj, pp, 
-                                   pwk, np, nbp, nres, dp, pf, pctx, pq, pj, 
-                                   pd, nq >>
+                                   parkTok, barGen, myBar, cdone, rv, rwb, 
+                                   rneed, dsl, atomic, strong, ppPending, 
+                                   ppClosed, ppNotify, ppNC, ppBP, ppDepth, 
+                                   ppAlive, ppHeld, inItems, inClosed, inWaker, 
+                                   pollFn, chuteFn, pwTaken, nextPoll, ppItem, 
+                                   pjLive, ppStage, h, stack, dead, sti, smax, 
+                                   rq, sq, sj, ww, rsq, bown, bwk, bi, bcur, 
+                                   bw, bsp, jq, jj, jwk, fj, dq, dj, oq, oop, 
+                                   omode, oj, yq, yop, yclaimed, tq, top, af, 
+                                   wf, wop, sf, sctx, xf, cop, kj, pp, pwk, np, 
+                                   nbp, nres, dp, pf, pctx, pq, pj, pd, nq >>
 
 pool(self) == pt_recv(self) \/ pt_next(self) \/ pt_after(self)
                  \/ z_pt_chk(self) \/ z_pt_done(self)
